@@ -1,9 +1,20 @@
-"""C03 — bulk indexing ingests every corpus document exactly once across clients (DESIGN.md section 4, C03)."""
+"""C03 — bulk indexing ingests every corpus document exactly once across clients (DESIGN.md section 4, C03).
+
+How the module decides (hardening round 2): the clauses of the property are statements about what the bulk parameter source hands to the runner, so they are decided END TO END ON
+VALUES - `_pipeline_verdicts` instantiates the analysed classes in a small local evaluator (`_M`, nothing of the repository is imported or run) and drives them through the driver's
+contract on a corpus model; every evaluated configuration is one obligation instance of the rule whose clause it decides (`_SIM_ROWS`). The structural obligations of the first phase
+are kept as RECOGNISERS: on the shape they know they discharge the obligation and, for a defect, name the construct; a shape they do not know (extracted helper, renamed attribute,
+comprehension instead of loop, ...) is never a finding by itself - `ob()` in `run` then lets the value runs the clause is about decide (`_RULE_SIMS`): falsified only if the evaluated
+pipeline emits something wrong, inconclusive only if it cannot be evaluated either."""
 from __future__ import annotations
 
 import ast
+import collections
 import decimal
 import fractions
+import functools
+import itertools
+import json
 import math
 import operator
 
@@ -55,6 +66,15 @@ def _unpack_names(call):
     return None
 
 
+def _triple_call(f):
+    """the call in f whose result is unpacked into three targets (offset, documents, lines of a slice), else None."""
+    for c in source.calls_in(f):
+        st = source.enclosing_stmt(c)
+        if isinstance(st, ast.Assign) and st.value is c and len(st.targets) == 1 and isinstance(st.targets[0], ast.Tuple) and len(st.targets[0].elts) == 3:
+            return c
+    return None
+
+
 def _returned_name(f, pos=None):
     """the local returned by the single return of f (pos: element of the returned tuple), else None."""
     r = [x for x in walk_body(f) if isinstance(x, ast.Return)]
@@ -77,9 +97,10 @@ def _empty_list_local(f, name) -> bool:
 
 
 # ---- local value evaluation ---------------------------------------------------------------------------------------------------------------------
-# sa/minieval.py knows neither math.ceil / fractions.Fraction / decimal.Decimal nor "this expression raises ZeroDivisionError" as an OUTCOME (it reports CannotEval), and it has no
-# statement level. The three rules below that are decided on VALUES (ingest-percentage cut-off, progress of an empty partition, who gets which parameter source) need exactly that,
-# so a small evaluator lives here. Like minieval it only interprets EXTRACTED pure expressions / straight-line + if / try code on representative values; no repository code is called.
+# sa/minieval.py interprets pure expressions only. The rules of this module that are decided on VALUES need more: statements, exceptions as outcomes, exact arithmetic and - for the
+# end-to-end evaluation of the bulk pipeline - objects, loops, generators and calls between the analysed functions. A small machine for that subset of Python lives here. Like
+# minieval it only ever interprets EXTRACTED syntax trees on representative values supplied by the rule; no function of the repository is called or imported. Whatever it does not
+# interpret raises _Cannot: the rule then reports 'not recognised' (inconclusive), never a verdict.
 
 
 class _Cannot(Exception):
@@ -102,150 +123,940 @@ class _Raised(Exception):
         self.name = name
 
 
+class _Diverges(_Raised):
+    """the evaluated code runs far longer than any representative input warrants (a loop that makes no progress)."""
+
+    def __init__(self, steps):
+        super().__init__("NoProgress", f"still running after {steps} evaluation steps")
+
+
 class _Opaque:
     """a value the evaluator could not compute; using it is _Cannot, merely storing it is fine."""
 
+    def __repr__(self):
+        return "<opaque>"
+
 
 _OPAQUE = _Opaque()
+_MISSING = object()
+
+
+class _Obj:
+    """an object of the evaluated world: an instance of an analysed class (attributes are set by the interpreted code) or a stand-in the rule supplies for a collaborator
+    (native: method name -> python callable)."""
+
+    def __init__(self, cls=None, attrs=None, native=None, label="", partial=True):
+        # partial: the rule built the object and set only the attributes it cares about - a missing one is 'cannot evaluate', not an AttributeError of the evaluated program
+        self.cls, self.attrs, self.native, self.label, self.partial = cls, dict(attrs or {}), dict(native or {}), label, partial
+
+    def __repr__(self):
+        return f"<{self.label or (self.cls.name if self.cls is not None else 'object')}>"
+
+
+class _FnDef:
+    """a function of the analysed module as a value (cls: the class it was found in, env: the enclosing function's variables for a nested def / lambda)."""
+
+    def __init__(self, node, cls=None, env=None):
+        self.node, self.cls, self.env = node, cls, env
+
+
+class _Bound:
+    def __init__(self, obj, fn):
+        self.obj, self.fn = obj, fn
+
+
+class _Cls:
+    def __init__(self, node):
+        self.node = node
+
+
+class _Ref:
+    """an imported module / object that is not interpreted (attribute access extends the path; the rule may bind paths to stand-ins)."""
+
+    def __init__(self, path):
+        self.path = path
+
+    def __repr__(self):
+        return f"<{self.path}>"
+
+
+class _Gen:
+    """a generator of the evaluated world. Generator functions are evaluated EAGERLY (the values are collected, then handed out one by one): equivalent as long as the consumer
+    does not feed back into the generator, which holds for the pipelines evaluated here."""
+
+    def __init__(self, values):
+        self.it = iter(values)
+
+
+class _Exc:
+    """the value bound by `except E as x`."""
+
+    def __init__(self, name):
+        self.name = name
+
+
 _NUM = (int, float, fractions.Fraction, decimal.Decimal)
-_LIB = {"math.ceil": math.ceil, "math.floor": math.floor, "math.trunc": math.trunc, "fractions.Fraction": fractions.Fraction, "decimal.Decimal": decimal.Decimal, "int": int, "float": float,
-        "str": str, "repr": repr, "round": round, "abs": abs, "min": min, "max": max, "bool": bool}
+_LIB = {"math.ceil": math.ceil, "math.floor": math.floor, "math.trunc": math.trunc, "fractions.Fraction": fractions.Fraction, "decimal.Decimal": decimal.Decimal,
+        "operator.lt": operator.lt, "operator.le": operator.le, "operator.gt": operator.gt, "operator.ge": operator.ge, "operator.eq": operator.eq, "operator.ne": operator.ne,
+        "operator.add": operator.add, "operator.sub": operator.sub, "operator.mul": operator.mul, "operator.floordiv": operator.floordiv, "operator.mod": operator.mod,
+        "collections.deque": collections.deque, "itertools.chain": itertools.chain, "itertools.islice": itertools.islice, "itertools.cycle": itertools.cycle,
+        "itertools.zip_longest": itertools.zip_longest, "itertools.chain.from_iterable": itertools.chain.from_iterable, "functools.reduce": functools.reduce,
+        "collections.OrderedDict": collections.OrderedDict, "collections.Counter": collections.Counter, "json.dumps": json.dumps, "json.loads": json.loads, "math.isclose": math.isclose,
+        "math.inf": math.inf, "math.fsum": math.fsum, "math.gcd": math.gcd, "operator.itemgetter": operator.itemgetter}
+_BUILTINS = {"int": int, "float": float, "str": str, "repr": repr, "round": round, "abs": abs, "min": min, "max": max, "bool": bool, "len": len, "sum": sum, "divmod": divmod, "range": range,
+             "sorted": sorted, "list": list, "tuple": tuple, "dict": dict, "set": set, "frozenset": frozenset, "enumerate": enumerate, "zip": zip, "reversed": reversed, "any": any,
+             "all": all, "bytes": bytes, "pow": pow, "True": True, "False": False, "None": None}
+_ITERATING = {list, tuple, set, frozenset, sorted, sum, enumerate, zip, any, all, min, max, reversed, dict, collections.deque, itertools.chain, itertools.islice, itertools.cycle,
+              itertools.zip_longest, itertools.chain.from_iterable, functools.reduce}
+_METHODS = {"append", "extend", "pop", "popleft", "appendleft", "extendleft", "insert", "remove", "clear", "copy", "get", "items", "keys", "values", "update", "setdefault", "join", "encode",
+            "decode", "strip", "lstrip", "rstrip", "split", "rsplit", "splitlines", "startswith", "endswith", "format", "lower", "upper", "replace", "rotate", "index", "count", "sort", "reverse",
+            "add", "discard", "union", "partition", "isdigit", "zfill", "bit_length", "is_integer", "popitem", "find", "title", "capitalize"}
 _ARITH = {ast.Add: operator.add, ast.Sub: operator.sub, ast.Mult: operator.mul, ast.Div: operator.truediv, ast.FloorDiv: operator.floordiv, ast.Mod: operator.mod, ast.Pow: operator.pow}
 _CMPOP = {ast.Eq: operator.eq, ast.NotEq: operator.ne, ast.Lt: operator.lt, ast.LtE: operator.le, ast.Gt: operator.gt, ast.GtE: operator.ge, ast.Is: operator.is_, ast.IsNot: operator.is_not,
           ast.In: lambda a, b: a in b, ast.NotIn: lambda a, b: a not in b}
-_BASES = {"ZeroDivisionError": ("ArithmeticError",), "OverflowError": ("ArithmeticError",), "InvalidOperation": ("ArithmeticError",), "KeyError": ("LookupError",), "IndexError": ("LookupError",)}
+_BASES = {"ZeroDivisionError": ("ArithmeticError",), "OverflowError": ("ArithmeticError",), "InvalidOperation": ("ArithmeticError",), "KeyError": ("LookupError",), "IndexError": ("LookupError",),
+          "FileNotFoundError": ("OSError", "IOError"), "IOError": ("OSError",), "NoProgress": ()}
+_SEQ = (list, tuple, str, bytes)
+_CONTAINERS = (list, tuple, dict, set, frozenset, str, bytes, range, collections.deque)
+_MUTABLE = (list, dict, set, collections.deque, _Obj, _Gen)
 
 
-def _guarded(fn, *args):
+def _plain(v, depth=0) -> bool:
+    """a value of the host language whose operators mean what they mean in the evaluated program."""
+    if v is None or isinstance(v, (bool, str, bytes) + _NUM):
+        return True
+    if depth < 4 and isinstance(v, (list, tuple, set, frozenset, collections.deque)):
+        return all(_plain(x, depth + 1) for x in v)
+    if depth < 4 and isinstance(v, dict):
+        return all(_plain(k, depth + 1) and _plain(x, depth + 1) for k, x in v.items())
+    return isinstance(v, range)
+
+
+def _guarded(fn, *args, **kwargs):
     try:
-        return fn(*args)
-    except (ArithmeticError, TypeError, ValueError) as x:  # ZeroDivisionError, OverflowError, decimal.InvalidOperation, unsupported operand types, int("x")
+        return fn(*args, **kwargs)
+    except (_Cannot, _Raised):
+        raise
+    except StopIteration:
+        raise _Raised("StopIteration")
+    except (ArithmeticError, ValueError, LookupError) as x:  # ZeroDivisionError, OverflowError, decimal.InvalidOperation, int("x"), [][0], {}["k"]
         raise _Raised(type(x).__name__, str(x))
+    except (TypeError, AttributeError) as x:  # unsupported operand types: a verdict only when every operand is a value of the host language
+        if all(_plain(a) for a in list(args) + list(kwargs.values())):
+            raise _Raised(type(x).__name__, str(x))
+        raise _Cannot(f"{getattr(fn, '__name__', fn)}: {x}")
+
+
+def _dotted(e):
+    """source.dotted, remembered on the node (the evaluator asks for it on every evaluation of an attribute)."""
+    try:
+        return e._c03_dotted
+    except AttributeError:
+        e._c03_dotted = d = dotted(e)
+        return d
+
+
+def _is_logging(e) -> bool:
+    """`<something called log / logger / logging>.<level>(..)`: reads its arguments, changes nothing the evaluated program can see."""
+    if not (isinstance(e, ast.Call) and isinstance(e.func, ast.Attribute) and e.func.attr in ("debug", "info", "warning", "warn", "error", "exception", "critical", "log")):
+        return False
+    return any((isinstance(x, ast.Name) and "log" in x.id.lower()) or (isinstance(x, ast.Attribute) and "log" in x.attr.lower()) for x in ast.walk(e.func.value))
+
+
+def _has_yield(f) -> bool:
+    r = getattr(f, "_c03_yields", None)
+    if r is None:
+        r = f._c03_yields = any(isinstance(n, (ast.Yield, ast.YieldFrom)) for n in walk_body(f))
+    return r
+
+
+class _M:
+    """the evaluator. mod: the analysed module (its functions, classes and literal constants are visible by name); imports: alias -> dotted path; hooks: dotted callee text ->
+    function(call node, env) for calls a rule interprets itself; ext: dotted path of an imported object -> stand-in value; env keys may be dotted texts ('self.total_bulks')
+    when the rule fixes single attributes instead of supplying an object."""
+
+    def __init__(self, mod=None, imports=None, hooks=None, ext=None, budget=400000):
+        self.mod, self.imports, self.hooks, self.ext = mod, (imports if imports is not None else (mod.imports if mod is not None else {})), hooks or {}, ext or {}
+        self.steps, self.budget, self.depth = 0, budget, 0
+        self._mro: dict = {}
+        self._glob: dict = {}
+        self._members: dict = {}
+        self._handling: list = []
+        self.special = {"next": self.b_next, "iter": self.b_iter, "filter": self.b_filter, "map": self.b_map, "isinstance": self.b_isinstance, "hasattr": self.b_hasattr,
+                        "getattr": self.b_getattr, "len": self.b_len}
+        self.ext = dict(self.ext)
+        self.ext.setdefault("functools.partial", self.b_partial)
+
+    # -- names and attributes -----------------------------------------------------------------------------------------------------------------------------------------
+    def tick(self):
+        self.steps += 1
+        if self.steps > self.budget:
+            raise _Diverges(self.steps)
+
+    def ref(self, path):
+        if path in self.ext:
+            return self.ext[path]
+        if path in _LIB:
+            return _LIB[path]
+        return _Ref(path)
+
+    def glob(self, name):
+        if name not in self._glob:
+            v = self._glob_lookup(name)
+            if isinstance(v, _MUTABLE):
+                return v  # (a module-level list / dict literal: a fresh value per look-up is the safe reading)
+            self._glob[name] = v
+        return self._glob[name]
+
+    def _glob_lookup(self, name):
+        if self.mod is not None:
+            n = self.mod.index().get(name)
+            if isinstance(n, source.FUNC_TYPES):
+                return _FnDef(n)
+            if isinstance(n, ast.ClassDef):
+                return _Cls(n)
+            c = self.mod.module_constant(name)
+            if c is not None:
+                return self.val(c, {})
+        if name in self.imports:
+            return self.ref(self.imports[name])
+        if name in self.special:
+            return self.special[name]
+        if name in _BUILTINS:
+            return _BUILTINS[name]
+        return _MISSING
+
+    def name(self, name, env):
+        if name in env:
+            if env[name] is _OPAQUE:
+                raise _Cannot(f"`{name}` has no representative value")
+            return env[name]
+        g = self.glob(name)
+        if g is _MISSING:
+            raise _Cannot(f"`{name}` is not bound")
+        return g
+
+    def mro(self, cls):
+        if id(cls) not in self._mro:
+            out = [cls]
+            for b in cls.bases:
+                n = self.mod.index().get(dotted(b) or "") if self.mod is not None else None
+                if isinstance(n, ast.ClassDef):
+                    out += [c for c in self.mro(n) if not any(c is x for x in out)]
+            self._mro[id(cls)] = out
+        return self._mro[id(cls)]
+
+    def closed(self, cls) -> bool:
+        """every base class of cls is defined in the module (or contributes no attributes of its own)."""
+        return all(isinstance(self.mod.index().get(dotted(b) or ""), ast.ClassDef) or (dotted(b) or "").rsplit(".", 1)[-1] in ("object", "ABC") for c in self.mro(cls) for b in c.bases) and \
+            not any(c.keywords for c in self.mro(cls))
+
+    def lookup(self, cls, name, after=None):
+        """(definition, owner class) of a class member through the base classes defined in the module (after: continue behind that class - super())."""
+        ck = (id(cls), name, id(after))
+        if ck in self._members:
+            return self._members[ck]
+        chain = self.mro(cls)
+        if after is not None:
+            i = [k for k, c in enumerate(chain) if c is after]
+            chain = chain[i[0] + 1:] if i else []
+        found = (None, None)
+        for c in chain:
+            for st in c.body:
+                if isinstance(st, source.FUNC_TYPES) and st.name == name and not any(isinstance(d, ast.Attribute) and d.attr in ("setter", "deleter") for d in st.decorator_list):
+                    found = (st, c)
+                elif isinstance(st, ast.Assign) and any(isinstance(t, ast.Name) and t.id == name for t in st.targets):
+                    found = (st.value, c)
+                if found[0] is not None:
+                    break
+            if found[0] is not None:
+                break
+        self._members[ck] = found
+        return found
+
+    def setter(self, cls, name):
+        for c in self.mro(cls):
+            for st in c.body:
+                if isinstance(st, source.FUNC_TYPES) and st.name == name and any(isinstance(d, ast.Attribute) and d.attr == "setter" for d in st.decorator_list):
+                    return st, c
+        return None, None
+
+    @staticmethod
+    def _decorated(f, what):
+        return any((dotted(d) or "").rsplit(".", 1)[-1] == what for d in f.decorator_list)
+
+    def getattr(self, base, name):
+        if isinstance(base, _Obj):
+            if name in base.attrs:
+                if base.cls is not None:
+                    d, owner = self.lookup(base.cls, name)
+                    if isinstance(d, source.FUNC_TYPES) and self._decorated(d, "property"):
+                        return self.call_def(d, [base], {}, owner)  # a property of the class takes precedence over an entry of the same name in the instance
+                if base.attrs[name] is _OPAQUE:
+                    raise _Cannot(f"attribute `{name}` of {base!r} has no representative value")
+                return base.attrs[name]
+            if name in base.native:
+                return base.native[name]
+            if base.cls is not None:
+                d, owner = self.lookup(base.cls, name)
+                if isinstance(d, source.FUNC_TYPES):
+                    if self._decorated(d, "property") or self._decorated(d, "cached_property"):
+                        return self.call_def(d, [base], {}, owner)
+                    if self._decorated(d, "staticmethod"):
+                        return _FnDef(d, owner)
+                    if self._decorated(d, "classmethod"):
+                        return _Bound(_Cls(base.cls), _FnDef(d, owner))
+                    return _Bound(base, _FnDef(d, owner))
+                if d is not None:
+                    return self.val(d, {})
+                if not base.partial and self.closed(base.cls) and not (name.startswith("__") and name.endswith("__")):
+                    raise _Raised("AttributeError", f"'{base.cls.name}' object has no attribute '{name}'")  # every class it inherits from is at hand: nobody defines it
+            raise _Cannot(f"attribute `{name}` of {base!r}")
+        if isinstance(base, _Cls):
+            d, owner = self.lookup(base.node, name)
+            if isinstance(d, source.FUNC_TYPES):
+                return _Bound(base, _FnDef(d, owner)) if self._decorated(d, "classmethod") else _FnDef(d, owner)
+            if d is not None:
+                return self.val(d, {})
+            raise _Cannot(f"attribute `{name}` of class {base.node.name}")
+        if isinstance(base, _Ref):
+            return self.ref(f"{base.path}.{name}")
+        if isinstance(base, _CONTAINERS + _NUM) and name in _METHODS and hasattr(base, name):
+            return getattr(base, name)
+        raise _Cannot(f"attribute `{name}` of a {type(base).__name__}")
+
+    def peek(self, e, env):
+        """value of a plain name / attribute chain if it is at hand (no evaluation, no effects), else None."""
+        if isinstance(e, ast.Starred):
+            e = e.value
+        if isinstance(e, ast.Name):
+            return env.get(e.id)
+        if isinstance(e, ast.Attribute):
+            k = dotted(e)
+            if k is not None and k in env:
+                return env[k]
+            b = self.peek(e.value, env)
+            return b.attrs.get(e.attr) if isinstance(b, _Obj) else None
+        return None
+
+    def touches_mutable(self, e, env) -> bool:
+        """an expression that could not be evaluated hands a mutable object of the evaluated world to some call: skipping it could lose an effect."""
+        for n in ast.walk(e):
+            if isinstance(n, ast.Call):
+                for c in list(n.args) + [k.value for k in n.keywords] + ([n.func.value] if isinstance(n.func, ast.Attribute) else []):
+                    if isinstance(self.peek(c, env), _MUTABLE):
+                        return True
+        return False
+
+    # -- values -------------------------------------------------------------------------------------------------------------------------------------------------------
+    def truth(self, v) -> bool:
+        if v is _OPAQUE:
+            raise _Cannot("truth value of an unknown value")
+        if isinstance(v, _Obj) and v.cls is not None:
+            for nm in ("__bool__", "__len__"):
+                d, owner = self.lookup(v.cls, nm)
+                if isinstance(d, source.FUNC_TYPES):
+                    return bool(self.call_def(d, [v], {}, owner))
+            return True
+        if isinstance(v, _Obj):
+            for nm in ("__bool__", "__len__"):
+                if nm in v.native:
+                    return bool(v.native[nm]())
+            return True
+        return bool(v)
+
+    def iterate(self, v):
+        if isinstance(v, _Gen):
+            return v.it
+        if isinstance(v, _Obj):
+            it = v
+            try:
+                it = self.apply(self.getattr(v, "__iter__"), [], {})
+            except _Cannot:
+                pass
+            if not isinstance(it, _Obj):
+                return self.iterate(it)
+            nx = self.getattr(it, "__next__")
+
+            def gen():
+                while True:
+                    try:
+                        x = self.apply(nx, [], {})
+                    except _Raised as r:
+                        if r.name == "StopIteration":
+                            return
+                        raise
+                    yield x
+
+            return gen()
+        if isinstance(v, _CONTAINERS) or (hasattr(v, "__next__") and not isinstance(v, (_Opaque, _Ref, _FnDef, _Bound, _Cls))):
+            return iter(v)
+        raise _Cannot(f"iteration over a {type(v).__name__}")
+
+    def b_next(self, it, *default):
+        try:
+            if isinstance(it, _Gen):
+                return _guarded(next, it.it)
+            if isinstance(it, _Obj):
+                return self.apply(self.getattr(it, "__next__"), [], {})
+            if hasattr(it, "__next__"):
+                return _guarded(next, it)
+        except _Raised as r:
+            if r.name == "StopIteration" and default:
+                return default[0]
+            raise
+        raise _Raised("TypeError", f"'{type(it).__name__}' object is not an iterator") if _plain(it) else _Cannot("next() of an unknown value")
+
+    def b_iter(self, v):
+        if isinstance(v, _Obj):
+            return self.apply(self.getattr(v, "__iter__"), [], {})
+        return v if isinstance(v, _Gen) else self.iterate(v)
+
+    def b_filter(self, f, it):
+        return _Gen([x for x in self.iterate(it) if self.truth(x if f is None else self.apply(f, [x], {}))])
+
+    def b_map(self, f, *its):
+        return _Gen([self.apply(f, list(xs), {}) for xs in zip(*[self.iterate(i) for i in its])])
+
+    def b_isinstance(self, v, t):
+        ts = t if isinstance(t, tuple) else (t,)
+        if isinstance(v, _Obj):
+            if v.cls is None:
+                raise _Cannot("isinstance() of a stand-in")
+            return any(isinstance(x, _Cls) and any(c is x.node for c in self.mro(v.cls)) for x in ts)
+        if all(isinstance(x, type) for x in ts) and _plain(v):
+            return isinstance(v, ts)
+        if all(isinstance(x, (type, _Cls)) for x in ts) and _plain(v):
+            return isinstance(v, tuple(x for x in ts if isinstance(x, type)))
+        raise _Cannot("isinstance()")
+
+    def b_hasattr(self, v, name):
+        if isinstance(v, _Obj) and v.cls is not None:
+            return name in v.attrs or name in v.native or self.lookup(v.cls, name)[0] is not None
+        raise _Cannot("hasattr()")
+
+    def b_getattr(self, v, name, *default):
+        if isinstance(v, _Obj) and v.cls is not None and not self.b_hasattr(v, name):
+            if default:
+                return default[0]
+            raise _Raised("AttributeError", name)
+        return self.getattr(v, name)
+
+    def b_partial(self, f, *a, **k):
+        def call(*a2, **k2):
+            return self.apply(f, list(a) + list(a2), {**k, **k2})
+
+        call._machine = True
+        return call
+
+    def b_len(self, v):
+        if isinstance(v, _Obj):
+            return self.apply(self.getattr(v, "__len__"), [], {})
+        if isinstance(v, _CONTAINERS):
+            return len(v)
+        raise _Raised("TypeError", f"object of type '{type(v).__name__}' has no len()") if _plain(v) else _Cannot(f"len() of a {type(v).__name__}")
+
+    def val(self, e, env):
+        self.tick()
+        t = type(e)
+        if t is ast.Constant:
+            return e.value
+        if t is ast.Name:
+            return self.name(e.id, env)
+        if t is ast.Attribute:
+            k = _dotted(e)
+            if k is not None and k in env:
+                if env[k] is _OPAQUE:
+                    raise _Cannot(f"`{k}` has no representative value")
+                return env[k]
+            return self.getattr(self.val(e.value, env), e.attr)
+        if t is ast.BinOp:
+            a, b = self.val(e.left, env), self.val(e.right, env)
+            op = type(e.op)
+            if op in _ARITH and isinstance(a, _NUM) and isinstance(b, _NUM):
+                return _guarded(_ARITH[op], a, b)
+            if op is ast.Add and any(isinstance(a, s) and isinstance(b, s) for s in _SEQ):
+                return a + b
+            if op is ast.Mult and ((isinstance(a, _SEQ) and isinstance(b, int)) or (isinstance(a, int) and isinstance(b, _SEQ))):
+                if (len(a) * b if isinstance(b, int) else len(b) * a) > 10 ** 6:
+                    raise _Cannot("sequence too long for evaluation")
+                return a * b
+            if op is ast.Mod and isinstance(a, (str, bytes)) and _plain(b):
+                return _guarded(operator.mod, a, b)
+            if op in (ast.BitOr, ast.BitAnd, ast.Sub) and isinstance(a, (set, frozenset)) and isinstance(b, (set, frozenset)):
+                return {ast.BitOr: operator.or_, ast.BitAnd: operator.and_, ast.Sub: operator.sub}[op](a, b)
+            if op in _ARITH and _plain(a) and _plain(b):
+                return _guarded(_ARITH[op], a, b)
+            raise _Cannot(f"`{u(e)[:60]}`: operands {type(a).__name__}, {type(b).__name__}")
+        if t is ast.UnaryOp:
+            v = self.val(e.operand, env)
+            if isinstance(e.op, ast.Not):
+                return not self.truth(v)
+            if isinstance(v, _NUM) and isinstance(e.op, (ast.USub, ast.UAdd)):
+                return -v if isinstance(e.op, ast.USub) else +v
+            raise _Cannot(f"`{u(e)[:60]}`")
+        if t is ast.BoolOp:
+            r = None
+            for x in e.values:
+                r = self.val(x, env)
+                if self.truth(r) != isinstance(e.op, ast.And):
+                    return r
+            return r
+        if t is ast.Compare:
+            left = self.val(e.left, env)
+            for op, c in zip(e.ops, e.comparators):
+                right = self.val(c, env)
+                if left is _OPAQUE or right is _OPAQUE:
+                    raise _Cannot(f"`{u(e)[:60]}`")
+                if not isinstance(op, (ast.Is, ast.IsNot)):
+                    for x in (left, right):
+                        if isinstance(x, _Obj) and x.cls is not None and self.lookup(x.cls, "__eq__")[0] is not None:
+                            raise _Cannot(f"`{u(e)[:60]}`: user-defined comparison")
+                if isinstance(op, (ast.Lt, ast.LtE, ast.Gt, ast.GtE)) and not (_plain(left) and _plain(right)):
+                    raise _Cannot(f"`{u(e)[:60]}`: ordering of {type(left).__name__}, {type(right).__name__}")
+                if isinstance(op, (ast.In, ast.NotIn)) and not isinstance(right, _CONTAINERS):
+                    raise _Cannot(f"`{u(e)[:60]}`: membership in a {type(right).__name__}")
+                if not _guarded(_CMPOP[type(op)], left, right):
+                    return False
+                left = right
+            return True
+        if t is ast.IfExp:
+            return self.val(e.body if self.truth(self.val(e.test, env)) else e.orelse, env)
+        if t is ast.Call:
+            return self.call(e, env)
+        if t in (ast.Tuple, ast.List, ast.Set):
+            out = []
+            for x in e.elts:
+                if isinstance(x, ast.Starred):
+                    out += list(self.iterate(self.val(x.value, env)))
+                else:
+                    out.append(self.val(x, env))
+            return tuple(out) if t is ast.Tuple else (out if t is ast.List else set(out))
+        if t is ast.Dict:
+            out = {}
+            for k, v in zip(e.keys, e.values):
+                if k is None:
+                    out.update(self.val(v, env))
+                else:
+                    out[self.val(k, env)] = self.val(v, env)
+            return out
+        if t is ast.Subscript:
+            base = self.val(e.value, env)
+            idx = self.index(e.slice, env)
+            if not isinstance(base, _CONTAINERS):
+                raise _Cannot(f"`{u(e)[:60]}`: subscript of a {type(base).__name__}")
+            return _guarded(operator.getitem, base, idx)
+        if t in (ast.ListComp, ast.SetComp, ast.GeneratorExp, ast.DictComp):
+            out = []
+            self.comp(e, 0, dict(env), out)
+            return out if t is ast.ListComp else (set(out) if t is ast.SetComp else (dict(out) if t is ast.DictComp else _Gen(out)))
+        if t is ast.JoinedStr:
+            out = []
+            for v in e.values:
+                if isinstance(v, ast.Constant):
+                    out.append(str(v.value))
+                else:
+                    x = self.val(v.value, env)
+                    spec = self.val(v.format_spec, env) if v.format_spec is not None else ""
+                    if not _plain(x) or v.conversion not in (-1, 115, 114):
+                        raise _Cannot(f"`{u(e)[:60]}`")
+                    x = repr(x) if v.conversion == 114 else (str(x) if v.conversion == 115 else x)
+                    out.append(_guarded(format, x, spec))
+            return "".join(out)
+        if t is ast.Lambda:
+            return _FnDef(e, None, env)
+        if t is ast.NamedExpr and isinstance(e.target, ast.Name):
+            env[e.target.id] = self.val(e.value, env)
+            return env[e.target.id]
+        if t is ast.Starred:
+            raise _Cannot("starred expression")
+        raise _Cannot(f"{t.__name__} `{u(e)[:60]}`")
+
+    def index(self, s, env):
+        if isinstance(s, ast.Slice):
+            return slice(*[self.val(x, env) if x is not None else None for x in (s.lower, s.upper, s.step)])
+        return self.val(s, env)
+
+    def comp(self, e, i, env, out):
+        if i == len(e.generators):
+            out.append((self.val(e.key, env), self.val(e.value, env)) if isinstance(e, ast.DictComp) else self.val(e.elt, env))
+            return
+        g = e.generators[i]
+        if g.is_async:
+            raise _Cannot("async comprehension")
+        for x in self.iterate(self.val(g.iter, env)):
+            self.tick()
+            env2 = dict(env)
+            self.assign(g.target, x, env2)
+            if all(self.truth(self.val(c, env2)) for c in g.ifs):
+                self.comp(e, i + 1, env2, out)
+
+    # -- calls --------------------------------------------------------------------------------------------------------------------------------------------------------
+    def arg(self, a, env):
+        try:
+            return self.val(a, env)
+        except _Cannot:
+            if self.touches_mutable(a, env):
+                raise
+            return _OPAQUE
+
+    def call(self, e, env):
+        d = _dotted(e.func) if self.hooks else None
+        if d is not None and d in self.hooks:
+            return self.hooks[d](e, env)
+        if isinstance(e.func, ast.Attribute) and isinstance(e.func.value, ast.Call) and dotted(e.func.value.func) == "super" and not e.func.value.args:
+            owner, slf = env.get("__class__"), env.get("__self__")
+            if owner is None or not isinstance(slf, (_Obj, _Cls)):
+                raise _Cannot("super() outside a method")
+            f, o2 = self.lookup(slf.cls if isinstance(slf, _Obj) else slf.node, e.func.attr, after=owner)
+            if f is None:
+                if e.func.attr in ("__init__", "__enter__", "__exit__", "__init_subclass__"):
+                    return slf if e.func.attr == "__enter__" else None  # object's own
+                raise _Cannot(f"`{u(e.func)}`: base method outside the module")
+            fv = _Bound(slf, _FnDef(f, o2))
+        else:
+            fv = self.val(e.func, env)
+        args, kwargs = [], {}
+        for a in e.args:
+            if isinstance(a, ast.Starred):
+                args += list(self.iterate(self.val(a.value, env)))
+            else:
+                args.append(self.arg(a, env))
+        for k in e.keywords:
+            if k.arg is None:
+                kwargs.update(self.val(k.value, env))
+            else:
+                kwargs[k.arg] = self.arg(k.value, env)
+        return self.apply(fv, args, kwargs, e)
+
+    def pyfn(self, v):
+        """a function of the evaluated world that a function of the host has to call (sort key, reducer)."""
+        if isinstance(v, (_FnDef, _Bound)):
+            return lambda *a, **k: self.apply(v, list(a), k)
+        return v
+
+    def apply(self, fv, args, kwargs, node=None):
+        self.tick()
+        if isinstance(fv, _FnDef):
+            return self.call_def(fv.node, args, kwargs, fv.cls, fv.env)
+        if isinstance(fv, _Bound):
+            return self.call_def(fv.fn.node, [fv.obj] + list(args), kwargs, fv.fn.cls, fv.fn.env)
+        if isinstance(fv, _Cls):
+            if any((dotted(b) or "").rsplit(".", 1)[-1] in ("Enum", "IntEnum", "Exception", "BaseException") for c in self.mro(fv.node) for b in c.bases):
+                raise _Cannot(f"instantiation of {fv.node.name}")
+            if any(c.decorator_list for c in self.mro(fv.node)):
+                raise _Cannot(f"instantiation of the decorated class {fv.node.name}")
+            obj = _Obj(fv.node, partial=False)
+            f, owner = self.lookup(fv.node, "__init__")
+            if isinstance(f, source.FUNC_TYPES):
+                self.call_def(f, [obj] + list(args), kwargs, owner)
+            elif args or kwargs:
+                raise _Cannot(f"{fv.node.name}(..): constructor outside the module")
+            return obj
+        if callable(fv) and not isinstance(fv, (_Obj, _Ref, _Opaque)):
+            if getattr(fv, "__self__", None) is self or getattr(fv, "_machine", False):
+                if any(a is _OPAQUE for a in list(args) + list(kwargs.values())) and not getattr(fv, "_opaque_ok", False):
+                    raise _Cannot(f"`{u(node)[:60] if node is not None else fv}`: argument without a representative value")
+                try:
+                    return fv(*args, **kwargs)
+                except TypeError as x:
+                    if "argument" in str(x) and ("positional" in str(x) or "keyword" in str(x)):
+                        raise _Cannot(f"a stand-in is called with other arguments than the rule expects: {x}")  # the collaborator's signature changed: not a verdict
+                    raise
+            if any(a is _OPAQUE for a in list(args) + list(kwargs.values())):
+                raise _Cannot(f"`{u(node)[:60] if node is not None else fv}`: argument without a representative value")
+            kwargs = {k: (self.pyfn(v) if k == "key" else v) for k, v in kwargs.items()}
+            if fv is functools.reduce and args:
+                args = [self.pyfn(args[0])] + list(args[1:])
+            try:
+                consuming = fv in _ITERATING
+            except TypeError:
+                consuming = False
+            # a generator of the evaluated world is handed over as the values it yields; an iterable object only to the functions known to consume their argument
+            args = [list(self.iterate(a)) if isinstance(a, _Gen) or (consuming and isinstance(a, _Obj)) else a for a in args]
+            return _guarded(fv, *args, **kwargs)
+        raise _Cannot(f"call `{u(node)[:60] if node is not None else fv!r}`")
+
+    def bind(self, f, args, kwargs, env):
+        a = f.args
+        pos = [x.arg for x in a.posonlyargs + a.args]
+        defaults = dict(zip(pos[len(pos) - len(a.defaults):], a.defaults))
+        args = list(args)
+        for i, p in enumerate(pos):
+            if i < len(args):
+                env[p] = args[i]
+                if p in kwargs:
+                    raise _Raised("TypeError", f"multiple values for argument '{p}'")
+            elif p in kwargs and p not in [x.arg for x in a.posonlyargs]:
+                env[p] = kwargs.pop(p)
+            elif p in defaults:
+                env[p] = self.arg(defaults[p], {})
+            else:
+                raise _Raised("TypeError", f"missing required argument '{p}'")
+        if len(args) > len(pos):
+            if a.vararg is None:
+                raise _Raised("TypeError", f"takes {len(pos)} positional arguments but {len(args)} were given")
+        if a.vararg is not None:
+            env[a.vararg.arg] = tuple(args[len(pos):])
+        for x, dflt in zip(a.kwonlyargs, a.kw_defaults):
+            if x.arg in kwargs:
+                env[x.arg] = kwargs.pop(x.arg)
+            elif dflt is not None:
+                env[x.arg] = self.arg(dflt, {})
+            else:
+                raise _Raised("TypeError", f"missing keyword-only argument '{x.arg}'")
+        if a.kwarg is not None:
+            env[a.kwarg.arg] = dict(kwargs)
+        elif kwargs:
+            raise _Raised("TypeError", f"unexpected keyword argument '{next(iter(kwargs))}'")
+
+    _TRANSPARENT = {"staticmethod", "classmethod", "property", "cached_property", "abstractmethod", "lru_cache", "cache", "wraps", "override", "final", "no_type_check"}
+
+    def call_def(self, f, args, kwargs, owner=None, closure=None):
+        if self.depth > 60:
+            raise _Cannot("call depth")
+        for d in getattr(f, "decorator_list", []):
+            d = d.func if isinstance(d, ast.Call) else d
+            if (dotted(d) or "?").rsplit(".", 1)[-1] not in self._TRANSPARENT:
+                raise _Cannot(f"`{f.name}` is wrapped by the decorator `{u(d)[:40]}`")
+        env = dict(closure) if closure else {}
+        self.bind(f, args, dict(kwargs), env)
+        if isinstance(f, ast.Lambda):
+            return self.val(f.body, env)
+        if isinstance(f, ast.AsyncFunctionDef):
+            raise _Cannot("coroutine")
+        if owner is not None:
+            env["__class__"] = owner
+            env["__self__"] = args[0] if args else None
+        self.depth += 1
+        try:
+            if _has_yield(f):
+                env["__yields__"] = []
+                self.exec(f.body, env)
+                return _Gen(env["__yields__"])
+            r = self.exec(f.body, env)
+            return r[1] if r[0] == "return" else None
+        finally:
+            self.depth -= 1
+
+    # -- statements ---------------------------------------------------------------------------------------------------------------------------------------------------
+    def assign(self, t, v, env, keep=()):
+        if isinstance(t, ast.Name):
+            if t.id not in keep:
+                env[t.id] = v
+        elif isinstance(t, ast.Attribute):
+            k = dotted(t)
+            head = k.split(".", 1)[0] if k is not None else None
+            if k is not None and (k in env or (head not in env and self.glob(head) is _MISSING)):
+                if k not in keep:
+                    env[k] = v  # the rule fixes single attributes by their dotted text
+                return
+            base = self.val(t.value, env)
+            if not isinstance(base, _Obj):
+                raise _Cannot(f"assignment to an attribute of a {type(base).__name__}")
+            if base.cls is not None:
+                d, owner = self.lookup(base.cls, t.attr)
+                if isinstance(d, source.FUNC_TYPES) and self._decorated(d, "property"):
+                    f, o2 = self.setter(base.cls, t.attr)
+                    if f is None:
+                        raise _Raised("AttributeError", f"property '{t.attr}' of '{base.cls.name}' object has no setter")
+                    self.call_def(f, [base, v], {}, o2)
+                    return
+            base.attrs[t.attr] = v
+        elif isinstance(t, ast.Subscript):
+            base = self.val(t.value, env)
+            if not isinstance(base, (list, dict, collections.deque)):
+                raise _Cannot(f"item assignment on a {type(base).__name__}")
+            _guarded(operator.setitem, base, self.index(t.slice, env), v)
+        elif isinstance(t, (ast.Tuple, ast.List)):
+            if v is _OPAQUE:
+                for x in ast.walk(t):
+                    if isinstance(x, ast.Name) and isinstance(x.ctx, ast.Store) and x.id not in keep:
+                        env[x.id] = _OPAQUE
+                    elif isinstance(x, (ast.Attribute, ast.Subscript)) and isinstance(x.ctx, ast.Store):
+                        self.assign(x, _OPAQUE, env, keep)
+                return
+            if any(isinstance(x, ast.Starred) for x in t.elts):
+                raise _Cannot("starred assignment target")
+            items = list(self.iterate(v))
+            if len(items) != len(t.elts):
+                raise _Raised("ValueError", f"cannot unpack {len(items)} values into {len(t.elts)} targets")
+            for x, y in zip(t.elts, items):
+                self.assign(x, y, env, keep)
+        else:
+            raise _Cannot(f"assignment target {type(t).__name__}")
+
+    def value_or_opaque(self, e, env):
+        try:
+            return self.val(e, env)
+        except _Cannot:
+            if self.touches_mutable(e, env):
+                raise
+            return _OPAQUE
+
+    def exec(self, stmts, env, keep=()):
+        """run extracted statements on representative values: ('return', value), ('break' | 'continue', None) or ('fall', None); raises _Raised when the code raises and _Cannot when
+        it uses something that is not interpreted. A value that cannot be computed is stored as opaque (using it later is _Cannot); names in `keep` stay as preset (the rule fixed
+        their value). Expression statements that cannot be evaluated (logging, calls into libraries) are skipped unless they are handed a mutable object of the evaluated world."""
+        for s in stmts:
+            self.tick()
+            if isinstance(s, (ast.Pass, ast.Assert, ast.Import, ast.ImportFrom, ast.Global, ast.Nonlocal)):
+                continue
+            if isinstance(s, ast.Expr):
+                v = s.value
+                if isinstance(v, ast.Constant):
+                    continue
+                if isinstance(v, (ast.Yield, ast.YieldFrom)):
+                    if "__yields__" not in env:
+                        raise _Cannot("yield outside an evaluated generator")
+                    if isinstance(v, ast.Yield):
+                        env["__yields__"].append(self.val(v.value, env) if v.value is not None else None)
+                    else:
+                        env["__yields__"] += list(self.iterate(self.val(v.value, env)))
+                    continue
+                try:
+                    self.val(v, env)
+                except _Cannot:
+                    if self.touches_mutable(v, env) and not _is_logging(v):
+                        raise
+            elif isinstance(s, (ast.Assign, ast.AnnAssign)):
+                if s.value is None:
+                    continue
+                v = self.value_or_opaque(s.value, env)
+                for t in (s.targets if isinstance(s, ast.Assign) else [s.target]):
+                    self.assign(t, v, env, keep)
+            elif isinstance(s, ast.AugAssign):
+                cur = getattr(s, "_c03_expanded", None)
+                if cur is None:
+                    cur = s._c03_expanded = ast.copy_location(ast.BinOp(left=ast.parse(u(s.target), mode="eval").body, op=s.op, right=s.value), s)
+                old = self.peek(s.target, env)
+                if isinstance(old, (list, collections.deque)) and isinstance(s.op, ast.Add):
+                    old.extend(self.iterate(self.val(s.value, env)))  # in place, as the host language does it: other references see the new items
+                else:
+                    self.assign(s.target, self.value_or_opaque(cur, env), env, keep)
+            elif isinstance(s, ast.If):
+                try:
+                    arm = s.body if self.truth(self.val(s.test, env)) else s.orelse
+                except _Cannot:
+                    # `if <logger>.isEnabledFor(..): <log statements>`: whichever way it goes, the evaluated program cannot tell
+                    if not (not s.orelse and all(isinstance(x, ast.Expr) and _is_logging(x.value) for x in s.body) and any(isinstance(x, ast.Attribute) and x.attr == "isEnabledFor" for x in ast.walk(s.test))):
+                        raise
+                    continue
+                r = self.exec(arm, env, keep)
+                if r[0] != "fall":
+                    return r
+            elif isinstance(s, ast.While):
+                broke = False
+                while self.truth(self.val(s.test, env)):
+                    self.tick()
+                    r = self.exec(s.body, env, keep)
+                    if r[0] == "return":
+                        return r
+                    if r[0] == "break":
+                        broke = True
+                        break
+                if not broke:
+                    r = self.exec(s.orelse, env, keep)
+                    if r[0] != "fall":
+                        return r
+            elif isinstance(s, ast.For):
+                broke = False
+                for x in self.iterate(self.val(s.iter, env)):
+                    self.tick()
+                    self.assign(s.target, x, env, keep)
+                    r = self.exec(s.body, env, keep)
+                    if r[0] == "return":
+                        return r
+                    if r[0] == "break":
+                        broke = True
+                        break
+                if not broke:
+                    r = self.exec(s.orelse, env, keep)
+                    if r[0] != "fall":
+                        return r
+            elif isinstance(s, ast.Return):
+                return "return", (self.val(s.value, env) if s.value is not None else None)
+            elif isinstance(s, (ast.Break, ast.Continue)):
+                return ("break" if isinstance(s, ast.Break) else "continue"), None
+            elif isinstance(s, ast.Raise):
+                if s.exc is None:
+                    if self._handling:
+                        raise self._handling[-1]
+                    raise _Cannot("bare raise outside a handler")
+                x = s.exc.func if isinstance(s.exc, ast.Call) else s.exc
+                if isinstance(x, ast.Name) and isinstance(env.get(x.id), _Exc):
+                    raise _Raised(env[x.id].name)
+                raise _Raised((dotted(x) or "?").rsplit(".", 1)[-1])
+            elif isinstance(s, ast.Try):
+                try:
+                    r = self.exec(s.body, env, keep)
+                    if r[0] == "fall":
+                        r = self.exec(s.orelse, env, keep)
+                except _Raised as x:
+                    names = (x.name,) + _BASES.get(x.name, ()) + (() if isinstance(x, _Diverges) else ("Exception", "BaseException"))
+                    r = None
+                    for h in s.handlers:
+                        hs = [h.type] if h.type is not None and not isinstance(h.type, ast.Tuple) else (h.type.elts if h.type is not None else [])
+                        if (h.type is None and not isinstance(x, _Diverges)) or any((dotted(t) or "").rsplit(".", 1)[-1] in names for t in hs):
+                            if h.name:
+                                env[h.name] = _Exc(x.name)
+                            self._handling.append(x)
+                            try:
+                                r = self.exec(h.body, env, keep)
+                            except _Raised:
+                                self._handling.pop()
+                                self.exec(s.finalbody, env, keep)
+                                raise
+                            self._handling.pop()
+                            break
+                    if r is None:
+                        self.exec(s.finalbody, env, keep)
+                        raise
+                f = self.exec(s.finalbody, env, keep)
+                if f[0] != "fall":
+                    return f
+                if r[0] != "fall":
+                    return r
+            elif isinstance(s, ast.With):
+                cms = []
+                for it in s.items:
+                    cm = self.val(it.context_expr, env)
+                    if not isinstance(cm, _Obj):
+                        raise _Cannot(f"context manager `{u(it.context_expr)[:50]}`")
+                    r = self.apply(self.getattr(cm, "__enter__"), [], {})
+                    cms.append(cm)
+                    if it.optional_vars is not None:
+                        self.assign(it.optional_vars, r, env, keep)
+                try:
+                    r = self.exec(s.body, env, keep)
+                except _Raised:
+                    swallowed = False
+                    for cm in reversed(cms):
+                        swallowed = self.truth(self.apply(self.getattr(cm, "__exit__"), [_OPAQUE, _OPAQUE, _OPAQUE], {})) or swallowed
+                    if not swallowed:
+                        raise
+                    r = ("fall", None)
+                else:
+                    for cm in reversed(cms):
+                        self.apply(self.getattr(cm, "__exit__"), [None, None, None], {})
+                if r[0] != "fall":
+                    return r
+            elif isinstance(s, source.FUNC_TYPES):
+                env[s.name] = _FnDef(s, None, env)
+            else:
+                raise _CannotStmt(s)
+        return "fall", None
 
 
 def _val(e, env, imports=None, hooks=None):
     """value of an extracted expression. env: dotted text of a name / attribute chain ('all_bulks', 'self.total_bulks') -> value; imports: the module's import aliases (to resolve
     `Fraction` / `fractions.Fraction`); hooks: dotted callee -> function(call node, env) for the calls a rule wants to interpret itself."""
-    imports, hooks = imports or {}, hooks or {}
-    if isinstance(e, ast.Constant):
-        return e.value
-    if isinstance(e, (ast.Name, ast.Attribute)):
-        k = dotted(e)
-        if k is not None and k in env:
-            if env[k] is _OPAQUE:
-                raise _Cannot(f"`{k}` has no representative value")
-            return env[k]
-        raise _Cannot(f"`{u(e)[:60]}` is not bound")
-    if isinstance(e, ast.BinOp) and type(e.op) in _ARITH:
-        a, b = _val(e.left, env, imports, hooks), _val(e.right, env, imports, hooks)
-        if not (isinstance(a, _NUM) and isinstance(b, _NUM)):
-            raise _Cannot(f"`{u(e)[:60]}`: non-numeric operands")
-        return _guarded(_ARITH[type(e.op)], a, b)
-    if isinstance(e, ast.UnaryOp):
-        v = _val(e.operand, env, imports, hooks)
-        if isinstance(e.op, ast.Not):
-            return not v
-        if isinstance(v, _NUM) and isinstance(e.op, (ast.USub, ast.UAdd)):
-            return -v if isinstance(e.op, ast.USub) else +v
-        raise _Cannot(f"`{u(e)[:60]}`")
-    if isinstance(e, ast.BoolOp):
-        r = None
-        for x in e.values:
-            r = _val(x, env, imports, hooks)
-            if bool(r) != isinstance(e.op, ast.And):
-                return r
-        return r
-    if isinstance(e, ast.Compare):
-        left = _val(e.left, env, imports, hooks)
-        for op, c in zip(e.ops, e.comparators):
-            right = _val(c, env, imports, hooks)
-            if not _guarded(_CMPOP[type(op)], left, right):
-                return False
-            left = right
-        return True
-    if isinstance(e, ast.IfExp):
-        return _val(e.body if _val(e.test, env, imports, hooks) else e.orelse, env, imports, hooks)
-    if isinstance(e, ast.Call):
-        d = dotted(e.func)
-        if d is not None and d in hooks:
-            return hooks[d](e, env)
-        head, _, rest = (d or "").partition(".")
-        full = (imports[head] + ("." + rest if rest else "")) if head in imports else d
-        if full in _LIB and not e.keywords and not any(isinstance(a, ast.Starred) for a in e.args):
-            vals = [_val(a, env, imports, hooks) for a in e.args]
-            if all(isinstance(v, _NUM + (str,)) for v in vals):
-                return _guarded(_LIB[full], *vals)
-        raise _Cannot(f"call `{u(e)[:60]}`")
-    raise _Cannot(f"{type(e).__name__} `{u(e)[:60]}`")
+    return _M(None, imports or {}, hooks).val(e, env)
 
 
 def _exec(stmts, env, imports=None, hooks=None, keep=()):
-    """run extracted straight-line / if / try statements on representative values: ('return', value) or ('fall', None); raises _Raised when the code raises and _Cannot when it uses
-    something that is not interpreted. Assignments to names and attribute chains update env (a value that cannot be computed is stored as opaque); names in `keep` stay as preset
-    (the rule fixed their value: e.g. the result of a call into the repository). Expression statements (logging, calls made for their effect) are skipped."""
-    for s in stmts:
-        if isinstance(s, (ast.Expr, ast.Pass, ast.Assert, ast.Import, ast.ImportFrom, ast.Global, ast.Nonlocal)):
-            continue
-        if isinstance(s, (ast.Assign, ast.AnnAssign)):
-            if s.value is None:
-                continue
-            try:
-                v = _val(s.value, env, imports, hooks)
-            except _Cannot:
-                v = _OPAQUE
-            for t in (s.targets if isinstance(s, ast.Assign) else [s.target]):
-                k = dotted(t)
-                if k is not None:
-                    if k not in keep:
-                        env[k] = v
-                else:
-                    for x in ast.walk(t):
-                        if isinstance(x, ast.Name) and isinstance(x.ctx, ast.Store) and x.id not in keep:
-                            env[x.id] = _OPAQUE
-        elif isinstance(s, ast.AugAssign):
-            k = dotted(s.target)
-            if k is None:
-                continue
-            try:
-                cur = ast.copy_location(ast.BinOp(left=ast.parse(k, mode="eval").body, op=s.op, right=s.value), s)
-                v = _val(cur, env, imports, hooks)
-            except _Cannot:
-                v = _OPAQUE
-            if k not in keep:
-                env[k] = v
-        elif isinstance(s, ast.If):
-            r = _exec(s.body if _val(s.test, env, imports, hooks) else s.orelse, env, imports, hooks, keep)
-            if r[0] != "fall":
-                return r
-        elif isinstance(s, ast.Return):
-            return "return", (_val(s.value, env, imports, hooks) if s.value is not None else None)
-        elif isinstance(s, ast.Raise):
-            x = s.exc.func if isinstance(s.exc, ast.Call) else s.exc
-            raise _Raised((dotted(x) or "?").rsplit(".", 1)[-1] if x is not None else "?")
-        elif isinstance(s, ast.Try):
-            try:
-                r = _exec(s.body, env, imports, hooks, keep)
-                if r[0] == "fall":
-                    r = _exec(s.orelse, env, imports, hooks, keep)
-            except _Raised as x:
-                names = (x.name,) + _BASES.get(x.name, ()) + ("Exception", "BaseException")
-                r = None
-                for h in s.handlers:
-                    hs = [h.type] if h.type is not None and not isinstance(h.type, ast.Tuple) else (h.type.elts if h.type is not None else [])
-                    if h.type is None or any((dotted(t) or "").rsplit(".", 1)[-1] in names for t in hs):
-                        r = _exec(h.body, env, imports, hooks, keep)
-                        break
-                if r is None:
-                    _exec(s.finalbody, env, imports, hooks, keep)
-                    raise
-            f = _exec(s.finalbody, env, imports, hooks, keep)
-            if f[0] != "fall":
-                return f
-            if r[0] != "fall":
-                return r
-        else:
-            raise _CannotStmt(s)
-    return "fall", None
+    """run extracted straight-line / if / try / loop statements on representative values (see _M.exec); no function of the analysed module is entered."""
+    return _M(None, imports or {}, hooks).exec(stmts, env, keep)
 
 
 # ingest-percentage cut-off: (bulks of the group, ingest-percentage as float_param() delivers it) -> ceil(p% of the bulks), computed by hand / exactly. The first rows are products
@@ -319,8 +1130,13 @@ def _stale_table_rule(chk, ldr, io_):
     rm = io_.get("remove_file_offset_table", required=False)
     removed = _removed_files(io_, rm) if isinstance(rm, source.FUNC_TYPES) else set()
     table = next(iter(names.values()), None)
-    ok = len(names) >= 2 and table is not None and set(names.values()) == {table} and removed == {table}
-    chk.ob("O3.10", "writer, reader and remover of the table use the same file name for a data file", ok, rm if rm is not None else FT, f"factories: {names}; removed: {sorted(map(str, removed))}",
+    # located and evaluated first (else: not recognised), compared second
+    if len(names) < 2 or any(v is None for v in names.values()):
+        raise AnchorMissing(f"FileOffsetTable: the factories that compute the table's file name for a data file (evaluated: {names})")
+    if not isinstance(rm, source.FUNC_TYPES) or not removed or None in removed:
+        raise AnchorMissing(f"{_I}: the file(s) remove_file_offset_table() deletes for a data file (evaluated: {sorted(map(str, removed))})")
+    ok = set(names.values()) == {table} and removed == {table}
+    chk.ob("O3.10", "writer, reader and remover of the table use the same file name for a data file", ok, rm, f"factories: {names}; removed: {sorted(map(str, removed))}",
            key=f"{_I}:remove_file_offset_table:table-name")
     if not isinstance(io_.get("prepare_file_offset_table", required=False), source.FUNC_TYPES):
         raise AnchorMissing(f"{_I}: prepare_file_offset_table")
@@ -343,14 +1159,17 @@ def _stale_table_rule(chk, ldr, io_):
             if not (isinstance(st, ast.Expr) and isinstance(st.value, ast.Call)):
                 continue
             c = st.value
-            if io_call(c, "remove_file_offset_table") and len(c.args) == 1 and pat.is_(c.args[0], "V_x", binds={"x": x}) and table is not None and removed == {table}:
+            direct = io_call(c, "remove_file_offset_table") and len(c.args) == 1 and pat.is_(c.args[0], "V_x", binds={"x": x}) and table is not None and removed == {table}
+            # ... or the table file itself is deleted (the helper of the io module inlined)
+            direct = direct or (dotted(c.func) in ("os.remove", "os.unlink") and len(c.args) == 1 and table is not None and _str_value(c.args[0], x) == table)
+            if direct:
                 p = source.parent(st)
                 t = p.test if isinstance(p, ast.If) and not p.orelse and [s_ for s_ in p.body if not logging_only(s_)] == [st] else None
                 if isinstance(t, ast.Call) and dotted(t.func) in ("os.path.exists", "os.path.isfile", "os.path.lexists") and len(t.args) == 1 and _str_value(t.args[0], x) == table:
                     out.append(p)
                 else:
                     out.append(st)
-            elif depth == 0 and isinstance(c.func, ast.Attribute) and isinstance(c.func.value, ast.Name) and c.func.value.id == "self" and c.func.attr in meths:
+            elif depth < 2 and isinstance(c.func, ast.Attribute) and isinstance(c.func.value, ast.Name) and c.func.value.id == "self" and c.func.attr in meths and meths[c.func.attr] is not f:
                 h = meths[c.func.attr]
                 q = [k_ for k_, v in bind_args(c, h).items() if pat.is_(v, "V_x", binds={"x": x})]
                 if len(q) == 1:
@@ -359,6 +1178,11 @@ def _stale_table_rule(chk, ldr, io_):
                     if inner and gh.must_pass(gh.entry, [gh.node_of(i_) for i_ in inner], normal_only=True):
                         out.append(st)
         return out
+
+    def collaborator_calls(f, names_):
+        """(re)creation of a file: calls on a collaborator object (self.<attribute>.<method>: the decompressor, the downloader) that are handed one of the names as the place to write to."""
+        return [c for c in source.calls_in(f) if isinstance(c.func, ast.Attribute) and is_self_attr(c.func.value)
+                and any(isinstance(a, ast.Name) and a.id in names_ for a in list(c.args) + [k_.value for k_ in c.keywords])]
 
     # own methods that prepare the table of their path parameter
     preparers = {}
@@ -387,16 +1211,30 @@ def _stale_table_rule(chk, ldr, io_):
             # locals that may hold the document path (`target_path = doc_path` in one arm)
             alias = {x} | {t.id for st in walk_body(m) if isinstance(st, ast.Assign) and pat.is_(st.value, "V_x", binds={"x": x}) for t in st.targets if isinstance(t, ast.Name)}
             # (re)creation of the file: a call on a collaborator object (self.<attribute>.<method>: the decompressor, the downloader) that is handed the path as the place to write to
-            creators = [c for c in source.calls_in(m) if isinstance(c.func, ast.Attribute) and is_self_attr(c.func.value)
-                        and any(isinstance(a, ast.Name) and a.id in alias for a in list(c.args) + [k_.value for k_ in c.keywords])]
+            creators = [(c, f"{c.func.value.attr}.{c.func.attr}") for c in collaborator_calls(m, alias)]
+            # ... also when the (re)creation was extracted into an own helper method that is handed the path: the call of the helper is the creating statement, unless the helper
+            # itself removes the table after every (re)creation it performs
+            for c in source.calls_in(m):
+                if is_self_attr(c.func) and c.func.attr in meths and c.func.attr not in preparers and meths[c.func.attr] is not m:
+                    h = meths[c.func.attr]
+                    for q in [k_ for k_, v in bind_args(c, h).items() if isinstance(v, ast.Name) and v.id in alias]:
+                        inner = collaborator_calls(h, {q})
+                        if inner:
+                            gh = cfg_of(h)
+                            hinv = [gh.node_of(i_) for i_ in removals(h, q, 1)]
+                            if not (hinv and all(gh.must_pass(gh.node_of(ic), hinv, normal_only=True) for ic in inner)):
+                                creators.append((c, f"{h.name}:{inner[0].func.value.attr}.{inner[0].func.attr}"))
+                            else:
+                                n_sites += 1
+                                chk.ob("O3.10", f"{m.name}: `{h.name}(..)` (re)creates the document file -> an existing offset table of it is removed before the table is prepared", True, c,
+                                       f"`{h.name}` removes the table after every (re)creation it performs", key=f"{_L}:{DP.name}.{m.name}:{h.name}:stale-offset-table")
             inv = [g.node_of(i_) for i_ in removals(m, x)]
             pn = [g.node_of(c) for c in pcs]
-            for c in creators:
+            for c, what in creators:
                 n_sites += 1
                 cn = g.node_of(c)
                 after = bool(inv) and g.must_pass(cn, inv, exits=pn, normal_only=True)
                 before = bool(inv) and g.dominated_by_nodes(cn, inv) and not any(g.path_exists(p_, cn, avoid=inv) for p_ in pn)
-                what = f"{c.func.value.attr}.{c.func.attr}"
                 chk.ob("O3.10", f"{m.name}: `{what}(..)` (re)creates the document file -> an existing offset table of it is removed before the table is prepared", after or before, c,
                        "" if after or before else f"a path from `{short(c, 70)}` reaches the table preparation with the predecessor's table in place",
                        key=f"{_L}:{DP.name}.{m.name}:{what}:stale-offset-table")
@@ -404,582 +1242,1225 @@ def _stale_table_rule(chk, ldr, io_):
         raise AnchorMissing("DocumentSetPreparator: no statement that (re)creates a document file was located")
 
 
+# ---- the bulk pipeline on values ------------------------------------------------------------------------------------------------------------------------------------
+# The clauses of C03 are statements about what the param source hands to the runner. They are decided END TO END on a small corpus model: the analysed classes are instantiated
+# and driven through the contract the driver uses (ParamSource(track, params) -> partition(client, clients) -> params() until StopIteration) by the evaluator above; the files are
+# stand-ins that hand out numbered lines and record what was read. Names the model relies on are contracts, not implementation details: the user-facing settings ("bulk-size",
+# "batch-size", "ingest-percentage", "conflicts", ...), the runner's keys ("body", "bulk-size"), the track model's attributes (number_of_documents, includes_action_and_meta_data,
+# document_file, target_index, ...) and io's file source (open / readlines / close, skip_lines). Everything between them - helper functions, loops vs comprehensions, attribute,
+# parameter and local names, the order of statements - is free to change.
+
+_FILES = {"A": [("A1", 10, False), ("A2", 7, True)], "B": [("B1", 5, False)], "C": [("C1", 2, False)]}
+_FILES_PLAIN = {"A": [("A1", 25, False)], "B": [("B1", 8, False)]}
+
+
+def _stub(fn):
+    """a stand-in of the rule for a collaborator's function: called as it is by the evaluator (unknown arguments are passed on as they are)."""
+
+    def w(*a, **k):
+        return fn(*a, **k)
+
+    w._machine = w._opaque_ok = True
+    return w
+
+
+class _FakeFile:
+    """stand-in for io's file source over numbered lines: readlines(n) hands out the next (at most n) lines."""
+
+    def __init__(self, sim, path):
+        self.sim, self.path, self.pos, self.open_, self.handed = sim, path, 0, False, []
+        self.lines = sim.lines[path]
+        self.obj = _Obj(None, None, {"open": _stub(self.open), "readlines": _stub(self.readlines), "readline": _stub(self.readline), "close": _stub(self.close), "seek": _stub(self.seek),
+                                     "__enter__": _stub(self.open), "__exit__": _stub(lambda *a: self.close() or False)}, f"file source {path}")
+        sim.fakes[id(self.obj)] = self
+
+    def open(self):
+        self.open_ = True
+        return self.obj
+
+    def close(self):
+        self.open_ = False
+
+    def seek(self, off):
+        if off != 0:
+            raise _Cannot("seek() to a byte offset in the stand-in file")
+        self.pos = 0
+
+    def readlines(self, n):
+        if not self.open_ or not isinstance(n, int) or isinstance(n, bool):
+            raise _Raised("ValueError", f"readlines({n!r}) on a {'open' if self.open_ else 'closed'} source")
+        out = self.lines[self.pos:self.pos + max(n, 0)]
+        self.handed.append((self.pos, len(out)))
+        self.pos += len(out)
+        return list(out)
+
+    def readline(self):
+        out = self.readlines(1)
+        return out[0] if out else b""
+
+    def skip(self, n):
+        if not isinstance(n, int) or n < 0:
+            raise _Raised("ValueError", f"skip_lines({n!r})")
+        self.pos = min(self.pos + n, len(self.lines))
+
+
+class _Sim:
+    def __init__(self, pr, source_cls, files):
+        self.pr, self.source_cls, self.files = pr, source_cls, files
+        self.lines, self.meta, self.fakes = {}, {}, {}
+        self.docsets = []
+        for cname, sets in files.items():
+            for f, n, has_meta in sets:
+                path = f"/data/{f}.json"
+                self.meta[f] = (path, n, has_meta)
+                out = []
+                for i in range(n):
+                    if has_meta:
+                        out.append(json.dumps({"index": {"_id": f"{f}-{i}"}}).encode() + b"\n")
+                    out.append(json.dumps({"f": f, "n": i}).encode() + b"\n")
+                self.lines[path] = out
+        self.steps = 0
+
+    def track(self):
+        corpora = []
+        for cname, sets in self.files.items():
+            ds = [_Obj(None, {"number_of_documents": n, "includes_action_and_meta_data": has_meta, "document_file": f"/data/{f}.json", "document_archive": None, "target_index": f"idx-{f}",
+                              "target_type": None, "target_data_stream": None, "source_format": "bulk", "is_bulk": True}, {"has_compressed_corpus": _stub(lambda: False)}, f"documents {f}")
+                  for f, n, has_meta in sets]
+            c = _Obj(None, {"name": cname, "documents": ds}, None, f"corpus {cname}")
+            c.native["filter"] = _stub(lambda *a, _c=c, **k: _c)
+            c.native["number_of_documents"] = _stub(lambda *a, _n=sum(n for _, n, _m in sets), **k: _n)
+            corpora.append(c)
+        return _Obj(None, {"corpora": corpora, "name": "model"}, None, "track")
+
+    def machine(self, rnd):
+        ext = {"esrally.utils.io.MmapSource": _stub(lambda path, *a, **k: _FakeFile(self, path).obj), "esrally.utils.io.FileSource": _stub(lambda path, *a, **k: _FakeFile(self, path).obj),
+               "esrally.utils.io.skip_lines": _stub(self.skip_lines), "random.random": _stub(rnd.random), "random.randint": _stub(rnd.randint),
+               "random.expovariate": _stub(rnd.expovariate), "random.shuffle": _stub(rnd.shuffle)}
+        return _M(self.pr, None, None, ext, budget=600000)
+
+    def skip_lines(self, path, src, n):
+        fk = self.fakes.get(id(src))
+        if fk is None or path != fk.path:
+            raise _Cannot("skip_lines() on something that is not the opened file source")
+        fk.skip(n)
+
+    def run(self, groups, clients, params, rnd=None, pulls=None, progress=None, reads=None):
+        """drive one parameter source per worker (group of clients): [(group, [bulk params, ...]) per distinct partition source]. progress: a list that receives
+        (group, [percent_completed after every params() call, the one ending in StopIteration included]) per source; reads: a list that receives (group, {path: number of
+        lines the file sources opened for this worker handed out})."""
+        out = []
+        for g in groups:
+            m = self.machine(rnd or _Rnd())
+            self.fakes = {}
+            try:
+                src = m.apply(_Cls(self.source_cls), [self.track(), dict(params)], {})
+                parts = []
+                for c in g:
+                    p = m.apply(m.getattr(src, "partition"), [c, clients], {})
+                    if not any(p is q for q in parts):
+                        parts.append(p)
+                streams = [[] for _ in parts]
+                seen = [[] for _ in parts]
+                live = list(range(len(parts)))
+                while live:
+                    for i in list(live):
+                        try:
+                            streams[i].append(m.apply(m.getattr(parts[i], "params"), [], {}))
+                        except _Raised as r:
+                            if r.name != "StopIteration":
+                                raise
+                            live.remove(i)
+                        if progress is not None:
+                            try:
+                                seen[i].append(m.getattr(parts[i], "percent_completed"))
+                            except _Raised as r:
+                                seen[i].append(r)
+                        if pulls is not None and len(streams[i]) >= pulls and i in live:
+                            live.remove(i)
+                        if sum(map(len, streams)) > 2000:
+                            raise _Diverges(m.steps)
+                out += [(g, s) for s in streams]
+                if progress is not None:
+                    progress += [(g, p_) for p_ in seen]
+                if reads is not None:
+                    handed: dict = {}
+                    for fk in self.fakes.values():
+                        handed[fk.path] = handed.get(fk.path, 0) + sum(k for _, k in fk.handed)
+                    reads.append((g, handed))
+            finally:
+                self.steps += m.steps
+        return out
+
+
+class _Rnd:
+    """scripted stand-ins for the random module (deterministic, cover both decisions and the extremes of every draw)."""
+
+    def __init__(self):
+        self.i = self.j = self.k = 0
+        self.ints = []
+
+    def random(self):
+        self.i += 1
+        return (0.9, 0.1, 0.1, 0.9, 0.1, 0.9, 0.9, 0.1, 0.1, 0.1)[self.i % 10]
+
+    def randint(self, a, b):
+        self.j += 1
+        self.ints.append((a, b))
+        if not (isinstance(a, int) and isinstance(b, int)) or a > b:
+            raise _Raised("ValueError", f"randint({a!r}, {b!r})")
+        return b if self.j % 2 else a
+
+    def expovariate(self, lambd):
+        self.k += 1
+        return (0.0, 0.3, 1.0, 1.7, 5.0, 0.02, 0.6)[self.k % 7]
+
+    def shuffle(self, xs):
+        xs.reverse()
+
+
+def _decode(bulk, size):
+    """(declared count, [(action dict, doc dict), ...]) of one emitted bulk; raises _Cannot if the shape is not what the runner contract describes."""
+    if not isinstance(bulk, dict) or "body" not in bulk or "bulk-size" not in bulk:
+        raise _Cannot("emitted params without 'body' / 'bulk-size'")
+    body = bulk["body"]
+    if isinstance(body, (list, tuple)) and all(isinstance(x, (bytes, str)) for x in body):
+        body = b"".join(x if isinstance(x, bytes) else x.encode() for x in body)
+    if isinstance(body, str):
+        body = body.encode()
+    if not isinstance(body, bytes):
+        raise _Cannot(f"bulk body is a {type(body).__name__}")
+    raw = body.split(b"\n")
+    if raw and raw[-1] == b"":
+        raw = raw[:-1]
+    try:
+        items = [json.loads(x) for x in raw]
+    except ValueError:
+        return bulk["bulk-size"], None
+    return bulk["bulk-size"], items
+
+
+class _Verdicts:
+    """name -> list of (row label, True | False | None, detail): one row per evaluated configuration. False only when the pipeline WAS evaluated and what it emitted is wrong."""
+
+    def __init__(self):
+        self.rows: dict = {}
+
+    def add(self, name, label, ok, detail=""):
+        self.rows.setdefault(name, []).append((label, ok, detail))
+
+    def get(self, name):
+        """(verdict over all rows, first telling detail)"""
+        rs = self.rows.get(name, [])
+        bad = [f"{lb}: {d}" for lb, ok, d in rs if ok is False]
+        if bad:
+            return False, bad[0]
+        unk = [f"{lb}: {d}" for lb, ok, d in rs if ok is None]
+        if unk or not rs:
+            return None, unk[0] if unk else "not evaluated"
+        return True, f"{len(rs)} configuration(s)"
+
+
+def _docs_of(items):
+    return [x["doc"] if set(x) == {"doc"} and isinstance(x["doc"], dict) else x for x in items if isinstance(x, dict) and ("f" in x or set(x) == {"doc"})]
+
+
+def _pipeline_verdicts(pr, source_cls):
+    V_ = _Verdicts()
+    sim = _Sim(pr, source_cls, _FILES)
+    base = {"bulk-size": 3, "batch-size": 6}
+    full: dict = {}
+
+    def guarded_run(label, names, s_, groups, clients, params, **kw):
+        try:
+            return s_.run(groups, clients, params, **kw)
+        except _Cannot as x:
+            for n in names:
+                V_.add(n, label, None, str(x))
+        except _Raised as x:
+            for n in names:
+                V_.add(n, label, False, f"the parameter source raises {x}")
+        return None
+
+    def check_streams(label, s_, res, bulk_size, names):
+        """tiling / contiguity / bound / pairing of what the groups of one partition of the clients emitted."""
+        seen: dict = {}
+        v = {n: (True, "") for n in names}
+
+        def bad(n, d):
+            if n in v and v[n][0] is True:
+                v[n] = (False, d)
+
+        try:
+            for g, stream in res:
+                order: dict = {}
+                for b in stream:
+                    declared, items = _decode(b, bulk_size)
+                    if items is None or not all(isinstance(x, dict) for x in items):
+                        bad("pair", f"clients {g}: a bulk body is not a sequence of JSON lines")
+                        continue
+                    docs = _docs_of(items)
+                    if len(items) != 2 * len(docs) or any(("f" in _docs_of([items[i]])[0] if _docs_of([items[i]]) else False) != bool(i % 2) for i in range(len(items))):
+                        bad("pair", f"clients {g}: action lines and documents do not alternate in a bulk ({[sorted(x)[0] if x else '?' for x in items][:8]})")
+                    else:
+                        for a, d in zip(items[0::2], items[1::2]):
+                            d = _docs_of([d])[0]
+                            kind = next(iter(a), None)
+                            own = s_.meta.get(d.get("f"), (None, 0, False))[2]
+                            if len(a) != 1 or kind not in ("index", "create", "update") or not isinstance(a[kind], dict) or \
+                                    (own and a[kind].get("_id") != f"{d.get('f')}-{d.get('n')}") or (not own and a[kind].get("_index") != f"idx-{d.get('f')}"):
+                                bad("pair", f"clients {g}: document {d.get('f')}#{d.get('n')} is preceded by the action line {json.dumps(a)[:80]}")
+                    if declared != len(docs) or isinstance(declared, bool):
+                        bad("bound", f"clients {g}: a bulk with {len(docs)} document(s) is declared as bulk-size {declared!r}")
+                    if not 0 < len(docs) <= bulk_size:
+                        bad("bound", f"clients {g}: a bulk holds {len(docs)} documents, the configured bulk size is {bulk_size}")
+                    for d in docs:
+                        seen[(d.get("f"), d.get("n"))] = seen.get((d.get("f"), d.get("n")), 0) + 1
+                        order.setdefault(d.get("f"), []).append(d.get("n"))
+                for f, ns in order.items():
+                    if any(not isinstance(n, int) for n in ns) or any(b_ != a_ + 1 for a_, b_ in zip(ns, ns[1:])):
+                        bad("contig", f"clients {g} read documents {ns} of file {f}: not one contiguous slice in file order")
+            want = {(f, i) for f, (p_, n, m_) in s_.meta.items() for i in range(n)}
+            twice = sorted(k for k, c in seen.items() if c > 1 or k not in want)
+            missing = sorted(want - set(seen))
+            if twice:
+                bad("tile", f"ingested more than once: {[f'{f}#{n}' for f, n in twice][:6]}")
+                bad("twice", f"ingested more than once: {[f'{f}#{n}' for f, n in twice][:6]}")
+            if missing:
+                bad("tile", f"never ingested: {[f'{f}#{n}' for f, n in missing][:6]}")
+                bad("missing", f"never ingested: {[f'{f}#{n}' for f, n in missing][:6]}")
+        except _Cannot as x:
+            v = {n: (None, str(x)) for n in names}
+        for n in names:
+            V_.add(n, label, v[n][0], v[n][1])
+
+    shape = ("tile", "twice", "missing", "contig", "bound", "pair")
+    for groups in ([[0], [1], [2], [3]], [[0, 1], [2, 3]], [[0, 1, 2, 3]], [[0], [1, 2], [3]], [[3, 2], [1, 0]]):  # (the order in which co-located clients register is not fixed)
+        label = f"4 clients on workers {groups}, bulk size 3, batch size 6"
+        prog: list = []
+        reads: list = []
+        res = guarded_run(label, shape + ("progress", "cut"), sim, groups, 4, base, progress=prog, reads=reads)
+        if res is not None:
+            check_streams(label, sim, res, 3, shape)
+            for g, s in res:
+                full.setdefault(tuple(g), s)
+            # at 100 % a source hands out everything its readers produce (generators are evaluated eagerly: what the file sources handed out IS what the readers produce)
+            ok, detail = True, ""
+            try:
+                for g, handed in reads:
+                    emitted: dict = {}
+                    for g2, s in res:
+                        if g2 is g:
+                            for b in s:
+                                for d in _docs_of(_decode(b, 3)[1] or []):
+                                    emitted[d.get("f")] = emitted.get(d.get("f"), 0) + 1
+                    for f, (path, n_, has_meta) in sim.meta.items():
+                        if handed.get(path, 0) != emitted.get(f, 0) * (2 if has_meta else 1) and ok:
+                            ok, detail = False, (f"clients {g}: the readers of file {f} produce {handed.get(path, 0) // (2 if has_meta else 1)} documents, the source hands out "
+                                                 f"{emitted.get(f, 0)} before it stops (ingest-percentage 100)")
+            except _Cannot as x:
+                ok, detail = None, str(x)
+            V_.add("cut", label, ok, detail)
+            # progress as the driver reads it: after the i-th bulk of a source with B bulks it is i / B, and it is defined once the source is exhausted
+            ok, detail = True, ""
+            for (g, s), (g2, seen) in zip(res, prog):
+                for i, pc in enumerate(seen):
+                    want = min(i + 1, len(s)) / len(s) if s else None
+                    if isinstance(pc, _Raised):
+                        ok, detail = False, f"clients {g}: percent_completed raises {pc} after {min(i + 1, len(s))} of {len(s)} bulks"
+                    elif isinstance(pc, bool) or not isinstance(pc, _NUM):
+                        ok, detail = None, f"percent_completed is a {type(pc).__name__}"
+                    elif want is not None and abs(pc - want) > 1e-9:
+                        ok, detail = False, f"clients {g}: percent_completed is {pc!r} after {min(i + 1, len(s))} of {len(s)} bulks"
+                    if ok is not True:
+                        break
+                if ok is not True:
+                    break
+            V_.add("progress", label, ok, detail)
+    for groups, clients, params in (([[0], [1, 2]], 3, {"bulk-size": 2}), ([[0, 1, 2, 3, 4]], 5, {"bulk-size": 4, "batch-size": 4})):
+        label = f"{clients} clients on workers {groups}, bulk size {params['bulk-size']}"
+        res = guarded_run(label, shape, sim, groups, clients, params)
+        if res is not None:
+            check_streams(label, sim, res, params["bulk-size"], shape)
+    # ingest percentage: every source stops after the first ceil(p %) of the bulks it emits at 100 %
+    for groups, pct in (([[0, 1], [2, 3]], 50), ([[0, 1], [2, 3]], 33.4), ([[0, 1, 2, 3]], 10), ([[0], [1, 2], [3]], 75.0)):
+        label = f"ingest-percentage {pct}, 4 clients on workers {groups}"
+        res = guarded_run(label, ("cut",), sim, groups, 4, dict(base, **{"ingest-percentage": pct}))
+        if res is None:
+            continue
+        ok, detail = True, ""
+        for g, s in res:
+            ref = full.get(tuple(g))
+            if ref is None:
+                ok, detail = None, "no reference run at 100 %"
+                break
+            want = math.ceil(fractions.Fraction(str(pct)) * len(ref) / 100)
+            if len(s) != want:
+                ok, detail = False, f"clients {g} emit {len(s)} of their {len(ref)} bulks, ceil({pct} %) is {want}"
+                break
+            if [b.get("body") for b in s] != [b.get("body") for b in ref[:want]]:
+                ok, detail = False, f"clients {g}: the bulks emitted are not the first {want} of the group's bulks"
+                break
+        V_.add("cut", label, ok, detail)
+    # ... also where the exact product all_bulks * p / 100 is an integer that binary floating point misses (250 * 64.4 / 100 == 161.00000000000003)
+    simf = _Sim(pr, source_cls, {"Z": [("Z1", 250, False)]})
+    label = "ingest-percentage 64.4, one client, 250 bulks of one document"
+    res = guarded_run(label, ("cut",), simf, [[0]], 1, {"bulk-size": 1, "ingest-percentage": 64.4})
+    if res is not None:
+        try:
+            got = [[(d.get("f"), d.get("n")) for d in _docs_of(_decode(b, 1)[1] or [])] for b in res[0][1]]
+            ok = got == [[("Z1", i)] for i in range(161)]
+            V_.add("cut", label, ok, "" if ok else f"the source emits {len(got)} bulks, ceil(64.4 % of 250) is 161")
+        except _Cannot as x:
+            V_.add("cut", label, None, str(x))
+    # a worker whose clients have no documents: its source is exhausted at once and its progress is still defined (the schedule of a co-located client reads it)
+    sime = _Sim(pr, source_cls, {"C": [("C1", 2, False)]})
+    label = "2 documents, 4 clients on 4 workers (two of them without documents)"
+    prog = []
+    res = guarded_run(label, ("progress0", "emptytile"), sime, [[0], [1], [2], [3]], 4, {"bulk-size": 3}, progress=prog)
+    if res is not None:
+        check_streams(label, sime, res, 3, ("tile",))
+        V_.rows["emptytile"] = V_.rows.get("emptytile", []) + [V_.rows["tile"].pop()]
+        empty = [(g, seen) for (g, s), (g2, seen) in zip(res, prog) if not s]
+        bad = [(g, seen) for g, seen in empty if any(isinstance(x, _Raised) for x in seen)]
+        V_.add("progress0", label, None if not empty else not bad,
+               "no worker without documents in the model" if not empty else (f"client {bad[0][0]} has no bulks; percent_completed raises {[x for x in bad[0][1] if isinstance(x, _Raised)][0]}" if bad else ""))
+    # looped mode starts over instead of stopping
+    ref = full.get((0, 1, 2, 3))
+    if ref:
+        label = "looped, 4 clients on one worker"
+        res = guarded_run(label, ("loop",), sim, [[0, 1, 2, 3]], 4, dict(base, looped=True), pulls=2 * len(ref) + 1)
+        if res is not None:
+            got = [b.get("body") for b in res[0][1]]
+            ok = got == [ref[i % len(ref)].get("body") for i in range(2 * len(ref) + 1)]
+            V_.add("loop", label, ok, "" if ok else f"{len(got)} bulks drawn; they are not the group's {len(ref)} bulks repeated from the beginning")
+    # id conflicts: one client per worker (F46 is about co-located clients), scripted random draws
+    simc = _Sim(pr, source_cls, _FILES_PLAIN)
+    for mode, recency in (("sequential", None), ("sequential", 0.5), ("random", None), ("random", 1)):
+        params = {"bulk-size": 2, "conflicts": mode, "conflict-probability": 50, "on-conflict": "update"}
+        if recency is not None:
+            params["recency"] = recency
+        label = f"conflicts {mode}, recency {recency}, 3 clients on 3 workers"
+        names = ("ids", "idtile")
+        rnd = _Rnd()
+        res = guarded_run(label, names, simc, [[0], [1], [2]], 3, params, rnd=rnd)
+        if res is None:
+            continue
+        ok, detail = True, ""
+        owner: dict = {}
+        try:
+            n_conf = 0
+            for g, stream in res:
+                emitted = set()
+                for b in stream:
+                    declared, items = _decode(b, 2)
+                    if items is None or len(items) % 2 or not all(isinstance(x, dict) and len(x) >= 1 for x in items):
+                        raise _Cannot("bulk body with id conflicts is not a sequence of action / document lines")
+                    for a in items[0::2]:
+                        kind = next(iter(a))
+                        id_ = (a[kind].get("_index"), a[kind].get("_id")) if isinstance(a[kind], dict) else (None, None)
+                        if kind not in ("index", "update") or id_[1] is None:
+                            raise _Cannot(f"action line {json.dumps(a)[:80]} carries no id")
+                        if kind == "update":
+                            n_conf += 1
+                            if id_ not in emitted and ok:
+                                ok, detail = False, f"client {g[0]}: the conflicting action refers to id {id_}, which this client has not emitted yet (emitted so far: {len(emitted)})"
+                        else:
+                            if id_ in emitted and ok:
+                                ok, detail = False, f"client {g[0]}: fresh id {id_} handed out twice"
+                            if owner.setdefault(id_, g[0]) != g[0] and ok:
+                                ok, detail = False, f"id {id_} is generated for client {owner[id_]} and for client {g[0]}"
+                            emitted.add(id_)
+            if ok and n_conf == 0:
+                ok, detail = None, "the scripted draws produced no conflicting action"
+        except _Cannot as x:
+            ok, detail = None, str(x)
+        V_.add("ids", label, ok, detail)
+        check_streams(label, simc, res, 2, ("tile", "contig"))
+        V_.rows["idtile"] = V_.rows.get("idtile", []) + [V_.rows["tile"].pop()]
+        V_.rows["idcontig"] = V_.rows.get("idcontig", []) + [V_.rows["contig"].pop()]
+    V_.steps = sim.steps + simc.steps + simf.steps + sime.steps
+    return V_
+
+
+# which value runs decide the clauses of which rule (and therefore settle a shape its recognisers do not know)
+_RULE_SIMS = {"O3.1": ("tile",), "O3.2": ("tile", "contig", "cut"), "O3.3": ("tile", "contig"), "O3.4": ("pair", "bound"), "O3.5": ("bound", "pair", "tile"), "O3.6": ("ids", "idtile"),
+              "O3.9": ("tile",), "O3.8": ("cut", "loop")}
+# under which rule the rows of a value run are reported, and as what
+_SIM_ROWS = [("O3.1", "tile", "on values: the slices of all workers tile every file - no document twice, none left out"),
+             ("O3.2", "contig", "on values: every worker reads one contiguous slice of each file, in file order"),
+             ("O3.2", "idcontig", "on values: with id conflicts every worker reads one contiguous slice of each file, in file order"),
+             ("O3.3", "twice", "on values: no worker reads into its neighbour's slice"),
+             ("O3.4", "pair", "on values: every document follows its own action line, lines alternate"),
+             ("O3.5", "bound", "on values: no bulk exceeds the bulk size and the declared bulk-size is its document count"),
+             ("O3.6", "ids", "on values: a conflicting action names an id the same client emitted before; fresh ids are unique and disjoint across clients"),
+             ("O3.6", "idtile", "on values: with id conflicts every document is still ingested exactly once"),
+             ("O3.9", "missing", "on values: every document set with a non-empty share is read to the end of the share"),
+             ("O3.8", "cut", "on values: every source stops after the first ceil(p %) of the bulks it emits at 100 %"),
+             ("O3.8", "loop", "on values: a looped source starts over instead of stopping"),
+             ("O3.8", "progress", "on values: percent_completed is i / B after the i-th of a source's B bulks"),
+             ("O3.8", "progress0", "on values: the progress of a worker without documents is defined"),
+             ("O3.9", "emptytile", "on values: clients without documents do not disturb the others - every document is still ingested exactly once")]
+
+
 def run(chk):
     repo = chk.repo
     pr, io_ = repo.module(_P), repo.module(_I)
     chk.use(pr, io_)
     chk.explanation = (
-        "Decides the slicing arithmetic by shape: bounds() inlined symbolically — start(s) and end(e) are the same rounding of the same linear expression, so end(e) == start(e+1) and adjacent "
-        "client ranges share a boundary whatever the rounding does; docs / lines / offset derived consistently with one factor k in {1,2}; both consumers of bounds() (reader factory and "
-        "bulk counting) receive role-identical arguments, and the values flow positionally to the reader / slice parameters of the same meaning; every source read is bounded by "
-        "min(bulk size, limit - progress) with progress advanced by what was read; pairing factor agrees across readers; conflict ids index only the emitted prefix; bulk counting is a "
-        "ceiling division; offset-table protocol. Decided on VALUES (extracted code evaluated by a small local evaluator, no repository code is run): the ingest cut-off equals the exact "
-        "ceil(all * p / 100) for bulk counts / fractional percentages whose product is an integer mathematically but not in binary floating point; progress is current / total and is "
-        "defined for a group without documents (total 0); for every conflict mode that builds an id list, what partition() hands to a client was created for that client (the id "
-        "window lives in the source's reader). Path rule: every (re)creation of a document file is followed (or preceded) by the removal of that file's offset table before the table is "
-        "prepared, because O3.7 trusts a table on its mtime alone."
+        "The clauses about what the parameter source hands to the runner are decided END TO END ON VALUES: the analysed classes are instantiated and driven by a small local evaluator "
+        "(no repository code is run or imported) through the driver's contract - ParamSource(track, params), partition(client, clients), params() until StopIteration - on a model of "
+        "three corpora / four files (with and without action lines) whose stand-in file sources hand out numbered lines: for seven splits of 3-5 clients over workers the bulks of all "
+        "workers contain every document exactly once, every worker reads contiguous slices in file order, no bulk exceeds the bulk size, the declared bulk-size is the number of "
+        "documents and every document follows its own action line; with an ingest percentage every source stops after the first ceil(p %) of its bulks, looped sources start over; with "
+        "id conflicts (scripted random draws, both selection formulas at their extremes) a conflicting action only names an id the same client has emitted before and ids of different "
+        "clients are disjoint. The structural obligations of the first phase are kept as recognisers that localise a report: bounds() inlined symbolically (start(s) and end(e) are the "
+        "same rounding of the same linear expression, one factor k in {1,2}), role-identical arguments of both consumers of bounds(), every read bounded by min(bulk size, limit - "
+        "progress), pairing factor, conflict index within the emitted prefix, ceiling division, staggering moves every reader once. A shape a recogniser does not know is decided by the "
+        "value runs the clause is about (never falsified for being unfamiliar; inconclusive if the pipeline cannot be evaluated either). Also on values: the ingest cut-off equals the "
+        "exact ceil(all * p / 100) for products that are integers mathematically but not in binary floating point; progress is current / total and is defined for a total of 0; for "
+        "every conflict mode that builds an id list, what partition() hands to a client was created for that client. Path rule: every (re)creation of a document file is followed (or "
+        "preceded) by the removal of that file's offset table before the table is prepared, because O3.7 trusts a table on its mtime alone; offset-table protocol (O3.7)."
     )
     chk.not_decided = "round(total/n * n) == total for all n (float), byte-exactness of tell() cookies for multi-byte text, mmap vs text-mode newline agreement, order of co-located clients."
+    chk.trusted += ["stand-in for io's file source: readlines(n) hands out the next min(n, remaining) lines, skip_lines(path, source, n) advances the source by n lines (the real ones are "
+                    "the subject of O3.7)", "the local evaluator of rules/C03.py interprets the subset of Python the bulk pipeline is written in faithfully"]
+
+    # ---- the bulk pipeline on values (rows are reported under the rule whose clause they decide, see the end of run) --------------------------------------------------
+    # role: the parameter source of bulk tasks is the class the module registers for the bulk operation type
+    reg = [st.value.args[1].id for st in pr.tree.body if isinstance(st, ast.Expr) and isinstance(st.value, ast.Call) and len(st.value.args) == 2 and isinstance(st.value.args[1], ast.Name)
+           and isinstance(st.value.args[0], ast.Attribute) and st.value.args[0].attr == "Bulk" and isinstance(pr.index().get(st.value.args[1].id), ast.ClassDef)]
+    try:
+        VD = _pipeline_verdicts(pr, pr.cls(reg[0] if len(reg) == 1 else "BulkIndexParamSource"))
+    except AnchorMissing as x:
+        VD = _Verdicts()
+        VD.note = str(x)
+    bp = total = s = e = n = flag = OFF = DOCS = LINES = NB_DOCS = crp = c2 = None
+
+    def fn_(name):
+        d = pr.index().get(name)
+        return d if isinstance(d, source.FUNC_TYPES) else None
+
+    # anchors shared by several rules (a block whose anchors are missing is decided on values; the other blocks do not depend on it)
+    cr, nb, cdr, bg = fn_("create_readers"), fn_("number_of_bulks"), fn_("create_default_reader"), fn_("bulk_generator")
+    S, PB = pr.index().get("Slice"), pr.index().get("PartitionBulkIndexParamSource")
+    # role: the slicing function is what the reader factory calls to get the triple it unpacks
+    tc = _triple_call(cr) if cr is not None else None
+    bf = fn_(last_attr(tc.func) or "") if tc is not None else None
+    bf = bf if bf is not None else fn_("bounds")
+    if bf is not None and len(params_of(bf)) == 5:
+        total, s, e, n, flag = params_of(bf)  # positions are the roles: (documents of the file, first client, last client, clients, action-and-meta-data flag)
+    # role: the method of the partition source that sets up readers and totals is the one that consults the bulk counter
+    ii = next((m_ for m_ in pr.methods(PB).values() if nb is not None and any(last_attr(c.func) == nb.name for c in source.calls_in(m_))), None) if isinstance(PB, ast.ClassDef) else None
+    if ii is None and isinstance(PB, ast.ClassDef):
+        ii = pr.methods(PB).get("_init_internal_params")
+
+    def need(**anchors):
+        missing = [k_ for k_, v in anchors.items() if v is None]
+        if missing:
+            raise AnchorMissing(f"{_P}: {', '.join(missing)} not located")
+
+    def decided(rule, sims=None):
+        """(True, text) if every value run the rule's clauses are about was evaluated and is right, (False, first wrong row), (None, why it could not be evaluated)."""
+        sims = sims or _RULE_SIMS[rule]
+        res = [VD.get(nm) for nm in sims]
+        wrong = [d for v, d in res if v is False]
+        if wrong:
+            return False, wrong[0]
+        unk = [d for v, d in res if v is None]
+        if unk:
+            return None, unk[0]
+        return True, f"value runs {', '.join(sims)}: {'; '.join(d for v, d in res)}"
+
+    def ob(rule, instance, ok, node=None, detail="", key=None, sims=None):
+        """one structural obligation. `ok` is what the recogniser of the first phase says about the shape it knows. A shape it does not recognise is NOT a finding: the clause is
+        then decided by the value runs it is about - falsified only if the evaluated pipeline emits something wrong, inconclusive if it cannot be evaluated either."""
+        if ok:
+            return chk.ob(rule, instance, True, node, detail, key=key)
+        v, d = decided(rule, sims)
+        if v is False:
+            return chk.ob(rule, instance, False, node, (f"{detail} - " if detail else "") + f"on values: {d}", key=key)
+        if v is None:
+            chk.unknown(rule, f"{instance}: shape not recognised ({detail[:100]}) and the pipeline cannot be evaluated on values: {d}", node)
+            return False
+        chk.ob(rule, instance, True, node, f"shape not recognised ({detail[:100]}); decided on values - {d}", key=key)
+        return False
+
+    def block(rule, fn):
+        """the recognisers of one rule; a role that cannot be located ends the block - the clause is then decided on values like an unrecognised shape."""
+        try:
+            fn()
+            return
+        except AnchorMissing as x:
+            why = str(x)
+        except Exception as x:  # a recogniser met a shape it was not written for (None where a node was expected, ...): not recognised, never a verdict
+            why = f"unexpected shape ({type(x).__name__}: {x})"
+        v, d = decided(rule)
+        if v is None:
+            chk.unknown(rule, f"roles not located: {why}; and the pipeline cannot be evaluated on values: {d}")
+        elif v:
+            chk.adv(rule, f"roles not located: {why}; the rule's clauses are decided on values - {d}")
 
     # ---- O3.1 slices telescope -------------------------------------------------------------------------------------------------------------
     chk.rule("O3.1", "bounds(): start(s) and end(e) are the same rounding applied to docs_per_client * s and docs_per_client * (e + 1) (so end(e) == start(e + 1)); docs == end - start; "
              "lines == docs * k; offset == start * k with one k in {1, 2} selected by the action-and-meta-data flag; returned as (offset, docs, lines)", 6,
              "any split where a directly computed share differs by rounding: a document between two clients is read twice or never")
-    bf = pr.func("bounds")
-    bp = params_of(bf)
-    if len(bp) != 5:
-        raise AnchorMissing(f"bounds(): five parameters expected, found {bp}")
-    total, s, e, n, flag = bp
-    defs = local_defs(bf)
-    ret = [x for x in walk_body(bf) if isinstance(x, ast.Return)]
-    if len(ret) != 1 or not isinstance(ret[0].value, ast.Tuple) or len(ret[0].value.elts) != 3:
-        raise AnchorMissing("bounds() return tuple")
-    off_e, docs_e, lines_e = ret[0].value.elts
 
-    def unround(x):
-        x = defs.get(x.id, x) if isinstance(x, ast.Name) else x
-        if isinstance(x, ast.Call) and dotted(x.func) in ("round", "int", "math.floor", "math.ceil") and len(x.args) == 1:
-            return dotted(x.func), x.args[0]
-        return None, x
+    def o31():
+        nonlocal bp, total, s, e, n, flag, OFF, DOCS, LINES, NB_DOCS, crp, c2
+        need(bounds=bf)
+        bp = params_of(bf)
+        if len(bp) != 5:
+            raise AnchorMissing(f"bounds(): five parameters expected, found {bp}")
+        total, s, e, n, flag = bp
+        defs = local_defs(bf)
+        ret = [x for x in walk_body(bf) if isinstance(x, ast.Return)]
+        if len(ret) != 1 or not isinstance(ret[0].value, ast.Tuple) or len(ret[0].value.elts) != 3:
+            raise AnchorMissing("bounds() return tuple")
+        off_e, docs_e, lines_e = ret[0].value.elts
 
-    # find start / end locals: docs == end - start
-    dx = defs.get(docs_e.id) if isinstance(docs_e, ast.Name) else docs_e
-    ok = isinstance(dx, ast.BinOp) and isinstance(dx.op, ast.Sub) and isinstance(dx.left, ast.Name) and isinstance(dx.right, ast.Name)
-    chk.ob("O3.1", "docs == end - start", ok, dx if dx is not None else bf, u(dx) if dx is not None else "")
-    if not ok:
-        return
-    endv, startv = dx.left.id, dx.right.id
-    rf_s, arg_s = unround(ast.Name(id=startv, ctx=ast.Load()))
-    rf_e, arg_e = unround(ast.Name(id=endv, ctx=ast.Load()))
-    ok = rf_s is not None and rf_s == rf_e
-    chk.ob("O3.1", "start and end use the same rounding function", ok, defs.get(startv, bf), f"start: {rf_s}, end: {rf_e}")
-    A = parse_expr(f"{total} / {n}")
-    a_s = inline_node(arg_s, defs)
-    a_e = inline_node(arg_e, defs)
-    ok_s = rat_equal(a_s, parse_expr(f"({total} / {n}) * {s}"))
-    ok_e = rat_equal(a_e, parse_expr(f"({total} / {n}) * ({e} + 1)"))
-    chk.ob("O3.1", "start == round(total/n * s)", ok_s, defs.get(startv, bf), u(a_s))
-    chk.ob("O3.1", "end == round(total/n * (e + 1))  [== start(e + 1)]", ok_e, defs.get(endv, bf), u(a_e))
-    # telescoping identity proper: end[e+1 -> x] is alpha-equivalent to start[s -> x]
-    try:
-        r1 = ratfun(a_s, atom=lambda nd: "X" if isinstance(nd, ast.Name) and nd.id == s else None)
-        r2 = ratfun(a_e, atom=lambda nd: "X" if (isinstance(nd, ast.BinOp) and isinstance(nd.op, ast.Add) and {u(nd.left), u(nd.right)} == {e, "1"}) else None)
-        chk.ob("O3.1", "end(e) and start(e + 1) are the same expression", r1 == r2, defs.get(endv, bf), f"{r1} vs {r2}")
-    except Exception as ex:  # NotRational
-        chk.ob("O3.1", "end(e) and start(e + 1) are the same expression", False, bf, str(ex))
-    kdefs = [k for k, v in defs.items() if isinstance(v, ast.IfExp) and source.is_const(v.body, 2) and source.is_const(v.orelse, 1) and u(v.test) == flag]
-    ok = len(kdefs) == 1
-    k = kdefs[0] if ok else "?"
-    chk.ob("O3.1", "k == 2 if action-and-meta-data else 1", ok, defs.get(k, bf) if ok else bf, "")
-    ok = rat_equal(inline_node(lines_e, {docs_e.id: dx} if False else {kk: vv for kk, vv in defs.items() if kk not in (startv, endv, k)}), parse_expr(f"({endv} - {startv}) * {k}"))
-    chk.ob("O3.1", "lines == docs * k", ok, lines_e, u(defs.get(lines_e.id)) if isinstance(lines_e, ast.Name) else u(lines_e))
-    ok = rat_equal(inline_node(off_e, {kk: vv for kk, vv in defs.items() if kk not in (startv, endv, k)}), parse_expr(f"{startv} * {k}"))
-    chk.ob("O3.1", "offset == start * k", ok, off_e, u(defs.get(off_e.id)) if isinstance(off_e, ast.Name) else u(off_e))
+        def unround(x):
+            x = defs.get(x.id, x) if isinstance(x, ast.Name) else x
+            if isinstance(x, ast.Call) and dotted(x.func) in ("round", "int", "math.floor", "math.ceil") and len(x.args) == 1:
+                return dotted(x.func), x.args[0]
+            return None, x
+
+        # find start / end locals: docs == end - start
+        dx = defs.get(docs_e.id) if isinstance(docs_e, ast.Name) else docs_e
+        ok = isinstance(dx, ast.BinOp) and isinstance(dx.op, ast.Sub) and isinstance(dx.left, ast.Name) and isinstance(dx.right, ast.Name)
+        ob("O3.1", "docs == end - start", ok, dx if dx is not None else bf, u(dx) if dx is not None else "")
+        if not ok:
+            return
+        endv, startv = dx.left.id, dx.right.id
+        rf_s, arg_s = unround(ast.Name(id=startv, ctx=ast.Load()))
+        rf_e, arg_e = unround(ast.Name(id=endv, ctx=ast.Load()))
+        ok = rf_s is not None and rf_s == rf_e
+        ob("O3.1", "start and end use the same rounding function", ok, defs.get(startv, bf), f"start: {rf_s}, end: {rf_e}")
+        A = parse_expr(f"{total} / {n}")
+        a_s = inline_node(arg_s, defs)
+        a_e = inline_node(arg_e, defs)
+        ok_s = rat_equal(a_s, parse_expr(f"({total} / {n}) * {s}"))
+        ok_e = rat_equal(a_e, parse_expr(f"({total} / {n}) * ({e} + 1)"))
+        ob("O3.1", "start == round(total/n * s)", ok_s, defs.get(startv, bf), u(a_s))
+        ob("O3.1", "end == round(total/n * (e + 1))  [== start(e + 1)]", ok_e, defs.get(endv, bf), u(a_e))
+        # telescoping identity proper: end[e+1 -> x] is alpha-equivalent to start[s -> x]
+        try:
+            r1 = ratfun(a_s, atom=lambda nd: "X" if isinstance(nd, ast.Name) and nd.id == s else None)
+            r2 = ratfun(a_e, atom=lambda nd: "X" if (isinstance(nd, ast.BinOp) and isinstance(nd.op, ast.Add) and {u(nd.left), u(nd.right)} == {e, "1"}) else None)
+            ob("O3.1", "end(e) and start(e + 1) are the same expression", r1 == r2, defs.get(endv, bf), f"{r1} vs {r2}")
+        except Exception as ex:  # NotRational
+            ob("O3.1", "end(e) and start(e + 1) are the same expression", False, bf, str(ex))
+        kdefs = [k for k, v in defs.items() if isinstance(v, ast.IfExp) and source.is_const(v.body, 2) and source.is_const(v.orelse, 1) and u(v.test) == flag]
+        ok = len(kdefs) == 1
+        k = kdefs[0] if ok else "?"
+        ob("O3.1", "k == 2 if action-and-meta-data else 1", ok, defs.get(k, bf) if ok else bf, "")
+        ok = rat_equal(inline_node(lines_e, {docs_e.id: dx} if False else {kk: vv for kk, vv in defs.items() if kk not in (startv, endv, k)}), parse_expr(f"({endv} - {startv}) * {k}"))
+        ob("O3.1", "lines == docs * k", ok, lines_e, u(defs.get(lines_e.id)) if isinstance(lines_e, ast.Name) else u(lines_e))
+        ok = rat_equal(inline_node(off_e, {kk: vv for kk, vv in defs.items() if kk not in (startv, endv, k)}), parse_expr(f"{startv} * {k}"))
+        ob("O3.1", "offset == start * k", ok, off_e, u(defs.get(off_e.id)) if isinstance(off_e, ast.Name) else u(off_e))
+
+    block("O3.1", o31)
 
     # the slices tile the corpus only if every client of the TASK gets one: the driver partitions with (task-local index, the task's client count)
     from rules.C05 import partition_call_rule
 
     drv_ = repo.module("esrally/driver/driver.py")
     chk.use(drv_)
-    partition_call_rule(chk, "O3.1", drv_)
+
+    def shared(rule, fn, *args):
+        """a rule function owned by another module: an anchor it cannot locate is its 'not recognised', the other rules of this property are still evaluated."""
+        try:
+            fn(*args)
+        except AnchorMissing as x:
+            chk.unknown(rule, f"anchor missing: {x}")
+
+    shared("O3.1", partition_call_rule, chk, "O3.1", drv_)
     from rules.C02 import allocation_totals
 
-    allocation_totals(chk, "O3.1", drv_)
+    shared("O3.1", allocation_totals, chk, "O3.1", drv_)
 
     # ---- O3.2 both consumers slice identically ---------------------------------------------------------------------------------------------------
     chk.rule("O3.2", "the call of bounds() in the reader factory and in the bulk counter pass role-identical arguments; results are unpacked in the returned order; values flow to the reader and "
              "slice parameters of the same meaning; the partition source hands the same (start, end, total, bulk size) to both", 10,
              "the ingest-percentage cut-off counts bulks of other slices / another bulk size: the group stops early or late")
-    cr = pr.func("create_readers")
-    nb = pr.func("number_of_bulks")
-    OFF = DOCS = LINES = NB_DOCS = None
-    for f, names in ((cr, ("start_client_index", "end_client_index", "num_clients")), (nb, None)):
-        calls = [c for c in source.calls_in(f) if last_attr(c.func) == "bounds"]
-        if not calls:
-            raise AnchorMissing(f"bounds() call in {f.name}")
-        c = calls[0]
-        b = bind_args(c, bf, skip_self=False)
-        fp = params_of(f)
-        if len(fp) < 5:
-            raise AnchorMissing(f"{f.name}(): at least five parameters expected, found {fp}")
-        loop = source.enclosing(c, ast.For)
-        dv = loop.target.id if loop is not None and isinstance(loop.target, ast.Name) else "docs"
-        ok = u(b.get(total)) == f"{dv}.number_of_documents" and u(b.get(flag)) == f"{dv}.includes_action_and_meta_data"
-        chk.ob("O3.2", f"{f.name}: total and flag come from the document set", ok, c, short(c, 100))
-        roles = [u(b.get(s)), u(b.get(e)), u(b.get(n))]
-        if f is cr:
-            want = ["start_client_index", "end_client_index", "num_clients"]
-        else:
-            want = [fp[1], fp[2], fp[3]]
-        ok = roles == want and all(r in fp for r in roles)
-        chk.ob("O3.2", f"{f.name}: (start, end, total clients) are its own parameters in that order", ok, c, f"{roles}")
-        st = source.enclosing_stmt(c)
-        if isinstance(st, ast.Assign) and isinstance(st.targets[0], ast.Tuple):
-            names_ = [u(t) for t in st.targets[0].elts]
-            reads = {n.id for n in walk_body(f) if isinstance(n, ast.Name) and isinstance(n.ctx, ast.Load)}
+
+    def o32():
+        nonlocal bp, total, s, e, n, flag, OFF, DOCS, LINES, NB_DOCS, crp, c2
+        need(create_readers=cr, number_of_bulks=nb, bounds=bf, bounds_parameters=total)
+        OFF = DOCS = LINES = NB_DOCS = None
+        for f, names in ((cr, ("start_client_index", "end_client_index", "num_clients")), (nb, None)):
+            calls = [c for c in source.calls_in(f) if last_attr(c.func) == bf.name]
+            if not calls:
+                raise AnchorMissing(f"{bf.name}() call in {f.name}")
+            c = calls[0]
+            b = bind_args(c, bf, skip_self=False)
+            fp = params_of(f)
+            if len(fp) < 5:
+                raise AnchorMissing(f"{f.name}(): at least five parameters expected, found {fp}")
+            loop = source.enclosing(c, ast.For)
+            dv = loop.target.id if loop is not None and isinstance(loop.target, ast.Name) else "docs"
+            ok = u(b.get(total)) == f"{dv}.number_of_documents" and u(b.get(flag)) == f"{dv}.includes_action_and_meta_data"
+            ob("O3.2", f"{f.name}: total and flag come from the document set", ok, c, short(c, 100))
+            roles = [u(b.get(s)), u(b.get(e)), u(b.get(n))]
             if f is cr:
-                # positions are the roles (offset, docs, lines); three distinct plain names, each consumed below
-                ok = len(names_) == 3 and len(set(names_)) == 3 and all(isinstance(t, ast.Name) for t in st.targets[0].elts)
-                OFF, DOCS, LINES = names_ if ok else (None, None, None)
+                want = ["start_client_index", "end_client_index", "num_clients"]
             else:
-                # the counter consumes the document count (position 1) and nothing else of the triple
-                ok = len(names_) == 3 and names_[1] in reads and names_[0] not in reads and names_[2] not in reads
-                NB_DOCS = names_[1] if ok and isinstance(st.targets[0].elts[1], ast.Name) else None
-            chk.ob("O3.2", f"{f.name}: result unpacked as (offset, docs, lines)", ok, st, f"{names_}")
-    cdr = pr.func("create_default_reader")
-    rc = [c for c in source.calls_in(cr) if u(c.func) == "create_reader"]
-    crp = params_of(cr)
-    rloop = source.enclosing(rc[0], ast.For) if rc else None
-    rdv = rloop.target.id if rloop is not None and isinstance(rloop.target, ast.Name) else "docs"
-    ok = bool(rc) and [u(a) for a in rc[0].args[:6]] == [rdv, OFF, LINES, DOCS, "batch_size", "bulk_size"] and {"batch_size", "bulk_size"} <= set(crp) \
-        and params_of(cdr)[:6] == ["docs", "offset", "num_lines", "num_docs", "batch_size", "bulk_size"]
-    chk.ob("O3.2", "reader factory receives (docs, offset, lines, docs count, batch, bulk) under the parameters of the same meaning", ok, rc[0] if rc else cr, "")
-    sl = [c for c in source.calls_in(cdr) if last_attr(c.func) == "Slice"]
-    S = pr.cls("Slice")
-    sinit = _meth(pr, S, "__init__")
-    ok = bool(sl) and [u(a) for a in sl[0].args[1:3]] == ["offset", "num_lines"] and params_of(sinit)[2:4] == ["offset", "number_of_lines"]
-    chk.ob("O3.2", "slice created with (offset, number of lines)", ok, sl[0] if sl else cdr, "")
-    ok = any(isinstance(x, ast.Assign) and is_self_attr(x.targets[0], "offset") and u(x.value) == "offset" for x in walk_body(sinit)) and any(
-        isinstance(x, ast.Assign) and is_self_attr(x.targets[0], "number_of_lines") and u(x.value) == "number_of_lines" for x in walk_body(sinit))
-    chk.ob("O3.2", "slice stores offset and limit under their own names", ok, sinit, "")
-    so = _meth(pr, S, "open")
-    sk = [c for c in source.calls_in(so) if last_attr(c.func) == "skip_lines"]
-    ok = bool(sk) and _arg(sk[0], 2) == "self.offset" and _arg(sk[0], 1) == "self.source"
-    chk.ob("O3.2", "slice skips exactly its offset on open", ok, sk[0] if sk else so, "")
-    PB = pr.cls("PartitionBulkIndexParamSource")
-    ii = _meth(pr, PB, "_init_internal_params")
-    bdb = pr.func("bulk_data_based")
-    c1 = [c for c in source.calls_in(ii) if last_attr(c.func) == "bulk_data_based"]
-    c2 = [c for c in source.calls_in(ii) if last_attr(c.func) == "number_of_bulks"]
-    if not c1 or not c2:
-        raise AnchorMissing("bulk_data_based / number_of_bulks calls in _init_internal_params")
-    b1 = {k: u(v) for k, v in bind_args(c1[0], bdb, skip_self=False).items()}
-    b2 = {k: u(v) for k, v in bind_args(c2[0], nb, skip_self=False).items()}
-    nbp = params_of(nb)
-    same = b1.get("start_client_index") == b2.get(nbp[1]) and b1.get("end_client_index") == b2.get(nbp[2]) and b1.get("num_clients") == b2.get(nbp[3]) and b1.get("corpora") == b2.get(nbp[0])
-    chk.ob("O3.2", "reader and counter get the same corpora / start / end / total", same, c2[0], f"readers: {[b1.get(x) for x in ('corpora', 'start_client_index', 'end_client_index', 'num_clients')]} counter: {[b2.get(x) for x in nbp[:4]]}")
-    ok = b1.get("bulk_size") == b2.get(nbp[4]) == "self.bulk_size" and b1.get("batch_size") == "self.batch_size"
-    chk.ob("O3.2", "reader and counter use the same bulk size (not the batch size)", ok, c2[0], f"readers bulk_size={b1.get('bulk_size')} batch_size={b1.get('batch_size')}; counter bulk size={b2.get(nbp[4])}")
-    idefs = local_defs(ii)
-    a_start, a_end = bind_args(c2[0], nb, skip_self=False).get(nbp[1]), bind_args(c2[0], nb, skip_self=False).get(nbp[2])
-    ok = a_start is not None and a_end is not None and source.inline(a_start, idefs) == "self.partitions[0]" and source.inline(a_end, idefs) == "self.partitions[-1]" and any(
-        isinstance(x, ast.Assign) and is_self_attr(x.targets[0], "partitions") and u(x.value) == "sorted(self.partitions)" for x in walk_body(ii))
-    chk.ob("O3.2", "start/end are the first/last of the sorted partition list", ok, ii, "")
-    # pass-through in bulk_data_based
-    crc = [c for c in source.calls_in(bdb) if last_attr(c.func) == "create_readers"]
-    ok = bool(crc) and [u(a) for a in crc[0].args[:6]] == ["num_clients", "start_client_index", "end_client_index", "corpora", "batch_size", "bulk_size"] and params_of(cr)[:6] == ["num_clients", "start_client_index", "end_client_index", "corpora", "batch_size", "bulk_size"]
-    chk.ob("O3.2", "bulk_data_based hands its parameters on unchanged", ok, crc[0] if crc else bdb, "")
+                want = [fp[1], fp[2], fp[3]]
+            ok = roles == want and all(r in fp for r in roles)
+            ob("O3.2", f"{f.name}: (start, end, total clients) are its own parameters in that order", ok, c, f"{roles}")
+            st = source.enclosing_stmt(c)
+            if isinstance(st, ast.Assign) and isinstance(st.targets[0], ast.Tuple):
+                names_ = [u(t) for t in st.targets[0].elts]
+                reads = {n.id for n in walk_body(f) if isinstance(n, ast.Name) and isinstance(n.ctx, ast.Load)}
+                if f is cr:
+                    # positions are the roles (offset, docs, lines); three distinct plain names, each consumed below
+                    ok = len(names_) == 3 and len(set(names_)) == 3 and all(isinstance(t, ast.Name) for t in st.targets[0].elts)
+                    OFF, DOCS, LINES = names_ if ok else (None, None, None)
+                else:
+                    # the counter consumes the document count (position 1) and nothing else of the triple
+                    ok = len(names_) == 3 and names_[1] in reads and names_[0] not in reads and names_[2] not in reads
+                    NB_DOCS = names_[1] if ok and isinstance(st.targets[0].elts[1], ast.Name) else None
+                ob("O3.2", f"{f.name}: result unpacked as (offset, docs, lines)", ok, st, f"{names_}")
+        need(create_default_reader=cdr)
+        rc = [c for c in source.calls_in(cr) if u(c.func) == "create_reader"]
+        crp = params_of(cr)
+        rloop = source.enclosing(rc[0], ast.For) if rc else None
+        rdv = rloop.target.id if rloop is not None and isinstance(rloop.target, ast.Name) else "docs"
+        ok = bool(rc) and [u(a) for a in rc[0].args[:6]] == [rdv, OFF, LINES, DOCS, "batch_size", "bulk_size"] and {"batch_size", "bulk_size"} <= set(crp) \
+            and params_of(cdr)[:6] == ["docs", "offset", "num_lines", "num_docs", "batch_size", "bulk_size"]
+        ob("O3.2", "reader factory receives (docs, offset, lines, docs count, batch, bulk) under the parameters of the same meaning", ok, rc[0] if rc else cr, "")
+        sl = [c for c in source.calls_in(cdr) if last_attr(c.func) == "Slice"]
+        need(Slice=S, PartitionBulkIndexParamSource=PB, its_setup_method=ii)
+        sinit = _meth(pr, S, "__init__")
+        ok = bool(sl) and [u(a) for a in sl[0].args[1:3]] == ["offset", "num_lines"] and params_of(sinit)[2:4] == ["offset", "number_of_lines"]
+        ob("O3.2", "slice created with (offset, number of lines)", ok, sl[0] if sl else cdr, "")
+        ok = any(isinstance(x, ast.Assign) and is_self_attr(x.targets[0], "offset") and u(x.value) == "offset" for x in walk_body(sinit)) and any(
+            isinstance(x, ast.Assign) and is_self_attr(x.targets[0], "number_of_lines") and u(x.value) == "number_of_lines" for x in walk_body(sinit))
+        ob("O3.2", "slice stores offset and limit under their own names", ok, sinit, "")
+        so = _meth(pr, S, "open")
+        sk = [c for c in source.calls_in(so) if last_attr(c.func) == "skip_lines"]
+        ok = bool(sk) and _arg(sk[0], 2) == "self.offset" and _arg(sk[0], 1) == "self.source"
+        ob("O3.2", "slice skips exactly its offset on open", ok, sk[0] if sk else so, "")
+        bdb = pr.func("bulk_data_based")
+        c1 = [c for c in source.calls_in(ii) if last_attr(c.func) == "bulk_data_based"]
+        c2 = [c for c in source.calls_in(ii) if last_attr(c.func) == "number_of_bulks"]
+        if not c1 or not c2:
+            raise AnchorMissing("bulk_data_based / number_of_bulks calls in _init_internal_params")
+        b1 = {k: u(v) for k, v in bind_args(c1[0], bdb, skip_self=False).items()}
+        b2 = {k: u(v) for k, v in bind_args(c2[0], nb, skip_self=False).items()}
+        nbp = params_of(nb)
+        same = b1.get("start_client_index") == b2.get(nbp[1]) and b1.get("end_client_index") == b2.get(nbp[2]) and b1.get("num_clients") == b2.get(nbp[3]) and b1.get("corpora") == b2.get(nbp[0])
+        ob("O3.2", "reader and counter get the same corpora / start / end / total", same, c2[0], f"readers: {[b1.get(x) for x in ('corpora', 'start_client_index', 'end_client_index', 'num_clients')]} counter: {[b2.get(x) for x in nbp[:4]]}")
+        ok = b1.get("bulk_size") == b2.get(nbp[4]) == "self.bulk_size" and b1.get("batch_size") == "self.batch_size"
+        ob("O3.2", "reader and counter use the same bulk size (not the batch size)", ok, c2[0], f"readers bulk_size={b1.get('bulk_size')} batch_size={b1.get('batch_size')}; counter bulk size={b2.get(nbp[4])}")
+        idefs = local_defs(ii)
+        a_start, a_end = bind_args(c2[0], nb, skip_self=False).get(nbp[1]), bind_args(c2[0], nb, skip_self=False).get(nbp[2])
+        ok = a_start is not None and a_end is not None and source.inline(a_start, idefs) == "self.partitions[0]" and source.inline(a_end, idefs) == "self.partitions[-1]" and any(
+            isinstance(x, ast.Assign) and is_self_attr(x.targets[0], "partitions") and u(x.value) == "sorted(self.partitions)" for x in walk_body(ii))
+        ob("O3.2", "start/end are the first/last of the sorted partition list", ok, ii, "")
+        # pass-through in bulk_data_based
+        crc = [c for c in source.calls_in(bdb) if last_attr(c.func) == "create_readers"]
+        ok = bool(crc) and [u(a) for a in crc[0].args[:6]] == ["num_clients", "start_client_index", "end_client_index", "corpora", "batch_size", "bulk_size"] and params_of(cr)[:6] == ["num_clients", "start_client_index", "end_client_index", "corpora", "batch_size", "bulk_size"]
+        ob("O3.2", "bulk_data_based hands its parameters on unchanged", ok, crc[0] if crc else bdb, "")
+
+    block("O3.2", o32)
 
     # ---- O3.3 bounded read -------------------------------------------------------------------------------------------------------------------------
     chk.rule("O3.3", "slice reader: every read is readlines(min(bulk size, limit - progress)); progress += len(lines read) on every path after the read; StopIteration once progress >= limit", 4,
              "a client that is not the last one reads into its neighbour's slice (documents ingested twice)")
-    nx = _meth(pr, S, "__next__")
-    g = cfg_of(nx)
-    reads = [c for c in source.calls_in(nx) if last_attr(c.func) in ("readlines", "readline", "read")]
-    ok = len(reads) == 1 and last_attr(reads[0].func) == "readlines"
-    chk.ob("O3.3", "single read site", ok, reads[0] if reads else nx, "")
-    if reads:
-        a = inline_node(reads[0].args[0], local_defs(nx)) if reads[0].args else None
-        ok = isinstance(a, ast.Call) and dotted(a.func) == "min" and len(a.args) == 2 and any(u(x) == "self.bulk_size" for x in a.args) and any(rat_equal(x, parse_expr("self.number_of_lines - self.current_line")) for x in a.args)
-        chk.ob("O3.3", "read bounded by min(bulk size, limit - progress)", ok, reads[0], u(a) if a is not None else "unbounded")
-        asg = source.enclosing_stmt(reads[0])
-        lv = u(asg.targets[0]) if isinstance(asg, ast.Assign) else None
-        adv = [x for x in walk_body(nx) if isinstance(x, ast.AugAssign) and is_self_attr(x.target, "current_line")]
-        ok = len(adv) == 1 and isinstance(adv[0].op, ast.Add) and u(adv[0].value) == f"len({lv})" and not guards(adv[0]) and g.dominated_by_nodes(g.node_of(adv[0]), [g.node_of(reads[0])])
-        chk.ob("O3.3", "progress += len(lines read), unconditionally after the read", ok, adv[0] if adv else nx, "")
-        ow = [x for m in pr.methods(S).values() for x in walk_body(m) if isinstance(x, (ast.Assign, ast.AugAssign)) and is_self_attr(x.targets[0] if isinstance(x, ast.Assign) else x.target, "current_line") and x not in adv and m.name != "__init__"]
-        chk.ob("O3.3", "no other writer of the progress counter", not ow, ow[0] if ow else S, "")
-    stops = [x for x in walk_body(nx) if isinstance(x, ast.Raise) and "StopIteration" in u(x.exc)]
-    ok = any(holds(x, "self.current_line >= self.number_of_lines") for x in stops) and bool(reads) and \
-        any(g.dominated_by_nodes(g.node_of(reads[0]), [g.node_of(source.enclosing(x, ast.If))]) for x in stops if source.enclosing(x, ast.If) is not None)
-    chk.ob("O3.3", "StopIteration once progress >= limit, tested before reading", ok, stops[0] if stops else nx, "")
+
+    def o33():
+        nonlocal bp, total, s, e, n, flag, OFF, DOCS, LINES, NB_DOCS, crp, c2
+        need(Slice=S)
+        nx = _meth(pr, S, "__next__")
+        g = cfg_of(nx)
+        reads = [c for c in source.calls_in(nx) if last_attr(c.func) in ("readlines", "readline", "read")]
+        ok = len(reads) == 1 and last_attr(reads[0].func) == "readlines"
+        ob("O3.3", "single read site", ok, reads[0] if reads else nx, "")
+        if reads:
+            a = inline_node(reads[0].args[0], local_defs(nx)) if reads[0].args else None
+            ok = isinstance(a, ast.Call) and dotted(a.func) == "min" and len(a.args) == 2 and any(u(x) == "self.bulk_size" for x in a.args) and any(rat_equal(x, parse_expr("self.number_of_lines - self.current_line")) for x in a.args)
+            ob("O3.3", "read bounded by min(bulk size, limit - progress)", ok, reads[0], u(a) if a is not None else "unbounded")
+            asg = source.enclosing_stmt(reads[0])
+            lv = u(asg.targets[0]) if isinstance(asg, ast.Assign) else None
+            adv = [x for x in walk_body(nx) if isinstance(x, ast.AugAssign) and is_self_attr(x.target, "current_line")]
+            ok = len(adv) == 1 and isinstance(adv[0].op, ast.Add) and u(adv[0].value) == f"len({lv})" and not guards(adv[0]) and g.dominated_by_nodes(g.node_of(adv[0]), [g.node_of(reads[0])])
+            ob("O3.3", "progress += len(lines read), unconditionally after the read", ok, adv[0] if adv else nx, "")
+            ow = [x for m in pr.methods(S).values() for x in walk_body(m) if isinstance(x, (ast.Assign, ast.AugAssign)) and is_self_attr(x.targets[0] if isinstance(x, ast.Assign) else x.target, "current_line") and x not in adv and m.name != "__init__"]
+            ob("O3.3", "no other writer of the progress counter", not ow, ow[0] if ow else S, "")
+        stops = [x for x in walk_body(nx) if isinstance(x, ast.Raise) and "StopIteration" in u(x.exc)]
+        ok = any(holds(x, "self.current_line >= self.number_of_lines") for x in stops) and bool(reads) and \
+            any(g.dominated_by_nodes(g.node_of(reads[0]), [g.node_of(source.enclosing(x, ast.If))]) for x in stops if source.enclosing(x, ast.If) is not None)
+        ob("O3.3", "StopIteration once progress >= limit, tested before reading", ok, stops[0] if stops else nx, "")
+
+    block("O3.3", o33)
 
     # ---- O3.4 pairing factor ----------------------------------------------------------------------------------------------------------------------------
     chk.rule("O3.4", "factor 2 is used consistently: source-only reader doubles the bulk size (lines) and halves the reported count; the meta-data reader appends exactly one action line per "
              "document line in both the fast and the regular path", 4,
              "files with action lines: bulks cut between an action line and its document, or doc counts doubled")
-    SO = pr.cls("SourceOnlyIndexDataReader")
-    soi = _meth(pr, SO, "__init__")
-    sup = [c for c in source.calls_in(soi) if last_attr(c.func) == "__init__"]
-    ok = bool(sup) and len(sup[0].args) >= 3 and rat_equal(sup[0].args[2], parse_expr("bulk_size * 2")) and _arg(sup[0], 1) == "batch_size"
-    chk.ob("O3.4", "source-only reader reads bulk_size * 2 lines per bulk (batch size unchanged)", ok, sup[0] if sup else soi, "")
-    rb = _meth(pr, SO, "read_bulk")
-    r = [x for x in walk_body(rb) if isinstance(x, ast.Return)]
-    # role: the local holding what next(self.file_source) delivered is returned as it is (position 1) and counted as len // 2 (position 0)
-    lv_ = _returned_name(rb, 1)
-    ok = len(r) == 1 and lv_ is not None and pat.is_(r[0].value, "(len(V_l) // 2, V_l)", binds={"l": lv_}) and pat.is_(local_defs(rb).get(lv_), "next(self.file_source)")
-    chk.ob("O3.4", "source-only reader reports len(lines) // 2 documents and returns the lines unchanged", ok, r[0] if r else rb, "")
-    MD = pr.cls("MetadataIndexDataReader")
-    for name in ("_read_bulk_fast", "_read_bulk_regular"):
-        f = _meth(pr, MD, name)
-        gf = cfg_of(f)
-        loops = [x for x in walk_body(f) if isinstance(x, ast.For)]
-        ok = False
-        if loops:
-            L = loops[0]
-            head = gf.node_of(L)
-            # roles: the bulk under construction is the (initially empty) list returned at position 1; the document is the loop variable over the lines read
-            cb = _returned_name(f, 1)
-            apps = [c for c in ast.walk(L) if isinstance(c, ast.Call) and cb is not None and pat.is_(c.func, "V_b.append", binds={"b": cb}) and len(c.args) == 1]
-            docv = L.target.id if isinstance(L.target, ast.Name) else None
-            # on every path of one iteration: exactly one append whose argument carries the document
-            doc_apps = [c for c in apps if any(isinstance(x, ast.Name) and x.id == docv for x in ast.walk(c.args[0]))]
-            starts = gf.edge_targets(head, "iter")
-            dn = [gf.node_of(c) for c in doc_apps]
-            every = bool(dn) and all(head.id not in gf.reachable([s_], avoid=dn, edge_ok=gf.normal_edge) for s_ in starts)
-            twice = any(gf.path_exists(a_, b_, avoid=[head]) for a_ in dn for b_ in dn if a_.id != b_.id)
-            meta_apps = [c for c in apps if c not in doc_apps]
-            if name == "_read_bulk_fast":
-                ok = every and not twice and len(meta_apps) == 1 and not guards(meta_apps[0], stop=L) and meta_apps[0].lineno < doc_apps[0].lineno
-            else:
-                # a meta line precedes the doc whenever a meta item exists
-                ok = every and not twice and len(meta_apps) >= 1 and all(any(gf.path_exists(gf.node_of(m), d_, avoid=[head]) for d_ in dn) for m in meta_apps)
-            r = [x for x in walk_body(f) if isinstance(x, ast.Return)]
-            ok = ok and len(r) == 1 and isinstance(L.iter, ast.Name) and pat.is_(r[0].value, "(len(V_l), V_b)", binds={"l": L.iter.id, "b": cb}) and _empty_list_local(f, cb)
-            src = local_defs(f).get(u(L.iter))
-            ok = ok and pat.is_(src, "next(self.file_source)")
-        chk.ob("O3.4", f"{name}: one document append per line read (action line before it), count == lines read", ok, f, "")
+
+    def o34():
+        nonlocal bp, total, s, e, n, flag, OFF, DOCS, LINES, NB_DOCS, crp, c2
+        SO = pr.cls("SourceOnlyIndexDataReader")
+        soi = _meth(pr, SO, "__init__")
+        sup = [c for c in source.calls_in(soi) if last_attr(c.func) == "__init__"]
+        ok = bool(sup) and len(sup[0].args) >= 3 and rat_equal(sup[0].args[2], parse_expr("bulk_size * 2")) and _arg(sup[0], 1) == "batch_size"
+        ob("O3.4", "source-only reader reads bulk_size * 2 lines per bulk (batch size unchanged)", ok, sup[0] if sup else soi, "")
+        rb = _meth(pr, SO, "read_bulk")
+        r = [x for x in walk_body(rb) if isinstance(x, ast.Return)]
+        # role: the local holding what next(self.file_source) delivered is returned as it is (position 1) and counted as len // 2 (position 0)
+        lv_ = _returned_name(rb, 1)
+        ok = len(r) == 1 and lv_ is not None and pat.is_(r[0].value, "(len(V_l) // 2, V_l)", binds={"l": lv_}) and pat.is_(local_defs(rb).get(lv_), "next(self.file_source)")
+        ob("O3.4", "source-only reader reports len(lines) // 2 documents and returns the lines unchanged", ok, r[0] if r else rb, "")
+        MD = pr.cls("MetadataIndexDataReader")
+        for name in ("_read_bulk_fast", "_read_bulk_regular"):
+            f = _meth(pr, MD, name)
+            gf = cfg_of(f)
+            loops = [x for x in walk_body(f) if isinstance(x, ast.For)]
+            ok = False
+            if loops:
+                L = loops[0]
+                head = gf.node_of(L)
+                # roles: the bulk under construction is the (initially empty) list returned at position 1; the document is the loop variable over the lines read
+                cb = _returned_name(f, 1)
+                apps = [c for c in ast.walk(L) if isinstance(c, ast.Call) and cb is not None and pat.is_(c.func, "V_b.append", binds={"b": cb}) and len(c.args) == 1]
+                docv = L.target.id if isinstance(L.target, ast.Name) else None
+                # on every path of one iteration: exactly one append whose argument carries the document
+                doc_apps = [c for c in apps if any(isinstance(x, ast.Name) and x.id == docv for x in ast.walk(c.args[0]))]
+                starts = gf.edge_targets(head, "iter")
+                dn = [gf.node_of(c) for c in doc_apps]
+                every = bool(dn) and all(head.id not in gf.reachable([s_], avoid=dn, edge_ok=gf.normal_edge) for s_ in starts)
+                twice = any(gf.path_exists(a_, b_, avoid=[head]) for a_ in dn for b_ in dn if a_.id != b_.id)
+                meta_apps = [c for c in apps if c not in doc_apps]
+                if name == "_read_bulk_fast":
+                    ok = every and not twice and len(meta_apps) == 1 and not guards(meta_apps[0], stop=L) and meta_apps[0].lineno < doc_apps[0].lineno
+                else:
+                    # a meta line precedes the doc whenever a meta item exists
+                    ok = every and not twice and len(meta_apps) >= 1 and all(any(gf.path_exists(gf.node_of(m), d_, avoid=[head]) for d_ in dn) for m in meta_apps)
+                r = [x for x in walk_body(f) if isinstance(x, ast.Return)]
+                ok = ok and len(r) == 1 and isinstance(L.iter, ast.Name) and pat.is_(r[0].value, "(len(V_l), V_b)", binds={"l": L.iter.id, "b": cb}) and _empty_list_local(f, cb)
+                src = local_defs(f).get(u(L.iter))
+                ok = ok and pat.is_(src, "next(self.file_source)")
+            ob("O3.4", f"{name}: one document append per line read (action line before it), count == lines read", ok, f, "")
+
+    block("O3.4", o34)
 
     # ---- O3.5 bulk-size bound -------------------------------------------------------------------------------------------------------------------------
     chk.rule("O3.5", "the batch loop stops at the batch size; each bulk is one bounded read; the emitted bulk-size is that read's document count", 3, "a bulk larger than the configured bulk size")
-    IR = pr.cls("IndexDataReader")
-    inx = _meth(pr, IR, "__next__")
-    wl = [x for x in walk_body(inx) if isinstance(x, ast.While)]
-    rbc = [c for c in ast.walk(wl[0]) if isinstance(c, ast.Call) and u(c.func) == "self.read_bulk"] if wl else []
-    # roles: the bulk's count is position 0 of the read_bulk() unpack; the batch counter is the local advanced by that count inside the loop; the batch is the list returned last
-    un = _unpack_names(rbc[0]) if len(rbc) == 1 else None
-    cntv = un[0] if un and len(un) == 2 else None
-    accs = [x.target.id for x in ast.walk(wl[0]) if isinstance(x, ast.AugAssign) and isinstance(x.op, ast.Add) and isinstance(x.target, ast.Name) and isinstance(x.value, ast.Name) and x.value.id == cntv] if wl and cntv else []
-    ok = bool(wl) and len(accs) == 1 and pat.is_(wl[0].test, "V_acc < self.batch_size", binds={"acc": accs[0]})
-    chk.ob("O3.5", "batch loop: while docs_in_batch < batch size", ok, wl[0] if wl else inx, u(wl[0].test) if wl else "")
-    batchv = _returned_name(inx, -1)
-    ap = [c for c in ast.walk(wl[0]) if isinstance(c, ast.Call) and pat.is_(c.func, "V_b.append", binds={"b": batchv})] if wl and batchv else []
-    ok = len(rbc) == 1 and len(ap) == 1 and cntv is not None and len(ap[0].args) == 1 and isinstance(ap[0].args[0], ast.Tuple) and bool(ap[0].args[0].elts) and pat.is_(ap[0].args[0].elts[0], "V_c", binds={"c": cntv}) and _empty_list_local(inx, batchv)
-    chk.ob("O3.5", "one read_bulk() per appended bulk, reported with its own count", ok, ap[0] if ap else inx, "")
-    ent = _meth(pr, IR, "__enter__")
-    ok = any(isinstance(c, ast.Call) and last_attr(c.func) == "open" and _arg(c, 2) == "self.bulk_size" for c in walk_body(ent))
-    chk.ob("O3.5", "the slice is opened with the reader's bulk size", ok, ent, "")
-    # the reader factory hands batch size and bulk size to each reader under the parameter of the same meaning (both are ints: a swap type-checks and only shows with batch != bulk);
-    # each reader class passes them on to the base class in the same roles (the source-only reader doubles the bulk size: two lines per document)
-    cdr_ = pr.func("create_default_reader")
-    base_init = pr.methods(IR).get("__init__")
-    n_ctor = 0
-    for cname in ("SourceOnlyIndexDataReader", "MetadataIndexDataReader"):
-        rc_ = pr.cls(cname)
-        rinit = pr.methods(rc_).get("__init__")
-        for c in [c for c in source.calls_in(cdr_) if last_attr(c.func) == cname]:
-            n_ctor += 1
-            b_ = bind_args(c, rinit)
-            ok = u(b_.get("batch_size")) == "batch_size" and u(b_.get("bulk_size")) == "bulk_size" and {"batch_size", "bulk_size"} <= set(params_of(cdr_))
-            chk.ob("O3.5", f"{cname}(...) gets batch_size := batch_size, bulk_size := bulk_size", ok, c, f"batch_size={u(b_.get('batch_size'))} bulk_size={u(b_.get('bulk_size'))}",
-                   key=f"{_P}:create_default_reader:{cname}:sizes")
-        sup = [c for c in source.calls_in(rinit) if isinstance(c.func, ast.Attribute) and c.func.attr == "__init__" and isinstance(c.func.value, ast.Call) and dotted(c.func.value.func) == "super"] if rinit is not None else []
-        if sup and base_init is not None:
-            sb = bind_args(sup[0], base_init)
-            want_bulk = ("bulk_size * 2", "2 * bulk_size") if cname == "SourceOnlyIndexDataReader" else ("bulk_size",)
-            ok = u(sb.get("batch_size")) == "batch_size" and u(sb.get("bulk_size")) in want_bulk
-            chk.ob("O3.5", f"{cname} passes (batch size, bulk size{' x 2 lines' if len(want_bulk) == 2 else ''}) on to the base reader in the same roles", ok, sup[0],
-                   f"batch_size={u(sb.get('batch_size'))} bulk_size={u(sb.get('bulk_size'))}", key=f"{_P}:{cname}.__init__:sizes")
-    chk.ob("O3.5", "reader constructions located in the factory", n_ctor >= 2, cdr_, f"{n_ctor} site(s)")
-    bg = pr.func("bulk_generator")
-    dd = [x for x in walk_body(bg) if isinstance(x, ast.Dict) and any(source.is_const(k_, "bulk-size") for k_ in x.keys)]
-    ok = False
-    if dd:
-        dct = {k_.value: v for k_, v in zip(dd[0].keys, dd[0].values) if isinstance(k_, ast.Constant)}
-        lp = source.enclosing(dd[0], ast.For)
-        ok = lp is not None and isinstance(lp.target, ast.Tuple) and len(lp.target.elts) == 2 and all(isinstance(t, ast.Name) for t in lp.target.elts) and "body" in dct \
-            and pat.is_(dct["bulk-size"], "V_n", binds={"n": lp.target.elts[0].id}) and pat.is_(dct["body"], "V_b", binds={"b": lp.target.elts[1].id})
-    chk.ob("O3.5", "emitted bulk-size / body are the bulk's own count / lines", ok, dd[0] if dd else bg, "")
+
+    def o35():
+        nonlocal bp, total, s, e, n, flag, OFF, DOCS, LINES, NB_DOCS, crp, c2
+        IR = pr.cls("IndexDataReader")
+        inx = _meth(pr, IR, "__next__")
+        wl = [x for x in walk_body(inx) if isinstance(x, ast.While)]
+        idefs5 = {k_: v for k_, v in local_defs(inx).items() if is_self_attr(v)}  # hoisted attributes (`batch_size = self.batch_size`)
+        rbc = [c for c in ast.walk(wl[0]) if isinstance(c, ast.Call) and source.inline(c.func, idefs5) == "self.read_bulk"] if wl else []
+        # roles: the bulk's count is position 0 of the read_bulk() unpack; the batch counter is the local advanced by that count inside the loop; the batch is the list returned last
+        un = _unpack_names(rbc[0]) if len(rbc) == 1 else None
+        cntv = un[0] if un and len(un) == 2 else None
+        accs = [x.target.id for x in ast.walk(wl[0]) if isinstance(x, ast.AugAssign) and isinstance(x.op, ast.Add) and isinstance(x.target, ast.Name) and isinstance(x.value, ast.Name) and x.value.id == cntv] if wl and cntv else []
+        ok = bool(wl) and len(accs) == 1 and pat.is_(inline_node(wl[0].test, idefs5), "V_acc < self.batch_size", binds={"acc": accs[0]})
+        ob("O3.5", "batch loop: while docs_in_batch < batch size", ok, wl[0] if wl else inx, u(wl[0].test) if wl else "")
+        batchv = _returned_name(inx, -1)
+        ap = [c for c in ast.walk(wl[0]) if isinstance(c, ast.Call) and pat.is_(c.func, "V_b.append", binds={"b": batchv})] if wl and batchv else []
+        ok = len(rbc) == 1 and len(ap) == 1 and cntv is not None and len(ap[0].args) == 1 and isinstance(ap[0].args[0], ast.Tuple) and bool(ap[0].args[0].elts) and pat.is_(ap[0].args[0].elts[0], "V_c", binds={"c": cntv}) and _empty_list_local(inx, batchv)
+        ob("O3.5", "one read_bulk() per appended bulk, reported with its own count", ok, ap[0] if ap else inx, "")
+        ent = _meth(pr, IR, "__enter__")
+        ok = any(isinstance(c, ast.Call) and last_attr(c.func) == "open" and _arg(c, 2) == "self.bulk_size" for c in walk_body(ent))
+        ob("O3.5", "the slice is opened with the reader's bulk size", ok, ent, "")
+        # the reader factory hands batch size and bulk size to each reader under the parameter of the same meaning (both are ints: a swap type-checks and only shows with batch != bulk);
+        # each reader class passes them on to the base class in the same roles (the source-only reader doubles the bulk size: two lines per document)
+        cdr_ = pr.func("create_default_reader")
+        base_init = pr.methods(IR).get("__init__")
+        n_ctor = 0
+        for cname in ("SourceOnlyIndexDataReader", "MetadataIndexDataReader"):
+            rc_ = pr.cls(cname)
+            rinit = pr.methods(rc_).get("__init__")
+            for c in [c for c in source.calls_in(cdr_) if last_attr(c.func) == cname]:
+                n_ctor += 1
+                b_ = bind_args(c, rinit)
+                ok = u(b_.get("batch_size")) == "batch_size" and u(b_.get("bulk_size")) == "bulk_size" and {"batch_size", "bulk_size"} <= set(params_of(cdr_))
+                ob("O3.5", f"{cname}(...) gets batch_size := batch_size, bulk_size := bulk_size", ok, c, f"batch_size={u(b_.get('batch_size'))} bulk_size={u(b_.get('bulk_size'))}",
+                       key=f"{_P}:create_default_reader:{cname}:sizes")
+            sup = [c for c in source.calls_in(rinit) if isinstance(c.func, ast.Attribute) and c.func.attr == "__init__" and isinstance(c.func.value, ast.Call) and dotted(c.func.value.func) == "super"] if rinit is not None else []
+            if sup and base_init is not None:
+                sb = bind_args(sup[0], base_init)
+                want_bulk = ("bulk_size * 2", "2 * bulk_size") if cname == "SourceOnlyIndexDataReader" else ("bulk_size",)
+                ok = u(sb.get("batch_size")) == "batch_size" and u(sb.get("bulk_size")) in want_bulk
+                ob("O3.5", f"{cname} passes (batch size, bulk size{' x 2 lines' if len(want_bulk) == 2 else ''}) on to the base reader in the same roles", ok, sup[0],
+                       f"batch_size={u(sb.get('batch_size'))} bulk_size={u(sb.get('bulk_size'))}", key=f"{_P}:{cname}.__init__:sizes")
+        ob("O3.5", "reader constructions located in the factory", n_ctor >= 2, cdr_, f"{n_ctor} site(s)")
+        need(bulk_generator=bg)
+        dd = [x for x in walk_body(bg) if isinstance(x, ast.Dict) and any(source.is_const(k_, "bulk-size") for k_ in x.keys)]
+        ok = False
+        if dd:
+            dct = {k_.value: v for k_, v in zip(dd[0].keys, dd[0].values) if isinstance(k_, ast.Constant)}
+            lp = source.enclosing(dd[0], ast.For)
+            ok = lp is not None and isinstance(lp.target, ast.Tuple) and len(lp.target.elts) == 2 and all(isinstance(t, ast.Name) for t in lp.target.elts) and "body" in dct \
+                and pat.is_(dct["bulk-size"], "V_n", binds={"n": lp.target.elts[0].id}) and pat.is_(dct["body"], "V_b", binds={"b": lp.target.elts[1].id})
+        ob("O3.5", "emitted bulk-size / body are the bulk's own count / lines", ok, dd[0] if dd else bg, "")
+
+    block("O3.5", o35)
 
     # ---- O3.6 conflict ids ---------------------------------------------------------------------------------------------------------------------------------
     chk.rule("O3.6", "conflict path: only under id_up_to > 0; index in [0, id_up_to - 1] (randint(0, up - 1) / round((up - 1) * (1 - r)) with r = min(.., 1)); id_up_to grows by one only on the "
              "non-conflict path; ids are offset by the slice offset; with conflicts enabled the id window (one per parameter source) serves one client", 6,
              "a conflicting action refers to an id this client has not emitted yet (or to another client's id)")
-    GA = pr.cls("GenerateActionMetaData")
-    gn = _meth(pr, GA, "__next__")
-    gg = cfg_of(gn)
-    subs = [x for x in walk_body(gn) if isinstance(x, ast.Subscript) and is_self_attr(x.value, "conflicting_ids")]
-    idx_subs = [x for x in subs if isinstance(x.slice, ast.Name) and x.slice.id != "self"]
-    if not idx_subs:
-        raise AnchorMissing("conflict-path subscript of conflicting_ids")
-    cs = idx_subs[0]
-    gs = guards(cs)
-    ats = [u(a) for t, pol in gs if pol for a in (t.values if isinstance(t, ast.BoolOp) and isinstance(t.op, ast.And) else [t])]
-    chk.ob("O3.6", "conflict path only when ids were already emitted (id_up_to > 0)", holds(cs, "self.id_up_to > 0"), cs, f"{ats}")
-    iv = cs.slice.id
-    idefs = [x for x in walk_body(gn) if isinstance(x, ast.Assign) and u(x.targets[0]) == iv]
-    gdefs = local_defs(gn)
-    for d in idefs:
-        v = d.value
-        ok = False
-        detail = u(v)
-        if isinstance(v, ast.Call) and last_attr(v.func) == "randint" and len(v.args) == 2:
-            ok = source.is_const(v.args[0], 0) and rat_equal(v.args[1], parse_expr("self.id_up_to - 1"))
-            if not ok:
-                detail += " — randint is inclusive: the upper bound must be id_up_to - 1"
-        elif isinstance(v, ast.Call) and dotted(v.func) == "round" and len(v.args) == 1:
-            a = v.args[0]
-            if isinstance(a, ast.BinOp) and isinstance(a.op, ast.Mult):
-                fac = [x for x in (a.left, a.right) if rat_equal(x, parse_expr("self.id_up_to - 1"))]
-                oth = [x for x in (a.left, a.right) if x not in fac]
-                if fac and oth and isinstance(oth[0], ast.BinOp) and isinstance(oth[0].op, ast.Sub) and source.is_const(oth[0].left, 1):
-                    rr = gdefs.get(u(oth[0].right))
-                    ok = isinstance(rr, ast.Call) and dotted(rr.func) == "min" and any(source.is_const(x, 1) for x in rr.args)
-        chk.ob("O3.6", f"conflict index `{short(d, 60)}` stays within [0, id_up_to - 1]", ok, d, detail)
-    incs = [x for x in walk_body(gn) if isinstance(x, ast.AugAssign) and is_self_attr(x.target, "id_up_to")]
-    ok = len(incs) == 1 and source.is_const(incs[0].value, 1) and isinstance(incs[0].op, ast.Add) and not gg.path_exists(gg.node_of(cs), gg.node_of(incs[0])) and not gg.path_exists(gg.node_of(incs[0]), gg.node_of(cs))
-    chk.ob("O3.6", "id_up_to += 1 only on the non-conflict path", ok, incs[0] if incs else gn, "")
-    nsub = [x for x in subs if is_self_attr(x.slice, "id_up_to")]
-    ok = bool(nsub) and bool(incs) and gg.dominated_by_nodes(gg.node_of(incs[0]), [gg.node_of(nsub[0])])
-    chk.ob("O3.6", "a fresh id is the next unused one (ids[id_up_to], then advance)", ok, nsub[0] if nsub else gn, "")
-    bc = pr.func("build_conflicting_ids")
-    fm = [x for x in walk_body(bc) if isinstance(x, ast.BinOp) and isinstance(x.op, ast.Mod) and isinstance(x.left, ast.Constant) and isinstance(x.left.value, str)]
-    lp = source.enclosing(fm[0], ast.For) if fm else None
-    bcp = params_of(bc)
-    if len(bcp) < 3:
-        raise AnchorMissing(f"build_conflicting_ids(): (conflicts, docs, offset) parameters expected, found {bcp}")
-    ok = bool(fm) and lp is not None and isinstance(lp.target, ast.Name) and rat_equal(fm[0].right, parse_expr(f"{bcp[2]} + {lp.target.id}")) and u(lp.iter) == f"range({bcp[1]})"
-    chk.ob("O3.6", "ids are offset + i for i in range(docs of this slice) (no collisions across clients)", ok, fm[0] if fm else bc, "")
-    bcall = [c for c in source.calls_in(cdr) if last_attr(c.func) == "build_conflicting_ids"]
-    ok = bool(bcall) and [u(a) for a in bcall[0].args] == ["id_conflicts", "num_docs", "offset"]
-    chk.ob("O3.6", "id list built for this slice's (docs, offset)", ok, bcall[0] if bcall else cdr, "")
+
+    def o36():
+        nonlocal bp, total, s, e, n, flag, OFF, DOCS, LINES, NB_DOCS, crp, c2
+        need(create_default_reader=cdr)
+        GA = pr.cls("GenerateActionMetaData")
+        gn = _meth(pr, GA, "__next__")
+        gg = cfg_of(gn)
+        subs = [x for x in walk_body(gn) if isinstance(x, ast.Subscript) and is_self_attr(x.value, "conflicting_ids")]
+        idx_subs = [x for x in subs if isinstance(x.slice, ast.Name) and x.slice.id != "self"]
+        if not idx_subs:
+            raise AnchorMissing("conflict-path subscript of conflicting_ids")
+        cs = idx_subs[0]
+        gs = guards(cs)
+        ats = [u(a) for t, pol in gs if pol for a in (t.values if isinstance(t, ast.BoolOp) and isinstance(t.op, ast.And) else [t])]
+        ob("O3.6", "conflict path only when ids were already emitted (id_up_to > 0)", holds(cs, "self.id_up_to > 0"), cs, f"{ats}")
+        iv = cs.slice.id
+        idefs = [x for x in walk_body(gn) if isinstance(x, ast.Assign) and u(x.targets[0]) == iv]
+        gdefs = local_defs(gn)
+        for d in idefs:
+            v = d.value
+            ok = False
+            detail = u(v)
+            if isinstance(v, ast.Call) and last_attr(v.func) == "randint" and len(v.args) == 2:
+                ok = source.is_const(v.args[0], 0) and rat_equal(v.args[1], parse_expr("self.id_up_to - 1"))
+                if not ok:
+                    detail += " — randint is inclusive: the upper bound must be id_up_to - 1"
+            elif isinstance(v, ast.Call) and dotted(v.func) == "round" and len(v.args) == 1:
+                a = v.args[0]
+                if isinstance(a, ast.BinOp) and isinstance(a.op, ast.Mult):
+                    fac = [x for x in (a.left, a.right) if rat_equal(x, parse_expr("self.id_up_to - 1"))]
+                    oth = [x for x in (a.left, a.right) if x not in fac]
+                    if fac and oth and isinstance(oth[0], ast.BinOp) and isinstance(oth[0].op, ast.Sub) and source.is_const(oth[0].left, 1):
+                        rr = gdefs.get(u(oth[0].right))
+                        ok = isinstance(rr, ast.Call) and dotted(rr.func) == "min" and any(source.is_const(x, 1) for x in rr.args)
+            ob("O3.6", f"conflict index `{short(d, 60)}` stays within [0, id_up_to - 1]", ok, d, detail)
+        incs = [x for x in walk_body(gn) if isinstance(x, ast.AugAssign) and is_self_attr(x.target, "id_up_to")]
+        ok = len(incs) == 1 and source.is_const(incs[0].value, 1) and isinstance(incs[0].op, ast.Add) and not gg.path_exists(gg.node_of(cs), gg.node_of(incs[0])) and not gg.path_exists(gg.node_of(incs[0]), gg.node_of(cs))
+        ob("O3.6", "id_up_to += 1 only on the non-conflict path", ok, incs[0] if incs else gn, "")
+        nsub = [x for x in subs if is_self_attr(x.slice, "id_up_to")]
+        ok = bool(nsub) and bool(incs) and gg.dominated_by_nodes(gg.node_of(incs[0]), [gg.node_of(nsub[0])])
+        ob("O3.6", "a fresh id is the next unused one (ids[id_up_to], then advance)", ok, nsub[0] if nsub else gn, "")
+        bc = pr.func("build_conflicting_ids")
+        fm = [x for x in walk_body(bc) if isinstance(x, ast.BinOp) and isinstance(x.op, ast.Mod) and isinstance(x.left, ast.Constant) and isinstance(x.left.value, str)]
+        lp = source.enclosing(fm[0], ast.For) if fm else None
+        cp = source.enclosing(fm[0], (ast.ListComp, ast.GeneratorExp)) if fm else None
+        if cp is not None and len(cp.generators) == 1 and not cp.generators[0].ifs and (lp is None or any(x is lp for x in source.ancestors(cp))):
+            lp = cp.generators[0]  # `[fmt % (offset + i) for i in range(docs)]`: target / iter play the loop's roles
+        bcp = params_of(bc)
+        if len(bcp) < 3:
+            raise AnchorMissing(f"build_conflicting_ids(): (conflicts, docs, offset) parameters expected, found {bcp}")
+        ok = bool(fm) and lp is not None and isinstance(lp.target, ast.Name) and rat_equal(fm[0].right, parse_expr(f"{bcp[2]} + {lp.target.id}")) and u(lp.iter) == f"range({bcp[1]})"
+        ob("O3.6", "ids are offset + i for i in range(docs of this slice) (no collisions across clients)", ok, fm[0] if fm else bc, "")
+        bcall = [c for c in source.calls_in(cdr) if last_attr(c.func) == "build_conflicting_ids"]
+        ok = bool(bcall) and [u(a) for a in bcall[0].args] == ["id_conflicts", "num_docs", "offset"]
+        ob("O3.6", "id list built for this slice's (docs, offset)", ok, bcall[0] if bcall else cdr, "")
+    block("O3.6", o36)
+
     # the emitted prefix [0, id_up_to) is an attribute of the action/meta-data generator, i.e. of ONE reader of ONE partition source; it is the prefix "this client has emitted" only
-    # if no other client draws bulks from the same source. Decided on values: the body of the task-level partition() is evaluated for every conflict mode for which
-    # build_conflicting_ids() builds an id list; what it hands to the client must have been created for this call (not an object made once in the constructor and given to every
-    # co-located client).
-    BIP, PBS = pr.cls("BulkIndexParamSource"), pr.cls("PartitionBulkIndexParamSource")
-    part, bi_init = _meth(pr, BIP, "partition"), _meth(pr, BIP, "__init__")
-    enum_names = set()
-    for n in walk_body(bc):
-        if isinstance(n, ast.Compare) and len(n.ops) == 1:
-            for a_, b_ in ((n.left, n.comparators[0]), (n.comparators[0], n.left)):
-                if pat.is_(a_, "V_c", binds={"c": bcp[0]}) and isinstance(b_, ast.Attribute) and dotted(b_.value) is not None:
-                    enum_names.add(dotted(b_.value))
-    if len(enum_names) != 1:
-        raise AnchorMissing(f"build_conflicting_ids(): the conflict-mode enumeration its first parameter is compared with (found {sorted(enum_names)})")
-    EN = enum_names.pop()
-    members = [t.id for x in pr.cls(EN).body if isinstance(x, ast.Assign) for t in x.targets if isinstance(t, ast.Name)]
-    menv = {f"{EN}.{m_}": m_ for m_ in members}
-    windowed = []
-    for m_ in members:
+    # if no other client draws bulks from the same source (the value runs above drive one client per worker). Decided on values: the body of the task-level partition() is evaluated
+    # for every conflict mode for which build_conflicting_ids() builds an id list; what it hands to the client must have been created for this call (not an object made once in the
+    # constructor and given to every co-located client).
+    def o36b():
+        bc = pr.func("build_conflicting_ids")
+        bcp = params_of(bc)
+        if len(bcp) < 3:
+            raise AnchorMissing(f"build_conflicting_ids(): (conflicts, docs, offset) parameters expected, found {bcp}")
+        BIP, PBS = pr.cls("BulkIndexParamSource"), pr.cls("PartitionBulkIndexParamSource")
+        part, bi_init = _meth(pr, BIP, "partition"), _meth(pr, BIP, "__init__")
+        enum_names = set()
+        for nd_ in walk_body(bc):
+            if isinstance(nd_, ast.Compare) and len(nd_.ops) == 1:
+                for a_, b_ in ((nd_.left, nd_.comparators[0]), (nd_.comparators[0], nd_.left)):
+                    if pat.is_(a_, "V_c", binds={"c": bcp[0]}) and isinstance(b_, ast.Attribute) and dotted(b_.value) is not None:
+                        enum_names.add(dotted(b_.value))
+        if len(enum_names) != 1:
+            raise AnchorMissing(f"build_conflicting_ids(): the conflict-mode enumeration its first parameter is compared with (found {sorted(enum_names)})")
+        EN = enum_names.pop()
+        members = [t.id for x in pr.cls(EN).body if isinstance(x, ast.Assign) for t in x.targets if isinstance(t, ast.Name)]
+        menv = {f"{EN}.{m_}": m_ for m_ in members}
+        # which modes build an id list: the function is evaluated as a whole (3 documents at offset 0) - loop, comprehension or helper, whatever builds the list
+        m6 = _M(pr, None, None, {"random.shuffle": _stub(lambda xs: None)})
+        windowed = []
+        for m_ in members:
+            try:
+                if m6.call_def(bc, [m6.getattr(_Cls(pr.cls(EN)), m_), 3, 0], {}) is not None:
+                    windowed.append(m_)
+            except (_Cannot, _Raised) as x:
+                raise AnchorMissing(f"build_conflicting_ids() cannot be evaluated for mode {m_}: {x}")
+        mode_attr = sorted({x.targets[0].attr for x in walk_body(bi_init) if isinstance(x, ast.Assign) and is_self_attr(x.targets[0]) and dotted(x.value) in menv})
+        made_once = sorted({x.targets[0].attr for x in walk_body(bi_init) if isinstance(x, ast.Assign) and is_self_attr(x.targets[0]) and isinstance(x.value, ast.Call) and last_attr(x.value.func) == PBS.name})
+        if len(mode_attr) != 1 or not windowed or len(windowed) == len(members):
+            raise AnchorMissing(f"BulkIndexParamSource: conflict-mode attribute {mode_attr}, modes with an id list {windowed} of {members}")
+
+        class _Src:
+            def __init__(self, origin, fresh):
+                self.origin, self.fresh = origin, fresh
+
+        def _own(h):
+            def call(c, env):
+                env2 = {k_: v for k_, v in env.items() if "." in k_}
+                for k_, a in bind_args(c, h).items():
+                    try:
+                        env2[k_] = _val(a, env, pr.imports, hooks)
+                    except _Cannot:
+                        env2[k_] = _OPAQUE
+                return _exec(h.body, env2, pr.imports, hooks)[1]
+            return call
+
+        hooks = {PBS.name: lambda c, env: _Src(short(c, 60), True)}
+        hooks.update({f"self.{h.name}": _own(h) for h in pr.methods(BIP).values() if h is not part and h.name != "__init__"})
+        pp = _own_params(part)
+        bad_modes, handed = [], set()
         try:
-            r_ = _exec(bc.body, {bcp[0]: m_, **menv}, pr.imports)
-            if not (r_[0] == "return" and r_[1] is None):
-                windowed.append(m_)
-        except _CannotStmt as x:
-            if not isinstance(x.node, (ast.For, ast.While)):
-                raise AnchorMissing(f"build_conflicting_ids(): {x}")
-            windowed.append(m_)  # reached the loop that builds the id list
+            for m_ in windowed:
+                env = {f"self.{mode_attr[0]}": m_, **menv, **{f"self.{a_}": _Src(f"self.{a_} (created once in __init__)", False) for a_ in made_once}, **{p_: i_ for i_, p_ in enumerate(pp)}}
+                v = _exec(part.body, env, pr.imports, hooks)[1]
+                if not isinstance(v, _Src):
+                    raise _Cannot(f"what partition() returns for mode {m_} is not a partition parameter source the rule can follow")
+                handed.add(v.origin)
+                if not v.fresh:
+                    bad_modes.append(m_)
+            chk.ob("O3.6", "with id conflicts enabled each client draws from an id window of its own: partition() hands every client a parameter source created for it", not bad_modes, part,
+                   f"conflict modes {bad_modes}: every co-located client receives {sorted(handed)} - one reader, one id_up_to: a client's conflicting ids are drawn from ids the GROUP emitted"
+                   if bad_modes else f"modes {windowed}: {sorted(handed)}", key=f"{_P}:BulkIndexParamSource.partition:shared-id-window")
         except (_Cannot, _Raised) as x:
-            raise AnchorMissing(f"build_conflicting_ids() cannot be evaluated for mode {m_}: {x}")
-    mode_attr = sorted({x.targets[0].attr for x in walk_body(bi_init) if isinstance(x, ast.Assign) and is_self_attr(x.targets[0]) and dotted(x.value) in menv})
-    shared = sorted({x.targets[0].attr for x in walk_body(bi_init) if isinstance(x, ast.Assign) and is_self_attr(x.targets[0]) and isinstance(x.value, ast.Call) and last_attr(x.value.func) == PBS.name})
-    if len(mode_attr) != 1 or not windowed or len(windowed) == len(members):
-        raise AnchorMissing(f"BulkIndexParamSource: conflict-mode attribute {mode_attr}, modes with an id list {windowed} of {members}")
+            chk.unknown("O3.6", f"BulkIndexParamSource.partition() cannot be evaluated on values: {x}", part)
 
-    class _Src:
-        def __init__(self, origin, fresh):
-            self.origin, self.fresh = origin, fresh
-
-    def _own(h):
-        def call(c, env):
-            env2 = {k_: v for k_, v in env.items() if "." in k_}
-            for k_, a in bind_args(c, h).items():
-                try:
-                    env2[k_] = _val(a, env, pr.imports, hooks)
-                except _Cannot:
-                    env2[k_] = _OPAQUE
-            return _exec(h.body, env2, pr.imports, hooks)[1]
-        return call
-
-    hooks = {PBS.name: lambda c, env: _Src(short(c, 60), True)}
-    hooks.update({f"self.{h.name}": _own(h) for h in pr.methods(BIP).values() if h is not part and h.name != "__init__"})
-    pp = _own_params(part)
-    bad_modes, handed = [], set()
-    try:
-        for m_ in windowed:
-            env = {f"self.{mode_attr[0]}": m_, **menv, **{f"self.{a_}": _Src(f"self.{a_} (created once in __init__)", False) for a_ in shared}, **{p_: i_ for i_, p_ in enumerate(pp)}}
-            v = _exec(part.body, env, pr.imports, hooks)[1]
-            if not isinstance(v, _Src):
-                raise _Cannot(f"what partition() returns for mode {m_} is not a partition parameter source the rule can follow")
-            handed.add(v.origin)
-            if not v.fresh:
-                bad_modes.append(m_)
+    def o36c():
+        """the same question put to the driver's contract (no name inside the classes is consulted): with conflicts enabled, do two co-located clients that register with one
+        task-level source receive two parameter sources? One object for both is one reader, one action generator, one id_up_to."""
+        src_cls = pr.index().get(reg[0] if len(reg) == 1 else "BulkIndexParamSource")
+        if not isinstance(src_cls, ast.ClassDef):
+            raise _Cannot("the bulk parameter source class is not located")
+        simk = _Sim(pr, src_cls, _FILES_PLAIN)
+        bad_modes, seen_ = [], []
+        for mode in ("sequential", "random"):
+            m_ = simk.machine(_Rnd())
+            src = m_.apply(_Cls(src_cls), [simk.track(), {"bulk-size": 2, "conflicts": mode, "conflict-probability": 50, "on-conflict": "update"}], {})
+            parts = [m_.apply(m_.getattr(src, "partition"), [c_, 2], {}) for c_ in (0, 1)]
+            if not all(isinstance(p_, _Obj) for p_ in parts):
+                raise _Cannot("partition() does not return an object")
+            seen_.append(f"{mode}: {'one ' + repr(parts[0]) + ' for both clients' if parts[0] is parts[1] else 'a source per client'}")
+            if parts[0] is parts[1]:
+                bad_modes.append(mode)
+        part = pr.methods(src_cls).get("partition") or src_cls
         chk.ob("O3.6", "with id conflicts enabled each client draws from an id window of its own: partition() hands every client a parameter source created for it", not bad_modes, part,
-               f"conflict modes {bad_modes}: every co-located client receives {sorted(handed)} - one reader, one id_up_to: a client's conflicting ids are drawn from ids the GROUP emitted"
-               if bad_modes else f"modes {windowed}: {sorted(handed)}", key=f"{_P}:BulkIndexParamSource.partition:shared-id-window")
-    except (_Cannot, _Raised) as x:
-        chk.unknown("O3.6", f"BulkIndexParamSource.partition() cannot be evaluated on values: {x}", part)
+               (f"conflict modes {bad_modes}: every co-located client receives the same object - one reader, one id_up_to: a client's conflicting ids are drawn from ids the GROUP emitted; "
+                if bad_modes else "") + "; ".join(seen_), key=f"{_P}:BulkIndexParamSource.partition:shared-id-window")
+
+    try:
+        o36c()
+    except (_Cannot, _Raised) as x0:
+        # not evaluable through the contract: the extracted body of partition() is evaluated per conflict mode instead
+        try:
+            o36b()
+        except AnchorMissing as x:  # the value runs drive one client per worker and say nothing about co-located clients: not recognised stays not recognised
+            chk.unknown("O3.6", f"who shares an id window: not evaluable through the driver's contract ({x0}) nor from the body of partition() ({x})")
 
     # ---- O3.9 every reader is consumed exactly once ---------------------------------------------------------------------------------------------------------
     chk.rule("O3.9", "reader factory: corpora are rotated (not filtered) for staggering; a reader is created for every document set with a non-empty share; the staggering loop moves every "
              "created reader into the result exactly once; chain() runs every reader inside its context; the bulk generator walks every batch and bulk", 6,
              "a whole corpus file is never ingested (or ingested twice) for some client index / number of corpora")
-    cdefs3 = local_defs(cr)
-    # roles: the document-set loop is the loop around the bounds() call, the corpus loop the one around that; the rotated list is what the corpus loop iterates over
-    bcs = [c for c in source.calls_in(cr) if last_attr(c.func) == "bounds"]
-    il0 = source.enclosing(bcs[0], ast.For) if bcs else None
-    ol0 = source.enclosing(il0, ast.For) if il0 is not None else None
-    rotv = ol0.iter.id if ol0 is not None and isinstance(ol0.iter, ast.Name) else None
-    rot = cdefs3.get(rotv) if rotv else None
-    mb = pat.match(rot, "corpora[V_k:] + corpora[:V_k]")
-    k_ = cdefs3.get(mb["k"]) if mb else None
-    ok = mb is not None and pat.is_(k_, "start_client_index % len(corpora)") and {"corpora", "start_client_index"} <= set(crp)
-    chk.ob("O3.9", "corpora rotated by start % len (every corpus kept once)", ok, rot if rot is not None else cr, u(rot) if rot is not None else "")
-    ol = [ol0] if ol0 is not None and rotv is not None and any(n is ol0 for n in walk_body(cr)) else []
-    il = [il0] if ol and isinstance(ol0.target, ast.Name) and pat.is_(il0.iter, "V_c.documents", binds={"c": ol0.target.id}) else []
-    ok = bool(ol) and bool(il)
-    chk.ob("O3.9", "every document set of every (rotated) corpus is visited", ok, ol[0] if ol else cr, "")
-    RQ = CNT = CRS = None
-    if il:
-        mk = [n for n in ast.walk(il[0]) if isinstance(n, ast.Call) and u(n.func) == "create_reader"]
-        # roles: the reader is the local the factory call is assigned to; the queue is what it is appended to; the counter is the local advanced in the document-set loop
-        rdv_ = _target_name(mk[0]) if mk else None
-        ap_ = [n for n in ast.walk(il[0]) if isinstance(n, ast.Call) and rdv_ is not None and pat.is_(n, "V_q.append(V_r)", binds={"r": rdv_})]
-        inc_ = [n for n in ast.walk(il[0]) if isinstance(n, ast.AugAssign) and isinstance(n.target, ast.Name)]
-        fs_ = pat.fact_nodes(mk[0], stop=il[0]) if mk else None
-        gs_ = [u(t) for t in fs_] if fs_ is not None else None
-        ok = len(mk) == 1 and len(ap_) == 1 and len(inc_) == 1 and DOCS is not None and len(fs_) == 1 and pat.is_(fs_[0], "V_d > 0", binds={"d": DOCS}) and isinstance(inc_[0].op, ast.Add) and source.is_const(inc_[0].value, 1) \
-            and _same_block(inc_[0], source.enclosing_stmt(ap_[0])) and _same_block(source.enclosing_stmt(mk[0]), source.enclosing_stmt(ap_[0]))
-        if ok:
-            RQ, CNT = ap_[0].func.value.id, inc_[0].target.id
-            # the queue is a fresh one per corpus
-            ok = any((isinstance(x, ast.AnnAssign) and isinstance(x.target, ast.Name) and x.target.id == RQ) or (isinstance(x, ast.Assign) and any(isinstance(t, ast.Name) and t.id == RQ for t in x.targets)) for x in ol[0].body)
-        chk.ob("O3.9", "a reader per document set with a non-empty share, counted once", ok, mk[0] if mk else il[0], f"guards={gs_}")
-        qa = [n for n in ast.walk(ol[0]) if isinstance(n, ast.Call) and RQ is not None and pat.is_(n, "V_all.append(V_q)", binds={"q": RQ})]
-        ok = len(qa) == 1 and any(x is source.enclosing_stmt(qa[0]) for x in ol[0].body)
-        CRS = qa[0].func.value.id if ok else None
-        chk.ob("O3.9", "every corpus queue is kept", ok, qa[0] if qa else ol[0], "")
-    wl_ = [n for n in walk_body(cr) if isinstance(n, ast.While)]
-    ok = False
-    if wl_:
-        W_ = wl_[0]
-        # roles: the result is the (initially empty) list the factory returns; the queues walked are the kept corpus queues; the loop counter is the reader counter
-        resv = _returned_name(cr)
-        pops = [n for n in ast.walk(W_) if isinstance(n, ast.Call) and last_attr(n.func) == "popleft"]
-        decs = [n for n in ast.walk(W_) if isinstance(n, ast.AugAssign) and CNT is not None and pat.is_(n.target, "V_n", binds={"n": CNT}) and isinstance(n.op, ast.Sub) and source.is_const(n.value, 1)]
-        qv = pops[0].func.value.id if len(pops) == 1 and isinstance(pops[0].func, ast.Attribute) and isinstance(pops[0].func.value, ast.Name) else None
-        ql = source.enclosing(pops[0], ast.For) if qv else None
-        fs_ = pat.fact_nodes(pops[0], stop=W_) if qv else []
-        ok = CNT is not None and pat.is_(W_.test, "V_n > 0", binds={"n": CNT}) and len(pops) == 1 and len(decs) == 1 and qv is not None and resv is not None and _empty_list_local(cr, resv) \
-            and isinstance(source.parent(pops[0]), ast.Call) and pat.is_(source.parent(pops[0]), "V_res.append(V_q.popleft())", binds={"res": resv, "q": qv}) \
-            and _same_block(decs[0], source.enclosing_stmt(pops[0])) and len(fs_) == 1 and pat.is_(fs_[0], "V_q", binds={"q": qv}) \
-            and ql is not None and any(x is ql for x in W_.body) and pat.is_(ql.target, "V_q", binds={"q": qv}) and CRS is not None and pat.is_(ql.iter, "V_all", binds={"all": CRS})
-    chk.ob("O3.9", "staggering moves every created reader into the result exactly once", ok, wl_[0] if wl_ else cr, "")
-    chf = pr.func("chain")
-    ok = any(isinstance(n, ast.With) and any(isinstance(x, ast.Expr) and isinstance(x.value, ast.YieldFrom) for x in n.body) for n in walk_body(chf)) and any(isinstance(n, ast.For) and "is not None" in u(n.iter) for n in walk_body(chf))
-    chk.ob("O3.9", "chain(): every (non-None) reader is opened and fully delegated to", ok, chf, "")
-    bgl = [n for n in walk_body(bg) if isinstance(n, ast.For)]
-    ok = len(bgl) == 2 and u(bgl[0].iter) == "readers" and not any(isinstance(x, (ast.Break, ast.Continue)) or (isinstance(x, ast.If) and any(isinstance(y, ast.Continue) for y in x.body)) for x in ast.walk(bgl[0]))
-    ys = [n for n in ast.walk(bg) if isinstance(n, ast.Yield)]
-    ok = ok and len(ys) == 1 and not any("pipeline" not in u(t) for t, pol in guards(ys[0], stop=bgl[1]))
-    chk.ob("O3.9", "bulk generator yields every bulk of every batch", ok, bg, "")
+
+    def o39():
+        nonlocal bp, total, s, e, n, flag, OFF, DOCS, LINES, NB_DOCS, crp, c2
+        cdefs3 = local_defs(cr)
+        # roles: the document-set loop is the loop around the bounds() call, the corpus loop the one around that; the rotated list is what the corpus loop iterates over
+        need(create_readers=cr, bulk_generator=bg)
+        crp = params_of(cr)
+        bcs = [tc] if tc is not None else []
+        if DOCS is None and tc is not None and _unpack_names(tc):
+            DOCS = _unpack_names(tc)[1]  # role: the share's document count is position 1 of the slice triple
+        il0 = source.enclosing(bcs[0], ast.For) if bcs else None
+        ol0 = source.enclosing(il0, ast.For) if il0 is not None else None
+        rotv = ol0.iter.id if ol0 is not None and isinstance(ol0.iter, ast.Name) else None
+        rot = cdefs3.get(rotv) if rotv else None
+        mb = pat.match(rot, "corpora[V_k:] + corpora[:V_k]")
+        k_ = cdefs3.get(mb["k"]) if mb else None
+        ok = mb is not None and pat.is_(k_, "start_client_index % len(corpora)") and {"corpora", "start_client_index"} <= set(crp)
+        ob("O3.9", "corpora rotated by start % len (every corpus kept once)", ok, rot if rot is not None else cr, u(rot) if rot is not None else "")
+        ol = [ol0] if ol0 is not None and rotv is not None and any(n is ol0 for n in walk_body(cr)) else []
+        il = [il0] if ol and isinstance(ol0.target, ast.Name) and pat.is_(il0.iter, "V_c.documents", binds={"c": ol0.target.id}) else []
+        ok = bool(ol) and bool(il)
+        ob("O3.9", "every document set of every (rotated) corpus is visited", ok, ol[0] if ol else cr, "")
+        RQ = CNT = CRS = None
+        if il:
+            mk = [n for n in ast.walk(il[0]) if isinstance(n, ast.Call) and u(n.func) == "create_reader"]
+            # roles: the reader is the local the factory call is assigned to; the queue is what it is appended to; the counter is the local advanced in the document-set loop
+            rdv_ = _target_name(mk[0]) if mk else None
+            ap_ = [n for n in ast.walk(il[0]) if isinstance(n, ast.Call) and rdv_ is not None and pat.is_(n, "V_q.append(V_r)", binds={"r": rdv_})]
+            inc_ = [n for n in ast.walk(il[0]) if isinstance(n, ast.AugAssign) and isinstance(n.target, ast.Name)]
+            fs_ = pat.fact_nodes(mk[0], stop=il[0]) if mk else None
+            gs_ = [u(t) for t in fs_] if fs_ is not None else None
+            ok = len(mk) == 1 and len(ap_) == 1 and len(inc_) == 1 and DOCS is not None and len(fs_) == 1 and pat.is_(fs_[0], "V_d > 0", binds={"d": DOCS}) and isinstance(inc_[0].op, ast.Add) and source.is_const(inc_[0].value, 1) \
+                and _same_block(inc_[0], source.enclosing_stmt(ap_[0])) and _same_block(source.enclosing_stmt(mk[0]), source.enclosing_stmt(ap_[0]))
+            if ok:
+                RQ, CNT = ap_[0].func.value.id, inc_[0].target.id
+                # the queue is a fresh one per corpus
+                ok = any((isinstance(x, ast.AnnAssign) and isinstance(x.target, ast.Name) and x.target.id == RQ) or (isinstance(x, ast.Assign) and any(isinstance(t, ast.Name) and t.id == RQ for t in x.targets)) for x in ol[0].body)
+            ob("O3.9", "a reader per document set with a non-empty share, counted once", ok, mk[0] if mk else il[0], f"guards={gs_}")
+            qa = [n for n in ast.walk(ol[0]) if isinstance(n, ast.Call) and RQ is not None and pat.is_(n, "V_all.append(V_q)", binds={"q": RQ})]
+            ok = len(qa) == 1 and any(x is source.enclosing_stmt(qa[0]) for x in ol[0].body)
+            CRS = qa[0].func.value.id if ok else None
+            ob("O3.9", "every corpus queue is kept", ok, qa[0] if qa else ol[0], "")
+        wl_ = [n for n in walk_body(cr) if isinstance(n, ast.While)]
+        ok = False
+        if wl_:
+            W_ = wl_[0]
+            # roles: the result is the (initially empty) list the factory returns; the queues walked are the kept corpus queues; the loop counter is the reader counter
+            resv = _returned_name(cr)
+            pops = [n for n in ast.walk(W_) if isinstance(n, ast.Call) and last_attr(n.func) == "popleft"]
+            decs = [n for n in ast.walk(W_) if isinstance(n, ast.AugAssign) and CNT is not None and pat.is_(n.target, "V_n", binds={"n": CNT}) and isinstance(n.op, ast.Sub) and source.is_const(n.value, 1)]
+            qv = pops[0].func.value.id if len(pops) == 1 and isinstance(pops[0].func, ast.Attribute) and isinstance(pops[0].func.value, ast.Name) else None
+            ql = source.enclosing(pops[0], ast.For) if qv else None
+            fs_ = pat.fact_nodes(pops[0], stop=W_) if qv else []
+            ok = CNT is not None and pat.is_(W_.test, "V_n > 0", binds={"n": CNT}) and len(pops) == 1 and len(decs) == 1 and qv is not None and resv is not None and _empty_list_local(cr, resv) \
+                and isinstance(source.parent(pops[0]), ast.Call) and pat.is_(source.parent(pops[0]), "V_res.append(V_q.popleft())", binds={"res": resv, "q": qv}) \
+                and _same_block(decs[0], source.enclosing_stmt(pops[0])) and len(fs_) == 1 and pat.is_(fs_[0], "V_q", binds={"q": qv}) \
+                and ql is not None and any(x is ql for x in W_.body) and pat.is_(ql.target, "V_q", binds={"q": qv}) and CRS is not None and pat.is_(ql.iter, "V_all", binds={"all": CRS})
+        ob("O3.9", "staggering moves every created reader into the result exactly once", ok, wl_[0] if wl_ else cr, "")
+        chf = pr.func("chain")
+        ok = any(isinstance(n, ast.With) and any(isinstance(x, ast.Expr) and isinstance(x.value, ast.YieldFrom) for x in n.body) for n in walk_body(chf)) and any(isinstance(n, ast.For) and "is not None" in u(n.iter) for n in walk_body(chf))
+        ob("O3.9", "chain(): every (non-None) reader is opened and fully delegated to", ok, chf, "")
+        bgl = [n for n in walk_body(bg) if isinstance(n, ast.For)]
+        ok = len(bgl) == 2 and u(bgl[0].iter) == "readers" and not any(isinstance(x, (ast.Break, ast.Continue)) or (isinstance(x, ast.If) and any(isinstance(y, ast.Continue) for y in x.body)) for x in ast.walk(bgl[0]))
+        ys = [n for n in ast.walk(bg) if isinstance(n, ast.Yield)]
+        ok = ok and len(ys) == 1 and not any("pipeline" not in u(t) for t, pol in guards(ys[0], stop=bgl[1]))
+        ob("O3.9", "bulk generator yields every bulk of every batch", ok, bg, "")
+
+    block("O3.9", o39)
 
     # ---- O3.7 offset table ------------------------------------------------------------------------------------------------------------------------------------
     from rules.C14 import offset_table_protocol
 
-    offset_table_protocol(chk, io_, "O3.7")
+    shared("O3.7", offset_table_protocol, chk, io_, "O3.7")
     from rules.C14 import line_count_rule
 
     ldr_ = repo.module("esrally/track/loader.py")
     chk.use(ldr_)
-    line_count_rule(chk, "O3.7", ldr_)
-    _stale_table_rule(chk, ldr_, io_)
+    shared("O3.7", line_count_rule, chk, "O3.7", ldr_)
+    shared("O3.10", _stale_table_rule, chk, ldr_, io_)
 
     # ---- O3.8 bulk counting and percentage cut-off --------------------------------------------------------------------------------------------------------------
     chk.rule("O3.8", "per file the bulk count is the ceiling division of the slice's documents by the bulk size; total_bulks == ceil(all_bulks * p / 100) exactly (also for fractional p); "
              "params() raises StopIteration at current == total unless looped and increments current once per returned bulk; progress is current / total and is defined for a total of 0", 5,
              "with ingest percentage p the group stops one bulk early/late; without it the tail of the slice is never ingested")
-    # roles: the bulk counter is the local number_of_bulks() returns; the slice's document count is position 1 of its bounds() unpack
-    bulkv = _returned_name(nb)
-    acc = [x for x in walk_body(nb) if isinstance(x, ast.AugAssign) and isinstance(x.op, ast.Add) and bulkv is not None and pat.is_(x.target, "V_b", binds={"b": bulkv})]
-    ndefs = {}
-    for x in walk_body(nb):
-        if isinstance(x, ast.Assign) and isinstance(x.targets[0], ast.Tuple) and isinstance(x.value, ast.Tuple):
-            for t, v in zip(x.targets[0].elts, x.value.elts):
-                ndefs[u(t)] = v
-        elif isinstance(x, ast.Assign) and isinstance(x.targets[0], ast.Name):
-            ndefs[u(x.targets[0])] = x.value
-    bsz = params_of(nb)[4]
-    ok = False
-    nd_ = {"d": NB_DOCS}
-    zero = [x for x in walk_body(nb) if isinstance(x, ast.Assign) and bulkv is not None and any(pat.is_(t, "V_b", binds={"b": bulkv}) for t in x.targets)]
-    loopv = {t.id for x in walk_body(nb) if isinstance(x, ast.For) for t in ast.walk(x.target) if isinstance(t, ast.Name)}
-    idefs_ = {k_: v for k_, v in ndefs.items() if k_ != NB_DOCS and k_ != bulkv and k_ not in loopv}
-    start0 = NB_DOCS is not None and len(zero) == 1 and source.is_const(zero[0].value, 0) and source.parent(zero[0]) is nb
-    if len(acc) == 2 and start0:
-        one = [x for x in acc if source.is_const(x.value, 1)]
-        full = [x for x in acc if x not in one]
-        if len(one) == 1 and len(full) == 1:
-            fe = inline_node(full[0].value, idefs_)
-            ok = pat.is_(fe, f"V_d // {bsz}", binds=nd_) and not guards(full[0], stop=source.enclosing(full[0], ast.For)) \
-                and any(pat.is_(inline_node(t, idefs_), f"V_d % {bsz} > 0", f"V_d % {bsz} != 0", binds=nd_) for t in pat.fact_nodes(one[0], stop=source.enclosing(one[0], ast.For)))
-    elif len(acc) == 1 and start0:
-        v = inline_node(acc[0].value, idefs_)
-        ok = pat.is_(v, f"math.ceil(V_d / {bsz})", f"-(-V_d // {bsz})", f"(V_d + {bsz} - 1) // {bsz}", binds=nd_) and not guards(acc[0], stop=source.enclosing(acc[0], ast.For))
-    chk.ob("O3.8", "bulks per file == ceil(docs / bulk size)", ok, acc[0] if acc else nb, "")
-    tb = [x for x in walk_body(ii) if isinstance(x, ast.Assign) and is_self_attr(x.targets[0], "total_bulks")]
-    allv = _target_name(c2[0])  # role: the local holding the counter's result
-    # role: the attribute holding the ingest percentage = the constructor parameter that receives the value read from the user's "ingest-percentage" setting
-    BI = pr.cls("BulkIndexParamSource")
-    binit, pinit = _meth(pr, BI, "__init__"), _meth(pr, PB, "__init__")
-    src_attr = [x.targets[0].attr for x in walk_body(binit) if isinstance(x, ast.Assign) and is_self_attr(x.targets[0]) and isinstance(x.value, ast.Call)
-                and any(source.is_const(a, "ingest-percentage") for a in list(x.value.args) + [k_.value for k_ in x.value.keywords])]
-    ctor = [c for c in source.calls_in(binit) if last_attr(c.func) == PB.name]
-    pct_param = [k_ for k_, v in bind_args(ctor[0], pinit).items() if src_attr and is_self_attr(v, src_attr[0])] if ctor else []
-    pct_attr = [x.targets[0].attr for x in walk_body(pinit) if isinstance(x, ast.Assign) and is_self_attr(x.targets[0]) and pct_param and pat.is_(x.value, "V_p", binds={"p": pct_param[0]})]
-    if len(pct_attr) != 1:
-        raise AnchorMissing(f"the attribute of {PB.name} that stores the 'ingest-percentage' setting (found {pct_attr})")
 
-    def cutoff(nbulks, p):
-        """value of total_bulks after _init_internal_params() for a group with `nbulks` bulks and ingest percentage p (the counter's result is fixed, everything else is evaluated)."""
-        env = {allv: nbulks, f"self.{pct_attr[0]}": p}
-        _exec(ii.body, env, pr.imports, keep=(allv,))
-        if env.get("self.total_bulks", _OPAQUE) is _OPAQUE:
-            raise _Cannot("no computable value is assigned to total_bulks")
-        return env["self.total_bulks"]
+    def o38():
+        nonlocal bp, total, s, e, n, flag, OFF, DOCS, LINES, NB_DOCS, crp, c2
+        # roles: the bulk counter is the local number_of_bulks() returns; the slice's document count is position 1 of its bounds() unpack
+        bulkv = _returned_name(nb)
+        acc = [x for x in walk_body(nb) if isinstance(x, ast.AugAssign) and isinstance(x.op, ast.Add) and bulkv is not None and pat.is_(x.target, "V_b", binds={"b": bulkv})]
+        ndefs = {}
+        for x in walk_body(nb):
+            if isinstance(x, ast.Assign) and isinstance(x.targets[0], ast.Tuple) and isinstance(x.value, ast.Tuple):
+                for t, v in zip(x.targets[0].elts, x.value.elts):
+                    ndefs[u(t)] = v
+            elif isinstance(x, ast.Assign) and isinstance(x.targets[0], ast.Name):
+                ndefs[u(x.targets[0])] = x.value
+        bsz = params_of(nb)[4]
+        ok = False
+        nd_ = {"d": NB_DOCS}
+        zero = [x for x in walk_body(nb) if isinstance(x, ast.Assign) and bulkv is not None and any(pat.is_(t, "V_b", binds={"b": bulkv}) for t in x.targets)]
+        loopv = {t.id for x in walk_body(nb) if isinstance(x, ast.For) for t in ast.walk(x.target) if isinstance(t, ast.Name)}
+        idefs_ = {k_: v for k_, v in ndefs.items() if k_ != NB_DOCS and k_ != bulkv and k_ not in loopv}
+        start0 = NB_DOCS is not None and len(zero) == 1 and source.is_const(zero[0].value, 0) and source.parent(zero[0]) is nb
+        if len(acc) == 2 and start0:
+            one = [x for x in acc if source.is_const(x.value, 1)]
+            full = [x for x in acc if x not in one]
+            if len(one) == 1 and len(full) == 1:
+                fe = inline_node(full[0].value, idefs_)
+                ok = pat.is_(fe, f"V_d // {bsz}", binds=nd_) and not guards(full[0], stop=source.enclosing(full[0], ast.For)) \
+                    and any(pat.is_(inline_node(t, idefs_), f"V_d % {bsz} > 0", f"V_d % {bsz} != 0", binds=nd_) for t in pat.fact_nodes(one[0], stop=source.enclosing(one[0], ast.For)))
+        elif len(acc) == 1 and start0:
+            v = inline_node(acc[0].value, idefs_)
+            ok = pat.is_(v, f"math.ceil(V_d / {bsz})", f"-(-V_d // {bsz})", f"(V_d + {bsz} - 1) // {bsz}", binds=nd_) and not guards(acc[0], stop=source.enclosing(acc[0], ast.For))
+        ob("O3.8", "bulks per file == ceil(docs / bulk size)", ok, acc[0] if acc else nb, "")
+        # role: the attribute holding the ingest percentage = the constructor parameter that receives the value read from the user's "ingest-percentage" setting
+        BI = pr.cls("BulkIndexParamSource")
+        binit, pinit = _meth(pr, BI, "__init__"), _meth(pr, PB, "__init__")
+        src_attr = [x.targets[0].attr for x in walk_body(binit) if isinstance(x, ast.Assign) and is_self_attr(x.targets[0]) and isinstance(x.value, ast.Call)
+                    and any(source.is_const(a, "ingest-percentage") for a in list(x.value.args) + [k_.value for k_ in x.value.keywords])]
+        ctor = [c for c in source.calls_in(binit) if last_attr(c.func) == PB.name]
+        pct_param = [k_ for k_, v in bind_args(ctor[0], pinit).items() if src_attr and is_self_attr(v, src_attr[0])] if ctor else []
+        pct_attr = [x.targets[0].attr for x in walk_body(pinit) if isinstance(x, ast.Assign) and is_self_attr(x.targets[0]) and pct_param and pat.is_(x.value, "V_p", binds={"p": pct_param[0]})]
+        # role: the method that computes the cut-off is the one that consults the bulk counter
+        # role: the method that computes the cut-off is the one that consults the bulk counter - itself or through own helper methods; it is entered where the driver's contract
+        # enters it (a method without parameters of its own that is not reached from another candidate)
+        pmeths = pr.methods(PB)
 
-    # decided on VALUES: the extracted computation is evaluated for bulk counts / percentages whose exact product is (and is not) an integer; binary floating point gets the first rows wrong
-    ok, detail, empty_total = bool(tb) and allv is not None and local_defs(ii).get(allv) is c2[0], "total_bulks is not computed from the counter's result", None
-    if ok:
+        def reaches(m_, seen=()):
+            if any(last_attr(c.func) == nb.name for c in source.calls_in(m_)):
+                return True
+            return any(reaches(pmeths[c.func.attr], seen + (m_.name,)) for c in source.calls_in(m_) if is_self_attr(c.func) and c.func.attr in pmeths and c.func.attr not in seen + (m_.name,))
+
+        cand = [m_ for m_ in pmeths.values() if not _own_params(m_) and m_.name != "params" and not any(dotted(d) in ("property", "staticmethod", "classmethod") for d in m_.decorator_list) and reaches(m_)]
+        inits = [m_ for m_ in cand if not any(is_self_attr(c.func, m_.name) for o_ in cand if o_ is not m_ for c in source.calls_in(o_))]
+        tb = [x for m_ in inits for x in walk_body(m_) if isinstance(x, ast.Assign) and is_self_attr(x.targets[0])]
+
+        def cutoff(nbulks, p):
+            """the cut-off a source computes for a group with `nbulks` bulks and ingest percentage p: the method is evaluated on an object that carries the percentage (own helper
+            methods are followed); the counter's result is fixed wherever it is consulted; the cut-off is the one number the method leaves in an attribute."""
+            fired = []
+            obj = _Obj(PB, {pct_attr[0]: p})
+            m8 = _M(pr, None, {nb.name: lambda c, env: fired.append(1) or nbulks})
+            m8.call_def(inits[0], [obj], {}, PB)
+            if not fired:
+                raise _Cannot("the bulk counter is not consulted")
+            nums = {k_: v for k_, v in obj.attrs.items() if k_ != pct_attr[0] and isinstance(v, _NUM) and not isinstance(v, bool)}
+            if len(nums) != 1:
+                raise _Cannot(f"no single computable number is left in an attribute (found {sorted(nums)})")
+            return next(iter(nums.values()))
+
+        # decided on VALUES: the extracted computation is evaluated for bulk counts / percentages whose exact product is (and is not) an integer; binary floating point gets the first rows wrong
+        ok, detail, empty_total = True, "", None
         try:
-            detail = u(tb[0].value)
+            if len(pct_attr) != 1 or len(inits) != 1:
+                raise _Cannot(f"the attribute of {PB.name} that stores the 'ingest-percentage' setting (found {pct_attr}) / the method that consults the bulk counter (found {[m_.name for m_ in inits]})")
             for nb_, p_, want in _CUTOFF_ROWS:
                 try:
                     got = cutoff(nb_, p_)
                 except _Raised as x:
                     got = f"raises {x}"
                 if isinstance(got, bool) or not isinstance(got, _NUM) or got != want:
-                    ok, detail = False, f"{nb_} bulks at {p_}%: {got!r} instead of {want}   [{u(tb[0].value)}]"
+                    ok, detail = False, f"{nb_} bulks at {p_}%: {got!r} instead of {want}"
                     break
             try:
                 empty_total = cutoff(0, 100.0)
             except _Raised:
                 pass
+            chk.ob("O3.8", "total_bulks == ceil(all_bulks * p / 100)", ok, tb[-1] if tb else (inits[0] if inits else PB), detail)
         except _Cannot as x:
-            ok = None
-            chk.unknown("O3.8", f"total_bulks cannot be evaluated on values: {x}", tb[0])
-    if ok is not None:
-        chk.ob("O3.8", "total_bulks == ceil(all_bulks * p / 100)", ok, tb[0] if tb else ii, detail)
-    pm = _meth(pr, PB, "params")
-    gpm = cfg_of(pm)
-    stop = [x for x in walk_body(pm) if isinstance(x, ast.Raise) and "StopIteration" in u(x.exc)]
-    ok = bool(stop) and (holds(stop[0], "self.current_bulk == self.total_bulks") or holds(stop[0], "self.current_bulk >= self.total_bulks")) and holds(stop[0], "not self.looped")
-    chk.ob("O3.8", "StopIteration at current == total unless looped", ok, stop[0] if stop else pm, "")
-    inc = [x for x in walk_body(pm) if isinstance(x, ast.AugAssign) and is_self_attr(x.target, "current_bulk")]
-    rt = [x for x in walk_body(pm) if isinstance(x, ast.Return)]
-    ok = len(inc) == 1 and source.is_const(inc[0].value, 1) and not guards(inc[0]) and len(rt) == 1 and u(rt[0].value) == "next(self.internal_params)" and gpm.dominated_by_nodes(gpm.node_of(rt[0]), [gpm.node_of(inc[0])])
-    chk.ob("O3.8", "current += 1 once per returned bulk", ok, inc[0] if inc else pm, "")
-    ok = any(isinstance(x, ast.Call) and u(x.func) == "self._init_internal_params" and holds(x, "self.current_bulk == 0") for x in walk_body(pm))
-    chk.ob("O3.8", "readers and totals initialised before the first bulk", ok, pm, "")
-    pc = pr.methods(PB).get("percent_completed")
+            # not evaluable in isolation: the end-to-end runs decide (they include a product that binary floating point misses)
+            ob("O3.8", "total_bulks == ceil(all_bulks * p / 100)", False, tb[-1] if tb else PB, f"the cut-off cannot be evaluated in isolation: {x}", sims=("cut",))
+        pm = _meth(pr, PB, "params")
+        gpm = cfg_of(pm)
+        stop = [x for x in walk_body(pm) if isinstance(x, ast.Raise) and "StopIteration" in u(x.exc)]
+        ok = bool(stop) and (holds(stop[0], "self.current_bulk == self.total_bulks") or holds(stop[0], "self.current_bulk >= self.total_bulks")) and holds(stop[0], "not self.looped")
+        ob("O3.8", "StopIteration at current == total unless looped", ok, stop[0] if stop else pm, "")
+        inc = [x for x in walk_body(pm) if isinstance(x, ast.AugAssign) and is_self_attr(x.target, "current_bulk")]
+        rt = [x for x in walk_body(pm) if isinstance(x, ast.Return)]
+        ok = len(inc) == 1 and source.is_const(inc[0].value, 1) and not guards(inc[0]) and len(rt) == 1 and u(rt[0].value) == "next(self.internal_params)" and gpm.dominated_by_nodes(gpm.node_of(rt[0]), [gpm.node_of(inc[0])])
+        ob("O3.8", "current += 1 once per returned bulk", ok, inc[0] if inc else pm, "")
+        ok = any(isinstance(x, ast.Call) and u(x.func) == "self._init_internal_params" and holds(x, "self.current_bulk == 0") for x in walk_body(pm))
+        ob("O3.8", "readers and totals initialised before the first bulk", ok, pm, "")
+        pc = pr.methods(PB).get("percent_completed")
 
-    def progress(cur, tot):
-        return _exec(pc.body, {"self.current_bulk": cur, "self.total_bulks": tot}, pr.imports)[1]
+        def progress(cur, tot):
+            return _exec(pc.body, {"self.current_bulk": cur, "self.total_bulks": tot}, pr.imports)[1]
 
-    ok, detail = pc is not None, "" if pc is not None else "no percent_completed"
-    if pc is not None:
+        ok, detail = True, ""
         try:
+            if pc is None:
+                raise _Cannot("no percent_completed")
             for cur, tot in ((0, 1), (1, 4), (3, 4), (4, 4), (1, 3), (33, 33), (17, 10 ** 12)):
                 try:
                     got = progress(cur, tot)
@@ -988,15 +2469,15 @@ def run(chk):
                 if isinstance(got, bool) or not isinstance(got, _NUM) or abs(got - cur / tot) > 1e-12:
                     ok, detail = False, f"bulk {cur} of {tot}: {got!r} instead of {cur / tot}"
                     break
+            chk.ob("O3.8", "progress == current / total bulks", ok, pc, detail)
         except _Cannot as x:
-            ok = None
-            chk.unknown("O3.8", f"percent_completed cannot be evaluated on values: {x}", pc)
-    if ok is not None:
-        chk.ob("O3.8", "progress == current / total bulks", ok, pc if pc else PB, detail)
-    # a group whose slice holds no document has total_bulks == ceil(0 * p / 100) == 0 after its first params() call (which ends in StopIteration as it must); the next co-located
-    # client's schedule then reads percent_completed (hasattr() / the loop of ScheduleHandle): an exception there is not a StopIteration, it aborts the race for ALL clients
-    if pc is not None and empty_total is not None:
+            # the attributes it reads are not the ones fixed here: the end-to-end runs decide (progress as the driver reads it after every bulk)
+            ob("O3.8", "progress == current / total bulks", False, pc if pc is not None else PB, f"percent_completed cannot be evaluated in isolation: {x}", sims=("progress",))
+        # a group whose slice holds no document has total_bulks == ceil(0 * p / 100) == 0 after its first params() call (which ends in StopIteration as it must); the next co-located
+        # client's schedule then reads percent_completed (hasattr() / the loop of ScheduleHandle): an exception there is not a StopIteration, it aborts the race for ALL clients
         try:
+            if pc is None or empty_total is None:
+                raise _Cannot("the cut-off of an empty partition / percent_completed cannot be evaluated in isolation")
             try:
                 got, ok = progress(0, empty_total), True
             except _Raised as x:
@@ -1004,7 +2485,26 @@ def run(chk):
             chk.ob("O3.8", "progress of a group without documents is defined (no division by its total of 0 bulks)", ok, pc,
                    f"all_bulks == 0 -> total_bulks == {empty_total!r}; percent_completed at bulk 0 of {empty_total!r}: {got!r}", key=f"{_P}:{PB.name}.percent_completed:empty-partition")
         except _Cannot as x:
-            chk.unknown("O3.8", f"percent_completed cannot be evaluated for an empty partition: {x}", pc)
+            ob("O3.8", "progress of a group without documents is defined (no division by its total of 0 bulks)", False, pc if pc is not None else PB, str(x),
+               key=f"{_P}:{PB.name}.percent_completed:empty-partition", sims=("progress0",))
+
+    block("O3.8", o38)
+
+    # ---- the rows of the value runs, each under the rule whose clause it decides -------------------------------------------------------------------------------------------
+    site = pr.index().get(reg[0] if len(reg) == 1 else "BulkIndexParamSource") or _P
+    skipped = []
+    for rule, name, text in _SIM_ROWS:
+        for label, ok, detail in VD.rows.get(name, []):
+            if ok is None:
+                skipped.append(f"{name} [{label}]: {detail}")
+            else:
+                chk.ob(rule, f"{text} [{label}]", ok, site, detail, key=f"{_P}:pipeline-on-values:{name}:{label}")
+        if not VD.rows.get(name):
+            skipped.append(f"{name}: {getattr(VD, 'note', 'not evaluated')}")
+    if skipped:
+        # not evaluable is not a finding; it is inconclusive only where a recogniser needed the run (reported there) or the floor of a rule is no longer met
+        chk.adv("O3.2", f"value runs that could not be evaluated ({len(skipped)}): " + " | ".join(skipped[:4]), site)
+    chk.stats["pipeline_evaluation_steps"] = getattr(VD, "steps", 0)
 
 from sa.selftest import V  # noqa: E402
 
@@ -1082,4 +2582,136 @@ VARIANTS = [
       "        table = \"%s.offset\" % document_file_path\n        if os.path.exists(f\"{document_file_path}.offset\"):\n            logging.getLogger(__name__).info(\"Removing [%s].\", table)\n"
       "            io.remove_file_offset_table(document_file_path)"),
     V("ceil written with math.ceil", "keep", _P, "            complete_bulks, rest = (num_docs // bulk_size, num_docs % bulk_size)\n            bulks += complete_bulks\n            if rest > 0:\n                bulks += 1", "            bulks += math.ceil(num_docs / bulk_size)"),
+    # ---- hardening round 2: realistic refactorings (helpers, renamed attributes, other idioms). The structural recognisers do not know these shapes; the clauses are decided by the
+    # value runs of the pipeline - and the same shapes WITH a defect must still be reported
+    V("r2: progress attribute of the slice renamed", "keep", _P, "self.current_line", "self.lines_read", count=4),
+    V("r2: progress attribute renamed, advanced by one per read instead of by the lines read", "break", _P, r"self\.current_line \+= len\(lines\)|self\.current_line", 
+      lambda m: "self.lines_read += 1" if "+=" in m.group(0) else "self.lines_read", "O3.3", count=4, regex=True),
+    V("r2: rounding of a client boundary extracted into a helper", "keep", _P,
+      "    start_offset_docs = round(docs_per_client * start_client_index)\n    end_offset_docs = round(docs_per_client * (end_client_index + 1))\n",
+      "    def first_doc_of(client_index):\n        return round(docs_per_client * client_index)\n\n    start_offset_docs = first_doc_of(start_client_index)\n    end_offset_docs = first_doc_of(end_client_index + 1)\n"),
+    V("r2: boundary helper, end computed from the share instead of from the next client's boundary", "break", _P,
+      "    start_offset_docs = round(docs_per_client * start_client_index)\n    end_offset_docs = round(docs_per_client * (end_client_index + 1))\n",
+      "    def first_doc_of(client_index):\n        return round(docs_per_client * client_index)\n\n    start_offset_docs = first_doc_of(start_client_index)\n    end_offset_docs = start_offset_docs + first_doc_of(end_client_index - start_client_index + 1)\n", "O3.1"),
+    V("r2: batch loop as `while True` with a break", "keep", _P, "            while docs_in_batch < self.batch_size:\n                try:",
+      "            while True:\n                if docs_in_batch >= self.batch_size:\n                    break\n                try:"),
+    V("r2: fast path builds the bulk with extend()", "keep", _P, "        for doc in docs:\n            current_bulk.append(action_metadata_line)\n            current_bulk.append(doc)\n        return len(docs), current_bulk",
+      "        for doc in docs:\n            current_bulk.extend((action_metadata_line, doc))\n        return len(docs), current_bulk"),
+    V("r2: fast path with extend(), document before its action line", "break", _P, "        for doc in docs:\n            current_bulk.append(action_metadata_line)\n            current_bulk.append(doc)\n        return len(docs), current_bulk",
+      "        for doc in docs:\n            current_bulk.extend((doc, action_metadata_line))\n        return len(docs), current_bulk", "O3.4"),
+    V("r2: fast path as a comprehension", "keep", _P, "        for doc in docs:\n            current_bulk.append(action_metadata_line)\n            current_bulk.append(doc)\n        return len(docs), current_bulk",
+      "        current_bulk = [line for doc in docs for line in (action_metadata_line, doc)]\n        return len(docs), current_bulk"),
+    V("r2: cut-off and reader creation in helper methods, counters renamed", "keep", _P,
+      "        all_bulks = number_of_bulks(self.corpora, start_index, end_index, self.total_partitions, self.bulk_size)\n"
+      "        # exact arithmetic: in binary floating point e.g. 1500 * 2.2 / 100 is slightly more than 33 and would be rounded up to 34\n"
+      "        self.total_bulks = math.ceil(fractions.Fraction(str(self.ingest_percentage)) * all_bulks / 100)\n",
+      "        self.total_bulks = self._bulks_to_ingest(start_index, end_index)\n\n"
+      "    def _bulks_to_ingest(self, first_client, last_client):\n"
+      "        available = number_of_bulks(self.corpora, first_client, last_client, self.total_partitions, self.bulk_size)\n"
+      "        return math.ceil(fractions.Fraction(str(self.ingest_percentage)) * available / 100)\n"),
+    V("r2: cut-off helper counts with the batch size", "break", _P,
+      "        all_bulks = number_of_bulks(self.corpora, start_index, end_index, self.total_partitions, self.bulk_size)\n"
+      "        # exact arithmetic: in binary floating point e.g. 1500 * 2.2 / 100 is slightly more than 33 and would be rounded up to 34\n"
+      "        self.total_bulks = math.ceil(fractions.Fraction(str(self.ingest_percentage)) * all_bulks / 100)\n",
+      "        self.total_bulks = self._bulks_to_ingest(start_index, end_index)\n\n"
+      "    def _bulks_to_ingest(self, first_client, last_client):\n"
+      "        available = number_of_bulks(self.corpora, first_client, last_client, self.total_partitions, self.batch_size)\n"
+      "        return math.ceil(fractions.Fraction(str(self.ingest_percentage)) * available / 100)\n", "O3"),
+    V("r2: cut-off helper in binary floating point", "break", _P,
+      "        all_bulks = number_of_bulks(self.corpora, start_index, end_index, self.total_partitions, self.bulk_size)\n"
+      "        # exact arithmetic: in binary floating point e.g. 1500 * 2.2 / 100 is slightly more than 33 and would be rounded up to 34\n"
+      "        self.total_bulks = math.ceil(fractions.Fraction(str(self.ingest_percentage)) * all_bulks / 100)\n",
+      "        self.total_bulks = self._bulks_to_ingest(start_index, end_index)\n\n"
+      "    def _bulks_to_ingest(self, first_client, last_client):\n"
+      "        available = number_of_bulks(self.corpora, first_client, last_client, self.total_partitions, self.bulk_size)\n"
+      "        return math.ceil(available * self.ingest_percentage / 100)\n", "O3.8"),
+    V("r2: bulk counter as a sum over a generator with a ceiling helper", "keep", _P,
+      "    bulks = 0\n    for corpus in corpora:\n        for docs in corpus.documents:\n            _, num_docs, _ = bounds(\n                docs.number_of_documents, start_partition_index, end_partition_index, total_partitions, docs.includes_action_and_meta_data\n            )\n"
+      "            complete_bulks, rest = (num_docs // bulk_size, num_docs % bulk_size)\n            bulks += complete_bulks\n            if rest > 0:\n                bulks += 1\n    return bulks\n",
+      "    def share(docs):\n        return bounds(docs.number_of_documents, start_partition_index, end_partition_index, total_partitions, docs.includes_action_and_meta_data)[1]\n\n"
+      "    return sum(-(-share(docs) // bulk_size) for corpus in corpora for docs in corpus.documents)\n"),
+    V("r2: bulk counter as a sum, partial bulk not counted", "break", _P,
+      "    bulks = 0\n    for corpus in corpora:\n        for docs in corpus.documents:\n            _, num_docs, _ = bounds(\n                docs.number_of_documents, start_partition_index, end_partition_index, total_partitions, docs.includes_action_and_meta_data\n            )\n"
+      "            complete_bulks, rest = (num_docs // bulk_size, num_docs % bulk_size)\n            bulks += complete_bulks\n            if rest > 0:\n                bulks += 1\n    return bulks\n",
+      "    def share(docs):\n        return bounds(docs.number_of_documents, start_partition_index, end_partition_index, total_partitions, docs.includes_action_and_meta_data)[1]\n\n"
+      "    return sum(share(docs) // bulk_size for corpus in corpora for docs in corpus.documents)\n", "O3.8"),
+    [V("r2: conflict index chosen by a helper method", "keep", _P,
+       "                if self.recency == 0:\n                    idx = self.randint(0, self.id_up_to - 1)\n                else:",
+       "                if self.recency == 0:\n                    idx = self._any_emitted()\n                else:"),
+     V("", "keep", _P, "    def __iter__(self):\n        return self\n\n    def __next__(self):\n        if self.conflicting_ids is not None:",
+       "    def _any_emitted(self):\n        return self.randint(0, self.id_up_to - 1)\n\n    def __iter__(self):\n        return self\n\n    def __next__(self):\n        if self.conflicting_ids is not None:")],
+    [V("r2: conflict index helper, inclusive upper bound", "break", _P,
+       "                if self.recency == 0:\n                    idx = self.randint(0, self.id_up_to - 1)\n                else:",
+       "                if self.recency == 0:\n                    idx = self._any_emitted()\n                else:", "O3.6"),
+     V("", "break", _P, "    def __iter__(self):\n        return self\n\n    def __next__(self):\n        if self.conflicting_ids is not None:",
+       "    def _any_emitted(self):\n        return self.randint(0, self.id_up_to)\n\n    def __iter__(self):\n        return self\n\n    def __next__(self):\n        if self.conflicting_ids is not None:")],
+    V("r2: counters of the partition source renamed", "keep", _P, r"self\.total_bulks|self\.current_bulk", lambda m: "self.bulks_to_ingest" if "total" in m.group(0) else "self.bulks_handed_out", count=11, regex=True),
+    V("r2: chain() skips absent readers with continue", "keep", _P, "    for it in filter(lambda x: x is not None, iterables):\n        # execute within a context\n        with it:\n            yield from it",
+      "    for it in iterables:\n        if it is None:\n            continue\n        with it:\n            for item in it:\n                yield item"),
+    V("r2: chain() without the context (files never opened)", "break", _P, "    for it in filter(lambda x: x is not None, iterables):\n        # execute within a context\n        with it:\n            yield from it",
+      "    for it in iterables:\n        if it is None:\n            continue\n        for item in it:\n            yield item", "O3.9"),
+    V("r2: bulk params merged in one expression", "keep", _P, "            params = original_params.copy()\n            params.update(bulk_params)\n            yield params", "            yield {**original_params, **bulk_params}"),
+    V("r2: source-only reader halves with a division", "keep", _P, "        return len(bulk_items) // 2, bulk_items", "        return int(len(bulk_items) / 2), bulk_items"),
+    V("r2: source-only reader reports lines as documents", "break", _P, "        return len(bulk_items) // 2, bulk_items", "        return len(bulk_items), bulk_items", "O3"),
+    V("r2: reader queues built by a comprehension, staggering by index", "keep", _P,
+      "    while total_readers > 0:\n        for reader_queue in corpora_readers:\n            # Since corpora don't necessarily contain the same number of documents, we\n            # ignore already consumed queues\n"
+      "            if reader_queue:\n                staggered_readers.append(reader_queue.popleft())\n                total_readers -= 1\n    return staggered_readers",
+      "    longest = max((len(q) for q in corpora_readers), default=0)\n    for position in range(longest):\n        staggered_readers.extend(q[position] for q in corpora_readers if position < len(q))\n    return staggered_readers"),
+    V("r2: staggering by index stops at the shortest queue", "break", _P,
+      "    while total_readers > 0:\n        for reader_queue in corpora_readers:\n            # Since corpora don't necessarily contain the same number of documents, we\n            # ignore already consumed queues\n"
+      "            if reader_queue:\n                staggered_readers.append(reader_queue.popleft())\n                total_readers -= 1\n    return staggered_readers",
+      "    shortest = min((len(q) for q in corpora_readers), default=0)\n    for position in range(shortest):\n        staggered_readers.extend(q[position] for q in corpora_readers if position < len(q))\n    return staggered_readers", "O3.9"),
+    [V("r2: decompression and table invalidation extracted into one helper", "keep", _L,
+       "                self.decompressor.decompress(archive_path, doc_path, document_set.uncompressed_size_in_bytes)\n                self.invalidate_file_offset_table(doc_path)\n",
+       "                self._unpack(archive_path, doc_path, document_set.uncompressed_size_in_bytes)\n"),
+     V("", "keep", _L,
+       "                    self.decompressor.decompress(archive_path, doc_path, document_set.uncompressed_size_in_bytes)\n                    self.invalidate_file_offset_table(doc_path)\n",
+       "                    self._unpack(archive_path, doc_path, document_set.uncompressed_size_in_bytes)\n"),
+     V("", "keep", _L, "    def create_file_offset_table(self, document_file_path, expected_number_of_lines):",
+       "    def _unpack(self, archive, document_file_path, expected_size):\n        self.decompressor.decompress(archive, document_file_path, expected_size)\n        self.invalidate_file_offset_table(document_file_path)\n\n    def create_file_offset_table(self, document_file_path, expected_number_of_lines):")],
+    [V("r2: extracted decompression helper forgets the table", "break", _L,
+       "                self.decompressor.decompress(archive_path, doc_path, document_set.uncompressed_size_in_bytes)\n                self.invalidate_file_offset_table(doc_path)\n",
+       "                self._unpack(archive_path, doc_path, document_set.uncompressed_size_in_bytes)\n", "O3.10"),
+     V("", "break", _L,
+       "                    self.decompressor.decompress(archive_path, doc_path, document_set.uncompressed_size_in_bytes)\n                    self.invalidate_file_offset_table(doc_path)\n",
+       "                    self._unpack(archive_path, doc_path, document_set.uncompressed_size_in_bytes)\n"),
+     V("", "break", _L, "    def create_file_offset_table(self, document_file_path, expected_number_of_lines):",
+       "    def _unpack(self, archive, document_file_path, expected_size):\n        self.decompressor.decompress(archive, document_file_path, expected_size)\n\n    def create_file_offset_table(self, document_file_path, expected_number_of_lines):")],
+    [V("r2: extracted decompression helper invalidates the archive's table", "break", _L,
+       "                self.decompressor.decompress(archive_path, doc_path, document_set.uncompressed_size_in_bytes)\n                self.invalidate_file_offset_table(doc_path)\n",
+       "                self._unpack(archive_path, doc_path, document_set.uncompressed_size_in_bytes)\n", "O3.10"),
+     V("", "break", _L,
+       "                    self.decompressor.decompress(archive_path, doc_path, document_set.uncompressed_size_in_bytes)\n                    self.invalidate_file_offset_table(doc_path)\n",
+       "                    self._unpack(archive_path, doc_path, document_set.uncompressed_size_in_bytes)\n"),
+     V("", "break", _L, "    def create_file_offset_table(self, document_file_path, expected_number_of_lines):",
+       "    def _unpack(self, archive, document_file_path, expected_size):\n        self.decompressor.decompress(archive, document_file_path, expected_size)\n        self.invalidate_file_offset_table(archive)\n\n    def create_file_offset_table(self, document_file_path, expected_number_of_lines):")],
+    V("r2: line limit of the slice renamed (attribute and constructor parameter)", "keep", _P, "number_of_lines", "line_limit", count=7),
+    [V("r2: batch reading extracted into a helper method, batch size tested on the bulks read", "keep", _P,
+       "        batch = []\n        try:\n            docs_in_batch = 0\n            while docs_in_batch < self.batch_size:\n                try:\n                    docs_in_bulk, bulk = self.read_bulk()\n"
+       "                except StopIteration:\n                    break\n                if docs_in_bulk == 0:\n                    break\n                docs_in_batch += docs_in_bulk\n"
+       "                batch.append((docs_in_bulk, b\"\".join(bulk)))\n            if docs_in_batch == 0:\n                raise StopIteration()\n            return self.index_name, self.type_name, batch\n",
+       "        try:\n            batch = self._read_batch()\n            if not batch:\n                raise StopIteration()\n            return self.index_name, self.type_name, batch\n"),
+     V("", "keep", _P, "    def __exit__(self, exc_type, exc_val, exc_tb):\n        self.file_source.close()\n        return False\n",
+       "    def _read_batch(self):\n        batch = []\n        while sum(docs for docs, _ in batch) < self.batch_size:\n            try:\n                docs_in_bulk, bulk = self.read_bulk()\n"
+       "            except StopIteration:\n                break\n            if docs_in_bulk == 0:\n                break\n            batch.append((docs_in_bulk, b\"\".join(bulk)))\n        return batch\n\n"
+       "    def __exit__(self, exc_type, exc_val, exc_tb):\n        self.file_source.close()\n        return False\n")],
+    [V("r2: batch helper discards the bulk that fills the batch", "break", _P,
+       "        batch = []\n        try:\n            docs_in_batch = 0\n            while docs_in_batch < self.batch_size:\n                try:\n                    docs_in_bulk, bulk = self.read_bulk()\n"
+       "                except StopIteration:\n                    break\n                if docs_in_bulk == 0:\n                    break\n                docs_in_batch += docs_in_bulk\n"
+       "                batch.append((docs_in_bulk, b\"\".join(bulk)))\n            if docs_in_batch == 0:\n                raise StopIteration()\n            return self.index_name, self.type_name, batch\n",
+       "        try:\n            batch = self._read_batch()\n            if not batch:\n                raise StopIteration()\n            return self.index_name, self.type_name, batch\n", "O3"),
+     V("", "break", _P, "    def __exit__(self, exc_type, exc_val, exc_tb):\n        self.file_source.close()\n        return False\n",
+       "    def _read_batch(self):\n        batch = []\n        while sum(docs for docs, _ in batch) < self.batch_size:\n            try:\n                docs_in_bulk, bulk = self.read_bulk()\n"
+       "            except StopIteration:\n                break\n            if docs_in_bulk == 0 or sum(docs for docs, _ in batch) + docs_in_bulk >= self.batch_size:\n                break\n            batch.append((docs_in_bulk, b\"\".join(bulk)))\n        return batch\n\n"
+       "    def __exit__(self, exc_type, exc_val, exc_tb):\n        self.file_source.close()\n        return False\n")],
+    V("r2: read_bulk as a dispatching method instead of a re-bound attribute", "keep", _P,
+      "            _, self.action_metadata_line = next(self.action_metadata)\n            self.read_bulk = self._read_bulk_fast\n        else:\n            self.read_bulk = self._read_bulk_regular\n        return self\n",
+      "            _, self.action_metadata_line = next(self.action_metadata)\n        return self\n\n    def read_bulk(self):\n        return self._read_bulk_fast() if self.action_metadata.is_constant else self._read_bulk_regular()\n"),
+    V("r2: action lines chosen from a table", "keep", _P,
+      "            if action == \"index\":\n                return \"index\", self.meta_data_index_with_id % doc_id\n            elif action == \"update\":\n                return \"update\", self.meta_data_update_with_id % doc_id\n"
+      "            else:\n                raise exceptions.RallyAssertionError(f\"Unknown action [{action}]\")\n",
+      "            templates = {\"index\": self.meta_data_index_with_id, \"update\": self.meta_data_update_with_id}\n            if action not in templates:\n"
+      "                raise exceptions.RallyAssertionError(f\"Unknown action [{action}]\")\n            return action, templates[action] % doc_id\n"),
+    V("r2: additive counter and log line in the slice reader", "keep", _P, "        self.current_line += len(lines)\n        if len(lines) == 0:",
+      "        self.current_line += len(lines)\n        self.logger.debug(\"Read [%d] lines of %s.\", len(lines), self)\n        if len(lines) == 0:"),
 ]
